@@ -4,6 +4,7 @@
 From stdpp Require Import relations.
 From hagall Require Import Model Preds2.
 From hagall.proofs Require Import BaseLemmas Relay Inv Session Local Trans WF Mono Reach PC02 PC03 PC04 PC06 PC01.
+From hagall.proofs Require Own.
 From Coq Require Import Lia.
 
 (* ================= 1. P_C01_event, cut into its three view-updating phases ================= *)
@@ -1045,9 +1046,9 @@ Proof.
   - destruct (ev_verdict e); try done; by apply Hd.
   - destruct (ev_verdict e); try (by apply Hd).
     all: destruct (ev_req e) as [r|]; [|done].
-    all: destruct r; try (destruct (sp_mem sp !! c) as [[sid p]|]; [by rewrite spec_request_mem|done]).
+    all: destruct r; try (destruct (sp_mem sp !! c) as [[sid0 pid0]|]; [by rewrite spec_request_mem|done]).
     all: destruct (join_resp c (ev_outs e)) as [[[[? ?] ?] ?]|];
-      [cbv beta iota; rewrite enter_spec_mem, decide_False by (intros ->; done); by apply Hd|].
+      [rewrite enter_spec_mem, decide_False by (intros ->; done); by apply Hd|].
     all: destruct (has_error c E_NOT_FOUND (ev_outs e)); [by apply Hd|done].
   - by apply Hd.
 Qed.
@@ -1141,4 +1142,2646 @@ Proof.
       destruct Hvs as (v'&SS&Hv'&HS&V). assert (v' = v) as -> by congruence.
       by destruct (Ho SS v HS V) as (_&_&O&_).
     + exists extra. by rewrite E.
+Qed.
+
+Lemma others_step_weaken K c outs st st' : others_step (λ _, true) c outs st st' → others_step K c outs st st'.
+Proof.
+  intros H q Hq. destruct (H q Hq) as [E G]. split; [done|]. destruct (cur_of st q) as [[sid pq]|]; [|done].
+  intros SS v HS V. destruct (G SS v HS V) as (SS'&HS'&O&V'). exists SS'. split; [done|]. split; [|done].
+  apply recv_oks_K. by rewrite <- recv_oksK_all.
+Qed.
+
+Lemma fresh_pid st n SS :
+  inv st → nowrap st → sessions st !! n = Some SS → s_parts SS !! u32_succ (s_pgen SS) = None.
+Proof.
+  intros I [_ Wn] HS. destruct (s_parts SS !! u32_succ (s_pgen SS)) as [c0|] eqn:E; [|done]. exfalso.
+  assert (Hp : parts_of st n = Some (s_parts SS)) by (unfold parts_of; by rewrite HS).
+  assert (Hg : pgen_of st n = Some (s_pgen SS)) by (unfold pgen_of; by rewrite HS).
+  pose proof (inv_pgen _ I n _ _ (u32_succ (s_pgen SS)) Hp Hg (ex_intro _ _ E)) as Hle.
+  rewrite u32_succ_small in Hle by (by eapply Wn). lia.
+Qed.
+
+Lemma module_msgs_self cfg c SS d : d ∈ module_join_msgs cfg c SS → fst d = c.
+Proof.
+  unfold module_join_msgs. intros [H|H]%elem_of_app.
+  - destruct (cfg_vikja cfg); [|by inversion H]. by apply elem_of_list_singleton in H as ->.
+  - destruct (cfg_odal cfg); [|by inversion H]. by apply elem_of_list_singleton in H as ->.
+Qed.
+
+(* ---------- a join request ---------- *)
+Lemma join_others cfg k st c rid s ots hint :
+  inv st → nowrap st → swf cfg k st → (∀ f, flag_on cfg f = false) →
+  others_step (λ _, true) c (Model.join cfg st c rid s ots hint).1.2 st (Model.join cfg st c rid s ots hint).1.1.
+Proof.
+  intros I Wn W Hnf. unfold Model.join. destruct (conns st !! c) as [cn|] eqn:Hc; [|apply others_step_refl].
+  destruct (already_joined cn s) eqn:Ha.
+  { simpl. apply others_step_quiet; [done|done|]. intros d [->|Hd]%elem_of_cons; [done|].
+    destruct (c_cur cn) as [[cur pc]|]; [|by inversion Hd]. destruct (sessions st !! cur); [|by inversion Hd].
+    by eapply module_msgs_self. }
+  pose proof (leave_others cfg k st c I W Hnf) as HL.
+  pose proof (inv_leave cfg st c I) as I1. pose proof (leave_cur cfg st c I) as Hcur1.
+  pose proof (leave_nowrap cfg st c I Wn) as Wn1.
+  destruct (leave cfg st c) as [st1 o1]. cbn [fst snd] in *.
+  assert (Herr : ∀ code, others_step (λ _, true) c (o1 ++ [(c, MError rid code)]) st st1).
+  { intros code. eapply others_step_trans; [exact HL|]. apply others_step_quiet; [done|done|].
+    intros d Hd. by apply elem_of_list_singleton in Hd as ->. }
+  destruct s as [|n|j]; [| |apply Herr].
+  - destruct (create_session hint st1) as [n st2] eqn:Hcr.
+    pose proof (enter_new_others cfg st1 c rid ots hint n st2 I1 Wn1 Hnf Hcr) as HE.
+    destruct (enter cfg st2 c rid n ots) as [[st3 o2] v]. cbn [fst snd] in *.
+    by eapply others_step_trans.
+  - destruct (sessions st1 !! n) as [SS|] eqn:HS; [|apply Herr].
+    pose proof (enter_others cfg st1 c rid n ots SS I1 Hnf Hcur1 HS (fresh_pid _ _ _ I1 Wn1 HS)) as HE.
+    destruct (enter cfg st1 c rid n ots) as [[st2 o2] v]. cbn [fst snd] in *.
+    by eapply others_step_trans.
+Qed.
+
+(* ---------- requests that touch no session ---------- *)
+Lemma on_ping_outs st c cn rid d : d ∈ (on_ping st c cn rid).1.2 → fst d = c.
+Proof.
+  unfold on_ping, send_ping. repeat case_match; simplify_eq; simpl; intros Hd;
+    repeat (apply elem_of_cons in Hd as [->|Hd]; [done|]); by inversion Hd.
+Qed.
+Lemma handle_joined_other_outs cfg st c cn sid p SS r hint d :
+  session_local r = false → is_join r = false → d ∈ (handle_joined cfg st c cn sid p SS r hint).1.2 → fst d = c.
+Proof.
+  intros Hl Hj. destruct r; try discriminate Hl; try discriminate Hj; simpl.
+  all: try (by apply on_ping_outs).
+  all: unfold send_ping; repeat case_match; simplify_eq; simpl; intros Hd;
+    repeat (apply elem_of_cons in Hd as [->|Hd]; [done|]); by inversion Hd.
+Qed.
+Lemma handle_unjoined_outs cfg st c cn r hint d :
+  is_join r = false → d ∈ (handle_unjoined cfg st c cn r hint).1.2 → fst d = c.
+Proof.
+  intros Hj. destruct r; try discriminate Hj; simpl.
+  all: repeat case_match; simplify_eq; simpl; intros Hd;
+    repeat (apply elem_of_cons in Hd as [->|Hd]; [done|]); by inversion Hd.
+Qed.
+
+Lemma handle_others cfg k st c r hint :
+  inv st → nowrap st → swf cfg k st → k + 1 < two32 → (∀ f, flag_on cfg f = false) →
+  others_step core_msg c (handle cfg st c r hint).1.2 st (handle cfg st c r hint).1.1.
+Proof.
+  intros I Wn W Hk Hnf. unfold handle. destruct (conns st !! c) as [cn|] eqn:Hc; [|apply others_step_refl].
+  destruct (c_cur cn) as [[sid p]|] eqn:Hcur.
+  - destruct (sessions st !! sid) as [SS|] eqn:HS; [|apply others_step_refl].
+    destruct (is_join r) eqn:Hj.
+    { destruct r; try discriminate Hj. simpl. apply others_step_weaken. by eapply join_others. }
+    destruct (session_local r) eqn:Hl.
+    + rewrite (handle_joined_sstep cfg st c cn sid p SS r hint Hl Hc HS). by eapply sstep_others.
+    + pose proof (handle_joined_other cfg st c cn sid p SS r hint Hl Hj) as ES.
+      destruct (handle_joined cfg st c cn sid p SS r hint) as [[st' o] v] eqn:E.
+      pose proof (handle_joined_same cfg st c cn sid p SS r hint st' o v Hj HS E) as (EC&_).
+      apply others_step_quiet; [done|by intros q _|]. intros d Hd.
+      apply (handle_joined_other_outs cfg st c cn sid p SS r hint d Hl Hj). by rewrite E.
+  - destruct (is_join r) eqn:Hj.
+    { destruct r; try discriminate Hj. simpl. apply others_step_weaken. by eapply join_others. }
+    pose proof (handle_unjoined_other cfg st c cn r hint Hj) as ES.
+    destruct (handle_unjoined cfg st c cn r hint) as [[st' o] v] eqn:E.
+    pose proof (handle_unjoined_same cfg st c cn r hint st' o v Hj E) as (EC&_).
+    apply others_step_quiet; [done|by intros q _|]. intros d Hd.
+    apply (handle_unjoined_outs cfg st c cn r hint d Hj). by rewrite E.
+Qed.
+
+Lemma disconnect_others cfg k st c :
+  inv st → swf cfg k st → (∀ f, flag_on cfg f = false) →
+  others_step (λ _, true) c (disconnect cfg st c).2 st (disconnect cfg st c).1.
+Proof.
+  intros I W Hnf. unfold disconnect. pose proof (leave_others cfg k st c I W Hnf) as HL.
+  destruct (leave cfg st c) as [st1 o]. cbn [fst snd] in *.
+  rewrite <- (app_nil_r o). eapply others_step_trans; [exact HL|]. apply others_step_upd_conn.
+Qed.
+
+(* ================= 9. the actor's own view ================= *)
+Lemma view_own_other v r ms : session_local r = false → is_join r = false → view_own v r ms = v.
+Proof. intros Hl Hj. by destruct r. Qed.
+
+Lemma own_view_keep sp sp' e c h r v sid p :
+  sp_mem sp' !! c = Some (sid, p) → sp_mem sp !! c = Some (sid, p) →
+  ev_op e = OStep c h → ev_req e = Some r → is_join r = false →
+  own_view sp sp' e c (Some v) = Some (view_own v r (msgs_to c (ev_outs e))).
+Proof.
+  intros H1 H2 Ho Hr Hj. unfold own_view. rewrite H1.
+  assert (Hm : mem_changed sp sp' e c = false).
+  { unfold mem_changed, rejoined. rewrite H1, H2, Ho, Hr. rewrite bool_decide_eq_true_2 by done. by destruct r. }
+  rewrite Hm, Hr. by destruct r.
+Qed.
+Lemma own_view_idle sp e c vc :
+  ev_req e = None → (∀ h, ev_op e ≠ OStep c h) ∨ True → own_view sp sp e c vc = match sp_mem sp !! c with Some _ => vc | None => None end.
+Proof.
+  intros Hr _. unfold own_view. destruct (sp_mem sp !! c) as [[sid p]|] eqn:E; [|done].
+  assert (Hm : mem_changed sp sp e c = false).
+  { unfold mem_changed, rejoined. rewrite Hr. rewrite bool_decide_eq_true_2 by done. by destruct (ev_op e). }
+  by rewrite Hm, Hr.
+Qed.
+
+Lemma spec_step_nonjoin sp e c h r :
+  ev_op e = OStep c h → ev_req e = Some r → is_join r = false → ev_verdict e ≠ VErr → ev_verdict e ≠ VPanic →
+  sp_mem (spec_step sp e) = sp_mem sp.
+Proof.
+  intros Ho Hr Hj Hv1 Hv2. unfold spec_step. rewrite Ho, Hr.
+  destruct (ev_verdict e); try done.
+  all: destruct r; try discriminate Hj; destruct (sp_mem sp !! c) as [[sid0 pid0]|]; try done; by rewrite spec_request_mem.
+Qed.
+
+(* the state messages the modules send again after an ALREADY_JOINED refusal *)
+Lemma rejoin_own cfg k c rid SS v n p :
+  wf cfg k SS → vrel v n p SS →
+  vrel (rejoin_view (MError rid E_ALREADY_JOINED :: msgs_to c (module_join_msgs cfg c SS)) v) n p SS.
+Proof.
+  intros W (V1&V2&[M1 M2]&V3&V4). rewrite msgs_to_module_self. unfold rejoin_view.
+  destruct (cfg_vikja cfg) eqn:Ev, (cfg_odal cfg) eqn:Eo; cbn [app omap list_omap head]; repeat split; simpl; try done.
+  all: try (apply list_to_map_keyed; intros [e nm] a Ha; destruct (wf_acts _ _ _ W _ _ _ Ha) as (->&->&_); done).
+  all: try (apply list_to_map_keyed; intros e a Ha; destruct (wf_assets _ _ _ W _ _ Ha) as (->&_); done).
+Qed.
+
+(* nothing a departure causes is delivered to the leaver *)
+Lemma leave_outs_self cfg st c : inv st → msgs_to c (leave cfg st c).2 = [].
+Proof.
+  intros I. apply msgs_to_none. intros Hin. apply elem_of_list_fmap in Hin as (d&Hd&Hin).
+  apply leave_recipients in Hin as (cn&sid&p&SS&q&Hc&Hcur&HS&Hq&Hne).
+  destruct (inv_member st c cn sid p SS I Hc Hcur HS) as [Hp Hi]. apply Hne. eapply Hi; [done|]. by rewrite <- Hd.
+Qed.
+
+Lemma swf_leave cfg k st c : inv st → swf cfg k st → swf cfg k (leave cfg st c).1.
+Proof.
+  intros I W. destruct (leave_sessions cfg st c I) as [(cn&sid&p&SS&Hc&Hcur&HS&Hp&E)|[_ E]]; [|by rewrite E].
+  intros s S'. rewrite E. case_decide as Hd.
+  - intros [_ Hx]%lookup_delete_Some. by eapply W.
+  - intros [[<- <-]|[_ Hx]]%lookup_insert_Some; [apply wf_left; by eapply W|by eapply W].
+Qed.
+
+Definition own_goal (sp sp' : spec) (e : event) (c : N) (vs : gmap N view) (st1 : state) : Prop :=
+  sp_mem sp' !! c = cur_of st1 c ∧
+  match cur_of st1 c with
+  | Some (sid, p) => ∃ v SS, own_view sp sp' e c (vs !! c) = Some v ∧ sessions st1 !! sid = Some SS ∧ vrel v sid p SS
+  | None => True
+  end.
+
+Lemma spec_step_join sp e c h rid s ots :
+  ev_op e = OStep c h → ev_req e = Some (RJoin rid s ots) → ev_verdict e = VOk →
+  spec_step sp e =
+    match join_resp c (ev_outs e) with
+    | Some (_, sid, uuid, pid) => enter_spec (depart sp c) c sid uuid pid
+    | None => if has_error c E_NOT_FOUND (ev_outs e) then depart sp c else sp
+    end.
+Proof. intros Ho Hr Hv. unfold spec_step. by rewrite Ho, Hr, Hv. Qed.
+
+Lemma join_resp_entered cfg c rid n ots SS o1 :
+  msgs_to c o1 = [] →
+  join_resp c (o1 ++ enter_outs cfg c rid n ots SS) = Some (rid, n, s_uuid SS, u32_succ (s_pgen SS)).
+Proof.
+  intros H1. unfold join_resp. rewrite first_to_msgs, msgs_to_app, H1. unfold enter_outs. cbv zeta.
+  rewrite msgs_to_app. simpl. by rewrite msgs_to_cons_eq.
+Qed.
+
+Lemma own_view_entered sp sp' e c h rid s ots vc n p :
+  sp_mem sp' !! c = Some (n, p) → ev_op e = OStep c h → ev_req e = Some (RJoin rid s ots) →
+  is_Some (join_resp c (ev_outs e)) →
+  own_view sp sp' e c vc = Some (view_init n p (msgs_to c (ev_outs e))).
+Proof.
+  intros H1 Ho Hr [x Hx]. unfold own_view. rewrite H1.
+  assert (Hm : mem_changed sp sp' e c = true).
+  { unfold mem_changed, rejoined. rewrite Ho, Hr, Hx, N.eqb_refl. simpl. apply orb_true_r. }
+  by rewrite Hm.
+Qed.
+
+Lemma join_own cfg k sp vs st c rid s ots hint h e :
+  (∀ f, flag_on cfg f = false) → inv st → nowrap st → swf cfg k st → is_Some (conns st !! c) →
+  spec_ok sp st → views_ok vs st →
+  ev_op e = OStep c h → ev_req e = Some (RJoin rid s ots) →
+  ev_outs e = (Model.join cfg st c rid s ots hint).1.2 → ev_verdict e = VOk →
+  own_goal sp (spec_step sp e) e c vs (Model.join cfg st c rid s ots hint).1.1.
+Proof.
+  intros Hnf I Wn W [cn Hc] Hsp Hvs Ho Hr Hout Hv.
+  rewrite (spec_step_join sp e c h rid s ots Ho Hr Hv). revert Hout. unfold Model.join. rewrite Hc.
+  destruct (already_joined cn s) eqn:Ha.
+  { (* refused: still in the session *)
+    unfold already_joined in Ha. destruct (c_cur cn) as [[n p]|] eqn:Hcur; [|done].
+    destruct s as [|n'|j]; try done. apply bool_decide_eq_true in Ha as <-.
+    assert (Hcur0 : cur_of st c = Some (n, p)) by (unfold cur_of; by rewrite Hc).
+    destruct (live_session _ _ (inv_live _ I _ _ _ Hcur0)) as [SS HS]. rewrite HS. cbn [fst snd]. intros Hout.
+    assert (Hmine : msgs_to c (ev_outs e) = MError rid E_ALREADY_JOINED :: msgs_to c (module_join_msgs cfg c SS)).
+    { by rewrite Hout, msgs_to_cons_eq. }
+    assert (Hjr : join_resp c (ev_outs e) = None).
+    { unfold join_resp. rewrite first_to_msgs, Hmine, msgs_to_module_self.
+      by destruct (cfg_vikja cfg), (cfg_odal cfg). }
+    assert (Hhe : has_error c E_NOT_FOUND (ev_outs e) = false).
+    { rewrite has_error_msgs, Hmine, msgs_to_module_self. by destruct (cfg_vikja cfg), (cfg_odal cfg). }
+    rewrite Hjr, Hhe. split; [apply Hsp|]. rewrite Hcur0.
+    specialize (Hvs c). rewrite Hcur0 in Hvs. destruct Hvs as (v&SS'&Hv'&HS'&V). assert (SS' = SS) as -> by congruence.
+    exists (rejoin_view (msgs_to c (ev_outs e)) v), SS. split; [|split; [done|]].
+    - unfold own_view. rewrite (Hsp c), Hcur0.
+      assert (Hm : mem_changed sp sp e c = false).
+      { unfold mem_changed, rejoined. rewrite Ho, Hr, Hjr. rewrite bool_decide_eq_true_2 by done. simpl. apply andb_false_r. }
+      by rewrite Hm, Hr, Hv'.
+    - rewrite Hmine. eapply rejoin_own; [by eapply W|done]. }
+  pose proof (inv_leave cfg st c I) as I1. pose proof (leave_cur cfg st c I) as Hcur1.
+  pose proof (leave_nowrap cfg st c I Wn) as Wn1. pose proof (swf_leave cfg k st c I W) as W1.
+  pose proof (leave_outs_self cfg st c I) as Ho1.
+  pose proof (leave_open cfg st c c) as Hop1.
+  destruct (leave cfg st c) as [st1 o1]. cbn [fst snd] in *.
+  assert (Hc1 : is_Some (conns st1 !! c)).
+  { unfold open_of in Hop1. rewrite Hc in Hop1. simpl in Hop1. destruct (conns st1 !! c); [eauto|done]. }
+  assert (Herr : ev_outs e = o1 ++ [(c, MError rid E_NOT_FOUND)] →
+                 own_goal sp (match join_resp c (ev_outs e) with
+                              | Some (_, sid, uuid, pid) => enter_spec (depart sp c) c sid uuid pid
+                              | None => if has_error c E_NOT_FOUND (ev_outs e) then depart sp c else sp end) e c vs st1).
+  { intros Hout. assert (Hmine : msgs_to c (ev_outs e) = [MError rid E_NOT_FOUND]).
+    { by rewrite Hout, msgs_to_app, Ho1, msgs_to_cons_eq. }
+    assert (Hjr : join_resp c (ev_outs e) = None) by (unfold join_resp; by rewrite first_to_msgs, Hmine).
+    assert (Hhe : has_error c E_NOT_FOUND (ev_outs e) = true) by (by rewrite has_error_msgs, Hmine).
+    rewrite Hjr, Hhe. split; [|by rewrite Hcur1]. by rewrite depart_mem, decide_True, Hcur1. }
+  assert (Hent : ∀ st2 n SS, sessions st2 !! n = Some SS → is_Some (conns st2 !! c) → wf cfg k SS →
+            parts_injective (entered SS c) →
+            ev_outs e = o1 ++ (enter cfg st2 c rid n ots).1.2 →
+            own_goal sp (match join_resp c (ev_outs e) with
+                         | Some (_, sid, uuid, pid) => enter_spec (depart sp c) c sid uuid pid
+                         | None => if has_error c E_NOT_FOUND (ev_outs e) then depart sp c else sp end) e c vs
+                     (enter cfg st2 c rid n ots).1.1).
+  { intros st2 n SS HS2 Hc2 WS Hi Hout.
+    rewrite (enter_outputs cfg st2 c rid n ots SS HS2 (Hnf _) (Hnf _)) in Hout. cbv zeta in Hout.
+    fold (enter_outs cfg c rid n ots SS) in Hout.
+    destruct (enter_state cfg st2 c rid n ots SS HS2) as (ES&_&EC&_). specialize (EC Hc2).
+    pose proof (join_resp_entered cfg c rid n ots SS o1 Ho1) as Hjr. rewrite <- Hout in Hjr. rewrite Hjr.
+    split; [by rewrite enter_spec_mem, decide_True, EC|]. rewrite EC.
+    exists (view_init n (u32_succ (s_pgen SS)) (msgs_to c (ev_outs e))), (entered SS c).
+    split; [|split].
+    - eapply own_view_entered; [by rewrite enter_spec_mem, decide_True|done|done|by rewrite Hjr].
+    - by rewrite ES, lookup_insert.
+    - rewrite Hout, msgs_to_app, Ho1. simpl. by eapply enter_own. }
+  destruct s as [|n|j]; [| |exact Herr].
+  - destruct (create_session hint st1) as [n st2] eqn:Hcr.
+    destruct (create_sessions _ _ _ _ Hcr) as [E2 EC2].
+    assert (HS2 : sessions st2 !! n = Some (session0 (next_uuid st1 + 1))) by (rewrite E2; by rewrite lookup_insert).
+    specialize (Hent st2 n _ HS2).
+    destruct (enter cfg st2 c rid n ots) as [[st3 o2] v]. cbn [fst snd] in *. apply Hent.
+    + by rewrite EC2.
+    + eapply wf_mono; [|apply wf_session0]. lia.
+    + apply entered_injective; [intros q1 q2 c0 Hx; simpl in Hx; by rewrite lookup_empty in Hx|simpl; apply lookup_empty|intros q; simpl; by rewrite lookup_empty].
+  - destruct (sessions st1 !! n) as [SS|] eqn:HS; [|exact Herr].
+    specialize (Hent st1 n SS HS Hc1 (W1 _ _ HS)).
+    destruct (enter cfg st1 c rid n ots) as [[st2 o2] v]. cbn [fst snd] in *. apply Hent.
+    apply entered_injective; [by eapply member_inj|by eapply fresh_pid|].
+    intros q. eapply nonmember_parts; [done|done|]. intros p. congruence.
+Qed.
+
+Lemma join_verdict cfg st c rid s ots hint :
+  is_Some (conns st !! c) → (Model.join cfg st c rid s ots hint).2 = VOk.
+Proof.
+  intros [cn Hc]. unfold Model.join. rewrite Hc. destruct (already_joined cn s); [done|].
+  destruct (leave cfg st c) as [st1 o1].
+  destruct s as [|n|j]; [| |done].
+  - destruct (create_session hint st1) as [n st2] eqn:Hcr.
+    destruct (create_sessions _ _ _ _ Hcr) as [E2 _].
+    assert (HS2 : sessions st2 !! n = Some (session0 (next_uuid st1 + 1))) by (rewrite E2; by rewrite lookup_insert).
+    destruct (enter_state cfg st2 c rid n ots _ HS2) as (_&_&_&Hv).
+    destruct (enter cfg st2 c rid n ots) as [[st3 o2] v]. by simpl in *.
+  - destruct (sessions st1 !! n) as [SS|] eqn:HS; [|done].
+    destruct (enter_state cfg st1 c rid n ots _ HS) as (_&_&_&Hv).
+    destruct (enter cfg st1 c rid n ots) as [[st3 o2] v]. by simpl in *.
+Qed.
+Lemma on_ping_verdict st c cn rid : (on_ping st c cn rid).2 = VOk.
+Proof. unfold on_ping, send_ping. by repeat case_match. Qed.
+Lemma handle_joined_other_verdict cfg st c cn sid p SS r hint :
+  session_local r = false → is_join r = false →
+  (handle_joined cfg st c cn sid p SS r hint).2 = VOk ∨ (handle_joined cfg st c cn sid p SS r hint).2 = VErr.
+Proof.
+  intros Hl Hj. destruct r; try discriminate Hl; try discriminate Hj; simpl.
+  all: try (left; apply on_ping_verdict).
+  all: unfold send_ping; repeat case_match; simplify_eq; simpl; auto.
+Qed.
+Lemma handle_unjoined_verdict cfg st c cn r hint :
+  is_join r = false →
+  (handle_unjoined cfg st c cn r hint).2 = VOk ∨ (handle_unjoined cfg st c cn r hint).2 = VErr.
+Proof. intros Hj. destruct r; try discriminate Hj; simpl; repeat case_match; auto. Qed.
+
+Lemma handle_own cfg k sp vs st c r hint h e :
+  (∀ f, flag_on cfg f = false) → inv st → nowrap st → swf cfg k st → k + 1 < two32 → is_Some (conns st !! c) →
+  spec_ok sp st → views_ok vs st →
+  ev_op e = OStep c h → ev_req e = Some r →
+  ev_outs e = (handle cfg st c r hint).1.2 → ev_verdict e = (handle cfg st c r hint).2 →
+  (handle cfg st c r hint).2 ≠ VErr →
+  own_goal sp (spec_step sp e) e c vs (handle cfg st c r hint).1.1.
+Proof.
+  intros Hnf I Wn W Hk [cn Hc] Hsp Hvs Ho Hr. unfold handle. rewrite Hc.
+  assert (Hjoin : ∀ rid s ots, r = RJoin rid s ots →
+            ev_outs e = (Model.join cfg st c rid s ots hint).1.2 → ev_verdict e = (Model.join cfg st c rid s ots hint).2 →
+            own_goal sp (spec_step sp e) e c vs (Model.join cfg st c rid s ots hint).1.1).
+  { intros rid s ots -> Hout Hv. rewrite join_verdict in Hv by eauto. eapply join_own; eauto. }
+  destruct (c_cur cn) as [[sid p]|] eqn:Hcur.
+  - assert (Hcur0 : cur_of st c = Some (sid, p)) by (unfold cur_of; by rewrite Hc).
+    destruct (live_session _ _ (inv_live _ I _ _ _ Hcur0)) as [SS HS]. rewrite HS.
+    destruct (is_join r) eqn:Hj.
+    { destruct r; try discriminate Hj. simpl. intros Hout Hv _. by eapply Hjoin. }
+    pose proof (Hvs c) as Hvc. rewrite Hcur0 in Hvc. destruct Hvc as (v&SS'&Hv'&HS'&V). assert (SS' = SS) as -> by congruence.
+    destruct (inv_member st c cn sid p SS I Hc Hcur HS) as [Hp Hi].
+    destruct (session_local r) eqn:Hl.
+    + rewrite (handle_joined_sstep cfg st c cn sid p SS r hint Hl Hc HS). unfold apply_sstep. cbn [fst snd].
+      intros Hout Hv _.
+      assert (Hm : sp_mem (spec_step sp e) = sp_mem sp) by (eapply spec_step_nonjoin; eauto; by rewrite Hv).
+      assert (Hc1 : cur_of (upd_conn c (set_own (λ _, (sstep cfg c p (c_own cn) SS r).1.2))
+                              (put_session st sid (sstep cfg c p (c_own cn) SS r).1.1)) c = Some (sid, p)).
+      { rewrite cur_of_upd_conn by (by intros []). unfold cur_of. simpl. by rewrite Hc. }
+      split; [by rewrite Hm, Hc1, (Hsp c)|]. rewrite Hc1.
+      eexists _, _. split; [|split].
+      * rewrite Hv'. eapply own_view_keep; [by rewrite Hm, (Hsp c)|by rewrite (Hsp c)|done|done|done].
+      * simpl. by rewrite lookup_insert.
+      * rewrite Hout. by eapply sstep_own; [by eapply W|..].
+    + pose proof (handle_joined_other cfg st c cn sid p SS r hint Hl Hj) as ES.
+      pose proof (handle_joined_other_verdict cfg st c cn sid p SS r hint Hl Hj) as Hvd.
+      destruct (handle_joined cfg st c cn sid p SS r hint) as [[st' o] vd] eqn:E. cbn [fst snd] in *.
+      pose proof (handle_joined_same cfg st c cn sid p SS r hint st' o vd Hj HS E) as (EC&_).
+      intros Hout Hv Hne. destruct Hvd as [->| ->]; [|done].
+      assert (Hm : sp_mem (spec_step sp e) = sp_mem sp) by (eapply spec_step_nonjoin; eauto; by rewrite Hv).
+      split; [by rewrite Hm, EC, (Hsp c)|]. rewrite EC, Hcur0.
+      exists v, SS. split; [|split; [by rewrite ES|done]].
+      rewrite Hv'. erewrite own_view_keep; [|by rewrite Hm, (Hsp c)|by rewrite (Hsp c)|done|done|done].
+      by rewrite view_own_other.
+  - assert (Hcur0 : cur_of st c = None) by (unfold cur_of; by rewrite Hc).
+    destruct (is_join r) eqn:Hj.
+    { destruct r; try discriminate Hj. simpl. intros Hout Hv _. by eapply Hjoin. }
+    pose proof (handle_unjoined_verdict cfg st c cn r hint Hj) as Hvd.
+    destruct (handle_unjoined cfg st c cn r hint) as [[st' o] vd] eqn:E. cbn [fst snd] in *.
+    pose proof (handle_unjoined_same cfg st c cn r hint st' o vd Hj E) as (EC&_).
+    intros Hout Hv Hne. destruct Hvd as [->| ->]; [|done].
+    assert (Hm : sp_mem (spec_step sp e) = sp_mem sp) by (eapply spec_step_nonjoin; eauto; by rewrite Hv).
+    split; [by rewrite Hm, EC, (Hsp c)|]. by rewrite EC, Hcur0.
+Qed.
+
+(* ================= 10. every step of the model ================= *)
+Definition ginv (cfg : config) (k : N) (st : state) : Prop := inv st ∧ bounded k st ∧ swf cfg (4 * k) st.
+
+Lemma chain_wf cfg n a b j :
+  sess_chain cfg n a b → (∀ SS, a = Some SS → wf cfg j SS) → j + N.of_nat n < two32 →
+  ∀ SS, b = Some SS → wf cfg (j + N.of_nat n) SS.
+Proof.
+  intros (m&Hm&Hc) Ha Hj.
+  assert (G : ∀ SS, b = Some SS → wf cfg (j + N.of_nat m) SS).
+  { assert (Hjm : j + N.of_nat m < two32) by lia. clear Hm Hj. revert j Ha Hjm.
+    induction Hc as [x|m x y z Hxy Hyz IH]; intros j Ha Hj.
+    - intros SS E. rewrite N.add_0_r. by apply Ha.
+    - rewrite Nat2N.inj_succ in *. replace (j + N.succ (N.of_nat m)) with (j + 1 + N.of_nat m) by lia.
+      apply IH; [|lia]. intros SS' ->.
+      inversion Hxy; subst; try (eapply wf_trans; [reflexivity|reflexivity|exact Hxy|lia|apply Ha; reflexivity]).
+      eapply wf_mono; [|apply wf_session0]. lia. }
+  intros SS E. eapply wf_mono; [|by apply G]. lia.
+Qed.
+
+Lemma ginv_state0 cfg : ginv cfg 0 state0.
+Proof. split; [apply inv_state0|]. split; [apply bounded_state0|]. intros sid SS. simpl. by rewrite lookup_empty. Qed.
+
+Lemma ginv_step cfg k st o : ginv cfg k st → 4 * (k + 1) < two32 → ginv cfg (k + 1) (step cfg st o).1.1.
+Proof.
+  intros (I&B&W) Hk. destruct (step_inv cfg st o k I B) as [I1 B1]; [lia|]. split; [done|]. split; [done|].
+  intros sid SS HS. replace (4 * (k + 1)) with (4 * k + N.of_nat 4) by lia.
+  eapply (chain_wf cfg 4 (sessions st !! sid)); [apply (step_chain cfg st o k sid I B); lia| |lia|exact HS].
+  intros S0 H0. by eapply W.
+Qed.
+
+Lemma views_ok_ext vs st st' :
+  (∀ c, cur_of st' c = cur_of st c) → sessions st' = sessions st → views_ok vs st → views_ok vs st'.
+Proof. intros EC ES H c. rewrite EC, ES. apply H. Qed.
+Lemma spec_ok_ext sp st st' : (∀ c, cur_of st' c = cur_of st c) → spec_ok sp st → spec_ok sp st'.
+Proof. intros EC H c. rewrite EC. apply H. Qed.
+
+(* the hypotheses of [event_views] in the common cases *)
+Definition others_goal (K : msg → bool) (e : event) (st st1 : state) : Prop :=
+  ∀ q, Some q ≠ actor e → cur_of st1 q = cur_of st q ∧
+     match cur_of st q with
+     | Some (sid, pq) => ∀ SS v, sessions st !! sid = Some SS → vrel v sid pq SS →
+         ∃ SS', sessions st1 !! sid = Some SS' ∧ recv_oksK K v (msgs_to q (ev_outs e)) = true ∧
+                vrel (recv_all v (msgs_to q (ev_outs e))) sid pq SS'
+     | None => True
+     end.
+Lemma others_goal_actor K e c st st1 :
+  actor e = Some c → others_step K c (ev_outs e) st st1 → others_goal K e st st1.
+Proof. intros Ha H q Hq. rewrite Ha in Hq. apply H. intros ->. done. Qed.
+Lemma others_goal_quiet K e st st1 :
+  sessions st1 = sessions st → (∀ q, cur_of st1 q = cur_of st q) → (∀ d, d ∈ ev_outs e → neutral (snd d)) →
+  others_goal K e st st1.
+Proof.
+  intros ES EC Hn q _. split; [apply EC|]. destruct (cur_of st q) as [[sid pq]|]; [|done].
+  intros SS v HS V. exists SS. rewrite ES. split; [done|].
+  destruct (recvK_neutral K v (msgs_to q (ev_outs e))) as [R1 R2].
+  { intros m Hm. apply msgs_to_elem in Hm. by apply (Hn (q, m)). }
+  by rewrite R1, R2.
+Qed.
+
+Lemma idle_own sp vs e c st st1 :
+  ev_req e = None → spec_step sp e = sp → cur_of st1 c = cur_of st c → sessions st1 = sessions st →
+  spec_ok sp st → views_ok vs st → own_goal sp (spec_step sp e) e c vs st1.
+Proof.
+  intros Hr Hs EC ES Hsp Hvs. rewrite Hs. split; [by rewrite EC|]. rewrite EC. specialize (Hvs c).
+  destruct (cur_of st c) as [[sid p]|] eqn:Hc; [|done]. destruct Hvs as (v&SS&Hv&HS&V).
+  exists v, SS. split; [|by rewrite ES]. rewrite own_view_idle by auto. by rewrite (Hsp c), Hc.
+Qed.
+Lemma gone_own sp vs e c st1 :
+  sp_mem (spec_step sp e) !! c = None → cur_of st1 c = None → own_goal sp (spec_step sp e) e c vs st1.
+Proof. intros H1 H2. split; [congruence|]. by rewrite H2. Qed.
+
+Lemma disconnect_cur cfg st c : inv st → cur_of (disconnect cfg st c).1 c = None.
+Proof.
+  intros I. unfold disconnect. pose proof (leave_cur cfg st c I) as H. destruct (leave cfg st c) as [st1 o].
+  simpl in *. rewrite cur_of_upd_conn by (by intros []). done.
+Qed.
+
+Definition event_of (cfg : config) (st : state) (o : op) : event :=
+  {| ev_op := o; ev_req := consumed st o; ev_outs := (step cfg st o).1.2; ev_verdict := (step cfg st o).2 |}.
+
+Lemma neutral_snap ss g q : neutral (MSnap ss g q).
+Proof. by intros v. Qed.
+
+Lemma step_goals cfg k sp vs st o :
+  (∀ f, flag_on cfg f = false) → ginv cfg k st → 4 * (k + 1) < two32 → spec_ok sp st → views_ok vs st →
+  let e := event_of cfg st o in
+  others_goal core_msg e st (step cfg st o).1.1 ∧
+  ∀ c, actor e = Some c → own_goal sp (spec_step sp e) e c vs (step cfg st o).1.1.
+Proof.
+  intros Hnf (I&B&W) Hk Hsp Hvs e.
+  assert (Wn : nowrap st) by (eapply bounded_nowrap; [exact B|lia]).
+  assert (Hk4 : 4 * k + 1 < two32) by lia.
+  (* an event that changes no session, tells nobody anything that matters, and keeps everybody where it is *)
+  assert (Hidle : ∀ e st1, ev_req e = None → spec_step sp e = sp → sessions st1 = sessions st →
+            (∀ q, cur_of st1 q = cur_of st q) → (∀ d, d ∈ ev_outs e → neutral (snd d)) →
+            others_goal core_msg e st st1 ∧ ∀ c, actor e = Some c → own_goal sp (spec_step sp e) e c vs st1).
+  { intros e0 st1 Hr Hs ES EC Hn. split; [by apply others_goal_quiet|]. intros c _. by apply (idle_own sp vs e0 c st st1). }
+  (* an event that ends with the actor's departure *)
+  assert (Hgone : ∀ e c st1, actor e = Some c → others_step core_msg c (ev_outs e) st st1 →
+            sp_mem (spec_step sp e) !! c = None → cur_of st1 c = None →
+            others_goal core_msg e st st1 ∧ ∀ c', actor e = Some c' → own_goal sp (spec_step sp e) e c' vs st1).
+  { intros e0 c st1 Ha Ho Hm Hc. split; [by eapply others_goal_actor|]. intros c' Ha'. assert (c' = c) as -> by congruence.
+    by apply gone_own. }
+  subst e. unfold event_of. destruct o as [c|c r|c hint|sid|c|].
+  - (* connect *)
+    simpl. destruct (conns st !! c) as [cn|] eqn:Hc; simpl.
+    + apply Hidle; try done. by inversion 1.
+    + apply Hidle; try done; [|by inversion 1]. intros q. unfold cur_of. simpl.
+      destruct (decide (c = q)) as [->|Hne]; [by rewrite lookup_insert, Hc|by rewrite lookup_insert_ne].
+  - (* send *)
+    cbn [step consumed]. unfold dispatch. destruct (conns st !! c) as [cn|] eqn:Hc.
+    2:{ simpl. apply Hidle; try done. by inversion 1. }
+    destruct (c_open cn) eqn:Hop; simpl.
+    2:{ apply Hidle; try done. by inversion 1. }
+    assert (Hq : ∀ f, (∀ cn, c_cur (f cn) = c_cur cn) →
+              others_goal core_msg {| ev_op := OSend c r; ev_req := None; ev_outs := []; ev_verdict := VOk |} st (upd_conn c f st) ∧
+              ∀ c', actor {| ev_op := OSend c r; ev_req := None; ev_outs := []; ev_verdict := VOk |} = Some c' →
+                own_goal sp (spec_step sp {| ev_op := OSend c r; ev_req := None; ev_outs := []; ev_verdict := VOk |})
+                  {| ev_op := OSend c r; ev_req := None; ev_outs := []; ev_verdict := VOk |} c' vs (upd_conn c f st)).
+    { intros f Hf. split.
+      - eapply others_goal_quiet; [done| |by inversion 1]. intros q. by apply cur_of_upd_conn.
+      - intros c' _. apply (idle_own sp vs _ c' st); try done. by apply cur_of_upd_conn. }
+    destruct r; try (apply Hq; by intros []).
+    destruct (ty =? 14) eqn:Ety; [|apply Hq; by intros []].
+    pose proof (disconnect_others cfg _ st c I W Hnf) as HD. pose proof (disconnect_cur cfg st c I) as HC.
+    destruct (disconnect cfg st c) as [st1 o1]. cbn [fst snd] in *.
+    eapply (Hgone _ c); [done|by apply others_step_weaken|change (sp_mem (depart sp c) !! c = None); by rewrite depart_mem, decide_True|done].
+  - (* step *)
+    cbn [step consumed]. destruct (conns st !! c) as [cn|] eqn:Hc.
+    2:{ simpl. apply Hidle; try done. by inversion 1. }
+    destruct (c_open cn) eqn:Hop; simpl.
+    2:{ apply Hidle; try done. by inversion 1. }
+    destruct (c_queue cn) as [|r q] eqn:Hq; simpl.
+    { apply Hidle; try done. by inversion 1. }
+    set (st0 := upd_conn c (set_queue q) st).
+    assert (Hs0 : same_mem st st0) by (apply same_mem_upd_conn; by intros []).
+    assert (I0 : inv st0) by by eapply inv_same_mem.
+    assert (B0 : bounded k st0) by by eapply bounded_same_mem.
+    assert (Wn0 : nowrap st0) by (eapply bounded_nowrap; [exact B0|lia]).
+    assert (W0 : swf cfg (4 * k) st0) by exact W.
+    assert (EC0 : ∀ q, cur_of st0 q = cur_of st q) by apply Hs0.
+    assert (Hc0 : is_Some (conns st0 !! c)).
+    { unfold st0, upd_conn. simpl. rewrite Hc. rewrite lookup_insert. eauto. }
+    assert (Ho0 : open_of st0 c = Some true).
+    { destruct Hs0 as (_&H2&_). rewrite H2. unfold open_of. by rewrite Hc; simpl; rewrite Hop. }
+    pose proof (others_step_upd_conn core_msg c (set_queue q) st) as HU. fold st0 in HU.
+    pose proof (handle_others cfg _ st0 c r hint I0 Wn0 W0 Hk4 Hnf) as HH.
+    pose proof (λ h e, handle_own cfg _ sp vs st0 c r hint h e Hnf I0 Wn0 W0 Hk4 Hc0
+                          (spec_ok_ext _ _ _ EC0 Hsp) (views_ok_ext _ _ _ EC0 eq_refl Hvs)) as HO.
+    destruct (handle_inv cfg st0 c r hint k I0 B0 ltac:(lia) Ho0) as [I1 _].
+    assert (W1 : swf cfg (4 * k + N.of_nat 3) (handle cfg st0 c r hint).1.1).
+    { intros s SS HS. eapply (chain_wf cfg 3 (sessions st0 !! s)); [by apply handle_chain| |lia|exact HS].
+      intros S0 H0. by eapply W0. }
+    destruct (handle cfg st0 c r hint) as [[st1 o1] v] eqn:Hh. cbn [fst snd] in *.
+    assert (Hnv : v ≠ VErr → 
+       others_goal core_msg {| ev_op := OStep c hint; ev_req := Some r; ev_outs := o1; ev_verdict := v |} st st1 ∧
+       ∀ c', actor {| ev_op := OStep c hint; ev_req := Some r; ev_outs := o1; ev_verdict := v |} = Some c' →
+         own_goal sp (spec_step sp {| ev_op := OStep c hint; ev_req := Some r; ev_outs := o1; ev_verdict := v |})
+           {| ev_op := OStep c hint; ev_req := Some r; ev_outs := o1; ev_verdict := v |} c' vs st1).
+    { intros Hv. split.
+      - eapply others_goal_actor; [done|]. simpl. change o1 with ([] ++ o1). by eapply others_step_trans.
+      - intros c' [= <-]. by eapply (HO hint). }
+    destruct v; try (apply Hnv; done).
+    pose proof (disconnect_others cfg _ st1 c I1 W1 Hnf) as HD. pose proof (disconnect_cur cfg st1 c I1) as HC.
+    destruct (disconnect cfg st1 c) as [st2 o2]. cbn [fst snd] in *.
+    eapply (Hgone _ c); [done| |change (sp_mem (depart sp c) !! c = None); by rewrite depart_mem, decide_True|done]. simpl.
+    change (o1 ++ o2) with (([] ++ o1) ++ o2).
+    eapply others_step_trans; [by eapply others_step_trans|by apply others_step_weaken].
+  - (* tick *)
+    simpl. apply Hidle; try done; [apply tick_sessions|apply tick_same|by inversion 1].
+  - (* disconnect *)
+    cbn [step consumed]. destruct (conns st !! c) as [cn|] eqn:Hc.
+    2:{ simpl. eapply (Hgone _ c); [done|apply others_step_refl|change (sp_mem (depart sp c) !! c = None); by rewrite depart_mem, decide_True|].
+        unfold cur_of. by rewrite Hc. }
+    destruct (c_open cn) eqn:Hop; simpl.
+    2:{ eapply (Hgone _ c); [done|apply others_step_refl|change (sp_mem (depart sp c) !! c = None); by rewrite depart_mem, decide_True|].
+        apply (inv_open _ I). unfold open_of. by rewrite Hc; simpl; rewrite Hop. }
+    pose proof (disconnect_others cfg _ st c I W Hnf) as HD. pose proof (disconnect_cur cfg st c I) as HC.
+    destruct (disconnect cfg st c) as [st1 o1]. cbn [fst snd] in *.
+    eapply (Hgone _ c); [done|by apply others_step_weaken|change (sp_mem (depart sp c) !! c = None); by rewrite depart_mem, decide_True|done].
+  - (* snapshot *)
+    simpl. apply Hidle; try done. intros d Hd. apply elem_of_list_singleton in Hd as ->. apply neutral_snap.
+Qed.
+
+(* ================= 11. code 106 is reported by the delivery phase only ================= *)
+Definition nocode (l : list violation) : Prop := ∀ x, x ∈ l → v_code x ≠ 106%Z.
+Lemma nocode_nil : nocode [].
+Proof. by inversion 1. Qed.
+Lemma nocode_app a b : nocode a → nocode b → nocode (a ++ b).
+Proof. intros Ha Hb x [H|H]%elem_of_app; [by apply Ha|by apply Hb]. Qed.
+Lemma nocode_viol i code info : code ≠ 106%Z → nocode [viol i code info].
+Proof. intros Hc x Hx. by apply elem_of_list_singleton in Hx as ->. Qed.
+Lemma nocode_okv i b code info : code ≠ 106%Z → nocode (okv i b code info).
+Proof. intros Hc. unfold okv. destruct b; [apply nocode_nil|by apply nocode_viol]. Qed.
+Lemma nocode_flat_map {A} (f : A → list violation) l : (∀ a, nocode (f a)) → nocode (flat_map f l).
+Proof.
+  intros Hf x Hx. apply elem_of_list_In, in_flat_map in Hx as (a&_&Hx). apply elem_of_list_In in Hx. by apply (Hf a).
+Qed.
+
+Ltac nocode_tac :=
+  repeat first
+    [ apply nocode_nil
+    | apply nocode_app
+    | apply nocode_okv; [done]
+    | apply nocode_viol; [done]
+    | apply nocode_flat_map; intros ?
+    | progress case_match ].
+
+Lemma nocode_dump_check cfg k i sp d : nocode (dump_check cfg k 100 i sp d).
+Proof. unfold dump_check. nocode_tac. Qed.
+Lemma nocode_snap_check cfg k i sp e : nocode (snap_check cfg k 100 i sp e).
+Proof. unfold snap_check. nocode_tac. all: try apply nocode_dump_check. Qed.
+Lemma nocode_join_check cfg k i sp' c sid outs : nocode (join_snapshot_check cfg k 100 i sp' c sid outs).
+Proof. unfold join_snapshot_check. nocode_tac. Qed.
+Lemma nocode_bad_msgs i e : nocode (bad_msgs i 100 e).
+Proof. unfold bad_msgs. nocode_tac. Qed.
+Lemma nocode_rest cfg i sp sp' e vs3 : nocode (rest_viols cfg i sp sp' e vs3).
+Proof.
+  unfold rest_viols. cbv zeta. nocode_tac.
+  all: try apply nocode_join_check; try apply nocode_snap_check; try apply nocode_bad_msgs.
+Qed.
+Lemma nocode_dirty_fold i outs tid eid l (vs : gmap N view) acc :
+  nocode acc → nocode (fold_left (dirty_one i outs tid eid) l (vs, acc)).2.
+Proof.
+  revert vs acc. induction l as [|pc l IH]; intros vs acc Ha; [done|]. cbn [fold_left]. unfold dirty_one at 2.
+  repeat case_match; try (by apply IH). apply IH. apply nocode_app; [done|]. by apply nocode_viol.
+Qed.
+Lemma nocode_dirty i sp e vs2 : nocode (dirty_step i sp e vs2).2.
+Proof. unfold dirty_step. repeat case_match; try apply nocode_nil. apply nocode_dirty_fold, nocode_nil. Qed.
+
+Lemma event_106 cfg i sp sp' (vs : gmap N view) e x :
+  x ∈ (P_C01_event cfg i sp sp' vs e).2 → v_code x = 106%Z → x ∈ (recv_fold (actor e) i (ev_outs e) (vs, [])).2.
+Proof.
+  rewrite P_C01_event_eq. unfold P_C01_event'.
+  destruct (recv_fold (actor e) i (ev_outs e) (vs, [])) as [vs1 viol1].
+  pose proof (nocode_dirty i sp e (own_step sp sp' e vs1)) as Hd.
+  destruct (dirty_step i sp e (own_step sp sp' e vs1)) as [vs3 viol3]. cbn [fst snd] in *.
+  intros [H|[H|H]%elem_of_app]%elem_of_app Hc; [done| |].
+  - by destruct (Hd x H).
+  - by destruct (nocode_rest cfg i sp sp' e vs3 x H).
+Qed.
+
+(* ================= 12. whole histories ================= *)
+(* the views (and the spec) the predicate P_C01 has after a trace: exactly the state [xscan] threads *)
+Fixpoint vscan (cfg : config) (i : nat) (sp : spec) (vs : gmap N view) (t : trace) : gmap N view * spec :=
+  match t with
+  | [] => (vs, sp)
+  | e :: t' => let sp' := spec_step sp e in vscan cfg (S i) sp' (P_C01_event cfg i sp sp' vs e).1 t'
+  end.
+Definition views_after (cfg : config) (t : trace) : gmap N view := (vscan cfg 0 spec0 ∅ t).1.
+
+Lemma xscan_cons cfg i sp (vs : gmap N view) e t :
+  xscan (P_C01_event cfg) i sp vs (e :: t) =
+    (P_C01_event cfg i sp (spec_step sp e) vs e).2 ++
+    xscan (P_C01_event cfg) (S i) (spec_step sp e) (P_C01_event cfg i sp (spec_step sp e) vs e).1 t.
+Proof. simpl. by destruct (P_C01_event cfg i sp (spec_step sp e) vs e). Qed.
+
+Lemma run_from_cons cfg st o h :
+  run_from cfg st (o :: h) =
+    (event_of cfg st o :: (run_from cfg (step cfg st o).1.1 h).1, (run_from cfg (step cfg st o).1.1 h).2).
+Proof.
+  simpl. unfold event_of. destruct (step cfg st o) as [[st1 outs] v]. simpl. by destruct (run_from cfg st1 h).
+Qed.
+
+Theorem views_run cfg h : ∀ st k i sp (vs : gmap N view),
+  (∀ f, flag_on cfg f = false) → ginv cfg k st → 4 * (k + N.of_nat (length h)) < two32 →
+  spec_ok sp st → views_ok vs st →
+  spec_ok (vscan cfg i sp vs (run_from cfg st h).1).2 (run_from cfg st h).2 ∧
+  views_ok (vscan cfg i sp vs (run_from cfg st h).1).1 (run_from cfg st h).2 ∧
+  ∀ x, x ∈ xscan (P_C01_event cfg) i sp vs (run_from cfg st h).1 → v_code x = 106%Z → ∃ j, outside core_msg j x.
+Proof.
+  induction h as [|o h IH]; intros st k i sp vs Hnf G Hk Hsp Hvs.
+  - simpl. split; [done|]. split; [done|]. by inversion 1.
+  - cbn [length] in Hk. rewrite Nat2N.inj_succ in Hk. rewrite run_from_cons. cbn [fst snd vscan].
+    destruct (step_goals cfg k sp vs st o Hnf G ltac:(lia) Hsp Hvs) as [Ho Hw].
+    destruct (event_views cfg core_msg i sp vs (event_of cfg st o) st (step cfg st o).1.1 Hsp Hvs Ho Hw) as (Hsp1&Hvs1&extra&Ee&Fe).
+    pose proof (ginv_step cfg k st o G ltac:(lia)) as G1.
+    destruct (IH (step cfg st o).1.1 (k + 1) (S i) _ _ Hnf G1 ltac:(lia) Hsp1 Hvs1) as (R1&R2&R3).
+    split; [exact R1|]. split; [exact R2|].
+    intros x. rewrite xscan_cons. intros [Hx|Hx]%elem_of_app Hc.
+    + apply event_106 in Hx; [|done]. rewrite Ee in Hx. exists i. by apply (proj1 (Forall_forall _ _) Fe).
+    + by apply R3.
+Qed.
+
+Lemma spec_ok_0 : spec_ok spec0 state0.
+Proof. intros c. unfold cur_of. simpl. by rewrite !lookup_empty. Qed.
+Lemma views_ok_0 : views_ok ∅ state0.
+Proof. intros c. unfold cur_of. simpl. by rewrite !lookup_empty. Qed.
+
+(* every member's view matches its session, after every history; who is no member has no view *)
+Theorem views_simulation cfg h :
+  cfg_flags cfg = [] → short h →
+  ∀ c, match cur_of (final cfg h) c with
+       | Some (sid, p) => ∃ v SS, views_after cfg (run cfg h) !! c = Some v ∧ sessions (final cfg h) !! sid = Some SS ∧
+                                  v_sid v = sid ∧ v_pid v = p ∧ view_matches v SS ∧
+                                  v_acts v = s_actions SS ∧ v_assets v = s_assets SS
+       | None => views_after cfg (run cfg h) !! c = None
+       end.
+Proof.
+  intros Hf Hs c. unfold short in Hs.
+  destruct (views_run cfg h state0 0 0%nat spec0 ∅ (noflags cfg Hf) (ginv_state0 cfg) ltac:(lia) spec_ok_0 views_ok_0) as (_&H&_).
+  specialize (H c). unfold final, run, views_after. destruct (cur_of _ c) as [[sid p]|]; [|done].
+  destruct H as (v&SS&Hv&HS&V1&V2&M&V3&V4). exists v, SS. done.
+Qed.
+
+Theorem views_member cfg h c cn sid p SS :
+  cfg_flags cfg = [] → short h → member_of cfg h c cn sid p SS →
+  ∃ v, views_after cfg (run cfg h) !! c = Some v ∧ v_sid v = sid ∧ v_pid v = p ∧ view_matches v SS ∧
+       v_acts v = s_actions SS ∧ v_assets v = s_assets SS.
+Proof.
+  intros Hf Hs [Hc Hcur HS]. pose proof (views_simulation cfg h Hf Hs c) as H.
+  unfold cur_of in H. rewrite Hc in H. simpl in H. rewrite Hcur in H.
+  destruct H as (v&SS'&Hv&HS'&H). assert (SS' = SS) as -> by congruence. by exists v.
+Qed.
+
+(* the spec the predicate computes from the trace knows exactly who is where *)
+Theorem spec_membership cfg h :
+  cfg_flags cfg = [] → short h → ∀ c, sp_mem (spec_after (run cfg h)) !! c = cur_of (final cfg h) c.
+Proof.
+  intros Hf Hs c. unfold short in Hs.
+  destruct (views_run cfg h state0 0 0%nat spec0 ∅ (noflags cfg Hf) (ginv_state0 cfg) ltac:(lia) spec_ok_0 views_ok_0) as (H&_&_).
+  specialize (H c). unfold final, run in *. rewrite <- H. f_equal. f_equal.
+  unfold spec_after. generalize (run_from cfg state0 h).1. generalize spec0. generalize (∅ : gmap N view). generalize 0%nat.
+  intros i vs sp t. revert i vs sp. induction t as [|e t IH]; intros i vs sp; [done|]. simpl. apply IH.
+Qed.
+
+(* every broadcast other than a component notification is applicable when it is delivered *)
+Theorem deliveries_applicable_partial cfg h x :
+  cfg_flags cfg = [] → short h → x ∈ P_C01 cfg (run cfg h) → v_code x = 106%Z →
+  ∃ i q m, comp_msg m = true ∧ x = viol i 106 [zn q; hd 0%Z (enc_msg m)].
+Proof.
+  intros Hf Hs Hx Hc. unfold short in Hs.
+  destruct (views_run cfg h state0 0 0%nat spec0 ∅ (noflags cfg Hf) (ginv_state0 cfg) ltac:(lia) spec_ok_0 views_ok_0) as (_&_&H).
+  destruct (H x Hx Hc) as (i&q&m&Hm&->). exists i, q, m. split; [|done]. unfold core_msg in Hm. by apply negb_false_iff in Hm.
+Qed.
+
+(* ==================================================================================================== *)
+(* ================= PART II: components, with the [synced] / [dirty] bookkeeping ===================== *)
+(* ==================================================================================================== *)
+
+(* the view knows type [tid] exactly *)
+Definition agree (v : view) (SS : session) (tid : N) : Prop :=
+  ∀ eid, v_comps v !! (tid, eid) = st_comps (s_store SS) !! (tid, eid).
+(* subscriptions as the server has them; synced types are subscribed; every type that is synced, or that no
+   un-notified change has touched since the view last covered it, is known exactly.  [X]: types exempted (between the
+   delivery phase and the bookkeeping phase of an event) *)
+Definition crelX (X : gset N) (v : view) (p : N) (SS : session) : Prop :=
+  (∀ tid, tid ∈ v_subd v ↔ p ∈ subs_of (s_store SS) tid) ∧
+  v_synced v ⊆ v_subd v ∧
+  (∀ tid, tid ∉ X → (tid ∈ v_synced v ∨ tid ∉ v_dirty v) → agree v SS tid).
+Definition crel : view → N → session → Prop := crelX ∅.
+
+Lemma crelX_transfer X X' v v' p SS S1 :
+  crelX X v p SS → X ⊆ X' →
+  (∀ tid, p ∈ subs_of (s_store S1) tid ↔ p ∈ subs_of (s_store SS) tid) →
+  v_subd v' = v_subd v → v_synced v' = v_synced v → v_dirty v' = v_dirty v →
+  (∀ tid, tid ∉ X' → agree v SS tid → agree v' S1 tid) →
+  crelX X' v' p S1.
+Proof.
+  intros (C1&C2&C3) HX Hs E1 E2 E3 Ha. split; [|split].
+  - intros tid. rewrite E1, Hs. apply C1.
+  - by rewrite E1, E2.
+  - intros tid Ht Hc. rewrite E2, E3 in Hc. apply Ha; [done|]. apply C3; [set_solver|done].
+Qed.
+Lemma crelX_same X v p SS S1 :
+  crelX X v p SS → st_comps (s_store S1) = st_comps (s_store SS) → st_subs (s_store S1) = st_subs (s_store SS) →
+  crelX X v p S1.
+Proof.
+  intros C E1 E2. eapply crelX_transfer; [exact C|done| |done|done|done|].
+  - intros tid. unfold subs_of. by rewrite E2.
+  - intros tid _ Ha eid. rewrite E1. apply Ha.
+Qed.
+
+(* the three component notifications, applied to a view that knows the type or does not claim to *)
+Lemma crel_comp_add v p SS S1 ots tid eid data :
+  crel v p SS → st_comps (s_store SS) !! (tid, eid) = None →
+  st_comps (s_store S1) = <[(tid, eid) := data]> (st_comps (s_store SS)) → st_subs (s_store S1) = st_subs (s_store SS) →
+  (view_recv v (MCompAddB ots {| cp_tid := tid; cp_eid := eid; cp_data := data |})).1 = true ∧
+  crel (view_recv v (MCompAddB ots {| cp_tid := tid; cp_eid := eid; cp_data := data |})).2 p S1.
+Proof.
+  intros C Hn E1 E2. split.
+  - simpl. destruct (bool_decide (tid ∈ v_synced v)) eqn:Es; [|done]. apply bool_decide_eq_true in Es.
+    destruct C as (_&_&C3). rewrite (C3 tid) by (set_solver || auto). by rewrite Hn.
+  - eapply crelX_transfer; [exact C|done| |done|done|done|].
+    + intros t. unfold subs_of. by rewrite E2.
+    + intros t _ Ha e. simpl. rewrite E1. destruct (decide ((t, e) = (tid, eid))) as [[= -> ->]|Hne].
+      * by rewrite !lookup_insert.
+      * rewrite !lookup_insert_ne by done. apply Ha.
+Qed.
+Lemma crel_comp_delete v p SS S1 ots tid eid :
+  crel v p SS → is_Some (st_comps (s_store SS) !! (tid, eid)) →
+  st_comps (s_store S1) = delete (tid, eid) (st_comps (s_store SS)) → st_subs (s_store S1) = st_subs (s_store SS) →
+  (view_recv v (MCompDeleteB ots tid eid)).1 = true ∧ crel (view_recv v (MCompDeleteB ots tid eid)).2 p S1.
+Proof.
+  intros C [d Hd] E1 E2. split.
+  - simpl. destruct (bool_decide (tid ∈ v_synced v)) eqn:Es; [|done]. apply bool_decide_eq_true in Es.
+    destruct C as (_&_&C3). rewrite (C3 tid) by (set_solver || auto). by rewrite Hd.
+  - eapply crelX_transfer; [exact C|done| |done|done|done|].
+    + intros t. unfold subs_of. by rewrite E2.
+    + intros t _ Ha e. simpl. rewrite E1. destruct (decide ((t, e) = (tid, eid))) as [[= -> ->]|Hne].
+      * by rewrite !lookup_delete.
+      * rewrite !lookup_delete_ne by done. apply Ha.
+Qed.
+Lemma crel_comp_update v p SS S1 ots tid eid data :
+  crel v p SS → is_Some (st_comps (s_store SS) !! (tid, eid)) →
+  st_comps (s_store S1) = <[(tid, eid) := data]> (st_comps (s_store SS)) → st_subs (s_store S1) = st_subs (s_store SS) →
+  (view_recv v (MCompUpdateB ots {| cp_tid := tid; cp_eid := eid; cp_data := data |})).1 = true ∧
+  crel (view_recv v (MCompUpdateB ots {| cp_tid := tid; cp_eid := eid; cp_data := data |})).2 p S1.
+Proof.
+  intros C [d Hd] E1 E2. split.
+  - simpl. destruct (bool_decide (tid ∈ v_synced v)) eqn:Es; [|done]. apply bool_decide_eq_true in Es.
+    destruct C as (_&_&C3). rewrite (C3 tid) by (set_solver || auto). by rewrite Hd.
+  - eapply crelX_transfer; [exact C|done| |done|done|done|].
+    + intros t. unfold subs_of. by rewrite E2.
+    + intros t _ Ha e. simpl. rewrite E1. destruct (decide ((t, e) = (tid, eid))) as [[= -> ->]|Hne].
+      * by rewrite !lookup_insert.
+      * rewrite !lookup_insert_ne by done. apply Ha.
+Qed.
+(* a change of one component the member is not told about: nothing is claimed about that type any more *)
+Lemma crel_untold v p SS S1 tid eid :
+  crel v p SS → p ∉ subs_of (s_store SS) tid →
+  (∀ t e, (t, e) ≠ (tid, eid) → st_comps (s_store S1) !! (t, e) = st_comps (s_store SS) !! (t, e)) →
+  st_subs (s_store S1) = st_subs (s_store SS) →
+  crelX {[tid]} v p S1 ∧ tid ∉ v_synced v.
+Proof.
+  intros C Hp E1 E2. split.
+  - eapply crelX_transfer; [exact C|set_solver| |done|done|done|].
+    + intros t. unfold subs_of. by rewrite E2.
+    + intros t Ht Ha e. rewrite E1; [apply Ha|]. intros [= -> _]. set_solver.
+  - destruct C as (C1&C2&_). intros Hs. apply Hp, C1, C2, Hs.
+Qed.
+(* an entity goes, with its components *)
+Lemma crel_remove_entity v p SS S1 eid :
+  crel v p SS →
+  (∀ t e, st_comps (s_store S1) !! (t, e) = if decide (e = eid) then None else st_comps (s_store SS) !! (t, e)) →
+  st_subs (s_store S1) = st_subs (s_store SS) →
+  crel (v_remove_entity eid v) p S1.
+Proof.
+  intros C E1 E2. eapply crelX_transfer; [exact C|done| |done|done|done|].
+  - intros t. unfold subs_of. by rewrite E2.
+  - intros t _ Ha e. simpl. rewrite E1. case_decide as Hd.
+    + subst. apply map_filter_lookup_None. right. intros d _. simpl. rewrite N.eqb_refl. simpl. tauto.
+    + rewrite <- Ha. destruct (v_comps v !! (t, e)) as [d|] eqn:Ed.
+      * apply map_filter_lookup_Some. split; [done|]. simpl. apply N.eqb_neq in Hd. rewrite Hd. simpl. tauto.
+      * apply map_filter_lookup_None. by left.
+Qed.
+
+Lemma has_msg_msgs q outs f : has_msg q outs f = existsb f (msgs_to q outs).
+Proof.
+  unfold has_msg, msgs_to. induction outs as [|[c m] outs IH]; [done|]. simpl.
+  destruct (c =? q); simpl; by rewrite IH.
+Qed.
+Lemma msgs_to_broadcast_to_member SS p ids m q pq :
+  parts_injective SS → s_parts SS !! pq = Some q → pq ≠ p →
+  msgs_to q (broadcast_to SS p ids m) = if bool_decide (pq ∈ ids) then [m] else [].
+Proof.
+  intros Hi Hq Hne. case_bool_decide as Hin.
+  - apply msgs_to_once; [by apply broadcast_to_recipients_NoDup|]. apply broadcast_to_spec. split; [done|]. by exists pq.
+  - apply msgs_to_none. intros H. apply elem_of_list_fmap in H as ([c' m']&->&H). simpl in *.
+    apply broadcast_to_spec in H as (_&pq'&Hin'&_&Hq'). assert (pq' = pq) as -> by (by eapply Hi). done.
+Qed.
+
+(* the component change a session-local request makes, if any *)
+Definition changed (SS : session) (r : req) : option (N * N) :=
+  match r with
+  | RCompAdd _ tid eid _ _ =>
+      if (tid =? 0) || (eid =? 0) then None
+      else match s_ents SS !! eid with
+           | None => None
+           | Some _ => match st_names (s_store SS) !! tid with
+                       | None => None
+                       | Some _ => match st_comps (s_store SS) !! (tid, eid) with
+                                   | Some _ => None | None => Some (tid, eid) end end end
+  | RCompDelete _ tid eid _ =>
+      if (tid =? 0) || (eid =? 0) then None
+      else match s_ents SS !! eid with
+           | None => None
+           | Some _ => match st_comps (s_store SS) !! (tid, eid) with
+                       | None => None | Some _ => Some (tid, eid) end end
+  | RCompUpdate tid eid _ _ =>
+      if (tid =? 0) || (eid =? 0) then None
+      else match s_ents SS !! eid, st_comps (s_store SS) !! (tid, eid) with
+           | Some _, Some _ => Some (tid, eid) | _, _ => None end
+  | _ => None
+  end.
+
+(* a member's view between the delivery phase and the bookkeeping phase *)
+Definition crel_mid (chg : option (N * N)) (outs : list delivery) (q : N) (v : view) (pq : N) (SS : session) : Prop :=
+  match chg with
+  | Some (tid, eid) => if has_msg q outs (notif_about tid eid) then crel v pq SS
+                       else crelX {[tid]} v pq SS ∧ tid ∉ v_synced v
+  | None => crel v pq SS
+  end.
+
+Lemma recvK2_none v p SS S1 :
+  crel v p SS → st_comps (s_store S1) = st_comps (s_store SS) →
+  (∀ tid, p ∈ subs_of (s_store S1) tid ↔ p ∈ subs_of (s_store SS) tid) →
+  recv_oksK comp_msg v [] = true ∧ crel (recv_all v []) p S1.
+Proof.
+  intros C E1 E2. split; [done|]. eapply crelX_transfer; [exact C|done|done|done|done|done|].
+  intros t _ Ha e. rewrite E1. apply Ha.
+Qed.
+(* a message that is no component notification and leaves the component part of the view alone *)
+Definition comp_inert (m : msg) : Prop :=
+  comp_msg m = false ∧ ∀ v, let v' := (view_recv v m).2 in
+    v_comps v' = v_comps v ∧ v_subd v' = v_subd v ∧ v_synced v' = v_synced v ∧ v_dirty v' = v_dirty v.
+Lemma recvK2_inert v m p SS S1 :
+  comp_inert m → crel v p SS → st_comps (s_store S1) = st_comps (s_store SS) →
+  (∀ tid, p ∈ subs_of (s_store S1) tid ↔ p ∈ subs_of (s_store SS) tid) →
+  recv_oksK comp_msg v [m] = true ∧ crel (recv_all v [m]) p S1.
+Proof.
+  intros [Hm Hi] C E1 E2. unfold recv_oksK, recv_all. simpl. rewrite Hm. simpl. split; [done|].
+  destruct (Hi v) as (I1&I2&I3&I4). eapply crelX_transfer; [exact C|done|done|done|done|done|].
+  intros t _ Ha e. rewrite I1, E1. apply Ha.
+Qed.
+Lemma recvK2_inerts v ms p SS :
+  (∀ m, m ∈ ms → comp_inert m) → crel v p SS → recv_oksK comp_msg v ms = true ∧ crel (recv_all v ms) p SS.
+Proof.
+  revert v. induction ms as [|m ms IH]; intros v Hm C; [done|].
+  assert (Hi : comp_inert m) by (apply Hm; by left).
+  destruct (recvK2_inert v m p SS SS Hi C eq_refl) as [_ C1]; [done|].
+  unfold recv_oksK, recv_all. simpl. rewrite (proj1 Hi). simpl. apply IH; [|exact C1]. intros m' Hm'. apply Hm. by right.
+Qed.
+Lemma inert_entity_add ots e : comp_inert (MEntityAddB ots e). Proof. by split. Qed.
+Lemma inert_pose ots eid ps : comp_inert (MPoseB ots eid ps).
+Proof. split; [done|]. intros v. simpl. by destruct (v_ents v !! eid). Qed.
+Lemma inert_custom ots p b : comp_inert (MCustomB ots p b). Proof. by split. Qed.
+Lemma inert_action ots a : comp_inert (MActionB ots a). Proof. by split. Qed.
+Lemma inert_asset ots a : comp_inert (MAssetAddB ots a). Proof. by split. Qed.
+Lemma inert_join ots p : comp_inert (MJoinB ots p). Proof. by split. Qed.
+Lemma inert_leave p : comp_inert (MLeaveB p). Proof. by split. Qed.
+
+Lemma store_add_type_fields name s0 :
+  st_comps (store_add_type name s0).2 = st_comps s0 ∧ st_subs (store_add_type name s0).2 = st_subs s0.
+Proof. unfold store_add_type. by destruct (st_ids s0 !! name). Qed.
+Lemma recvK2_entity_delete cfg k v p SS ots eid :
+  wf cfg k SS → crel v p SS →
+  recv_oksK comp_msg v [MEntityDeleteB ots eid] = true ∧
+  crel (recv_all v [MEntityDeleteB ots eid]) p
+       (cleanup_modules cfg eid (set_ents (delete eid) (set_store (store_delete_entity eid) SS))).
+Proof.
+  intros W C. split; [done|]. unfold recv_all. simpl.
+  pose proof (cleanup_modules_fields cfg eid (set_ents (delete eid) (set_store (store_delete_entity eid) SS))) as (_&_&_&_&F5&_).
+  apply (crel_remove_entity v p SS); [exact C| |by rewrite F5].
+  intros t e. rewrite F5. simpl. apply store_delete_entity_lookup.
+Qed.
+Lemma subs_of_insert_other s0 tid X t (pq : N) :
+  pq ∉ X → (pq ∈ subs_of (store_set_subs (λ m, <[tid := subs_of s0 tid ∪ X]> m) s0) t ↔ pq ∈ subs_of s0 t).
+Proof.
+  intros Hn. unfold subs_of at 1. simpl. destruct (decide (t = tid)) as [->|Hne].
+  - rewrite lookup_insert. simpl. set_solver.
+  - by rewrite lookup_insert_ne.
+Qed.
+Lemma subs_of_remove_other s0 tid (p pq : N) t :
+  pq ≠ p →
+  (pq ∈ subs_of (store_set_subs (λ m, match m !! tid with Some s => <[tid := s ∖ {[p]}]> m | None => m end) s0) t
+   ↔ pq ∈ subs_of s0 t).
+Proof.
+  intros Hn. unfold subs_of. simpl. destruct (st_subs s0 !! tid) as [s|] eqn:E; [|done].
+  destruct (decide (t = tid)) as [->|Hne].
+  - rewrite lookup_insert, E. simpl. set_solver.
+  - by rewrite lookup_insert_ne.
+Qed.
+
+Lemma recvK2_one v m p S1 :
+  (view_recv v m).1 = true ∧ crel (view_recv v m).2 p S1 → recv_oksK comp_msg v [m] = true ∧ crel (recv_all v [m]) p S1.
+Proof. intros [H1 H2]. unfold recv_oksK, recv_all. simpl. by rewrite H1, orb_true_r. Qed.
+
+Local Arguments crel_mid : simpl never.
+Lemma sstep_member2 cfg k c p own SS r q pq v :
+  wf cfg k SS → k + 1 < two32 → parts_injective SS → s_parts SS !! p = Some c → (∀ f, flag_on cfg f = false) →
+  session_local r = true → s_parts SS !! pq = Some q → q ≠ c → crel v pq SS →
+  recv_oksK comp_msg v (msgs_to q (sstep cfg c p own SS r).2) = true ∧
+  crel_mid (changed SS r) (sstep cfg c p own SS r).2 q (recv_all v (msgs_to q (sstep cfg c p own SS r).2)) pq
+           (sstep cfg c p own SS r).1.1.
+Proof.
+  intros W Hk Hi Hp Hnf Hl Hq Hqc C.
+  assert (Hpq : pq ≠ p). { intros ->. congruence. }
+  assert (Hcq : c ≠ q) by done.
+  destruct r; try discriminate Hl; simpl; rewrite ?Hnf; repeat case_match; simpl.
+  all: unfold crel_mid; rewrite ?has_msg_msgs.
+  all: rewrite ?msgs_to_app, ?(msgs_to_cons_ne q c) by done.
+  all: rewrite ?(msgs_to_broadcast_member _ p _ q pq) by done.
+  all: rewrite ?msgs_to_nil, ?app_nil_r, ?app_nil_l; simpl; rewrite ?N.eqb_refl; simpl.
+  all: try (eapply recvK2_none; [exact C|reflexivity|intros ?; reflexivity]).
+  all: try (eapply recvK2_inert; [first [apply inert_entity_add|apply inert_pose|apply inert_custom|apply inert_action|apply inert_asset]
+                                |exact C|reflexivity|intros ?; reflexivity]).
+  all: lazymatch goal with
+       | |- context [MEntityDeleteB] => by eapply recvK2_entity_delete
+       | |- context [cleanup_modules] =>
+           erewrite cleanup_modules_id by eassumption; eapply recvK2_none; [exact C|reflexivity|intros ?; reflexivity]
+       | |- context [broadcast_to _ _ _ (MCustomB _ _ _)] =>
+           eapply recvK2_inerts; [|exact C]; intros m' Hm'; apply msgs_to_broadcast_to in Hm' as ->; apply inert_custom
+       | |- context [MCompAddB] => apply recvK2_one; eapply crel_comp_add; [exact C|eassumption|reflexivity|reflexivity]
+       | |- context [MCompDeleteB] => apply recvK2_one; eapply crel_comp_delete; [exact C|eauto|reflexivity|reflexivity]
+       | |- context [MCompUpdateB] => idtac
+       | |- context [crelX] =>
+           split; [done|]; eapply crel_untold; [exact C| | |reflexivity];
+           [match goal with H : subs_of _ _ = ∅ |- _ => rewrite H; set_solver end
+           |intros t9 e9 Hne; simpl; first [by rewrite lookup_insert_ne|by rewrite lookup_delete_ne]]
+       | H : store_add_type ?name ?s0 = _ |- _ =>
+           pose proof (store_add_type_fields name s0) as [F1 F2]; rewrite H in F1, F2; simpl in F1, F2;
+           eapply recvK2_none; [exact C|exact F1|intros ?; unfold subs_of; simpl; by rewrite F2]
+       | |- context [subs_of _ _ ∪ {[_]}] =>
+           eapply recvK2_none; [exact C|reflexivity|intros t; apply subs_of_insert_other; set_solver]
+       | |- _ => eapply recvK2_none; [exact C|reflexivity|intros t; by apply subs_of_remove_other]
+       end.
+  (* an update: told to the subscribers only *)
+  rewrite (msgs_to_broadcast_to_member _ p _ _ q pq) by done.
+  case_bool_decide as Hsub; simpl; rewrite ?N.eqb_refl; simpl.
+  - apply recvK2_one. eapply crel_comp_update; [exact C|eauto|reflexivity|reflexivity].
+  - split; [done|]. eapply crel_untold; [exact C| | |reflexivity].
+    + intros Hin. apply Hsub. by apply elem_of_set_to_sorted.
+    + intros t9 e9 Hne. simpl. by rewrite lookup_insert_ne.
+Qed.
+
+(* ---------- a session-local request, seen by the requester itself: the component part ---------- *)
+Lemma crel_own_insert v p SS S1 k d :
+  crel v p SS → st_comps (s_store S1) = <[k := d]> (st_comps (s_store SS)) → st_subs (s_store S1) = st_subs (s_store SS) →
+  crel (vset_comps <[k := d]> v) p S1.
+Proof.
+  intros C E1 E2. eapply crelX_transfer; [exact C|done| |done|done|done|].
+  - intros t. unfold subs_of. by rewrite E2.
+  - intros t _ Ha e. simpl. rewrite E1. destruct (decide ((t, e) = k)) as [<-|Hne].
+    + by rewrite !lookup_insert.
+    + rewrite !lookup_insert_ne by done. apply Ha.
+Qed.
+Lemma crel_own_delete v p SS S1 k :
+  crel v p SS → st_comps (s_store S1) = delete k (st_comps (s_store SS)) → st_subs (s_store S1) = st_subs (s_store SS) →
+  crel (vset_comps (delete k) v) p S1.
+Proof.
+  intros C E1 E2. eapply crelX_transfer; [exact C|done| |done|done|done|].
+  - intros t. unfold subs_of. by rewrite E2.
+  - intros t _ Ha e. simpl. rewrite E1. destruct (decide ((t, e) = k)) as [<-|Hne].
+    + by rewrite !lookup_delete.
+    + rewrite !lookup_delete_ne by done. apply Ha.
+Qed.
+(* the own fire-and-forget update, guarded by what the view knows *)
+Lemma crel_own_update_accepted v sid p SS S1 tid eid data :
+  vrel v sid p SS → crel v p SS → (tid =? 0) || (eid =? 0) = false → is_Some (s_ents SS !! eid) →
+  is_Some (st_comps (s_store SS) !! (tid, eid)) →
+  st_comps (s_store S1) = <[(tid, eid) := data]> (st_comps (s_store SS)) → st_subs (s_store S1) = st_subs (s_store SS) →
+  crel (if negb (tid =? 0) && negb (eid =? 0) && is_Some_b (v_ents v !! eid) && is_Some_b (v_comps v !! (tid, eid))
+        then vset_comps <[(tid, eid) := data]> v else v) p S1.
+Proof.
+  intros (_&_&[_ M2]&_) C Hz [en He] [d Hd] E1 E2. apply orb_false_iff in Hz as [-> ->]. simpl.
+  rewrite M2, imap_lookup, He. simpl.
+  eapply crelX_transfer; [exact C|done| |by destruct (is_Some_b _)|by destruct (is_Some_b _)|by destruct (is_Some_b _)|].
+  - intros t. unfold subs_of. by rewrite E2.
+  - intros t _ Ha e. rewrite E1. destruct (decide ((t, e) = (tid, eid))) as [[= -> ->]|Hne].
+    + rewrite (Ha eid), Hd. simpl. by rewrite !lookup_insert.
+    + rewrite lookup_insert_ne by done. rewrite <- Ha. destruct (is_Some_b _); simpl; [by rewrite lookup_insert_ne|done].
+Qed.
+Lemma crel_own_update_refused v sid p SS tid eid data :
+  vrel v sid p SS → crel v p SS →
+  ((tid =? 0) || (eid =? 0) = true ∨ s_ents SS !! eid = None ∨ st_comps (s_store SS) !! (tid, eid) = None) →
+  crel (if negb (tid =? 0) && negb (eid =? 0) && is_Some_b (v_ents v !! eid) && is_Some_b (v_comps v !! (tid, eid))
+        then vset_comps <[(tid, eid) := data]> v else v) p SS.
+Proof.
+  intros (_&_&[_ M2]&_) C Hr.
+  eapply crelX_transfer; [exact C|done|done|by destruct (_ && _)|by destruct (_ && _)|by destruct (_ && _)|].
+  intros t _ Ha e. destruct (decide ((t, e) = (tid, eid))) as [[= -> ->]|Hne].
+  - rewrite M2, imap_lookup, (Ha eid). destruct Hr as [Hz|[He|Hc]].
+    + apply orb_true_iff in Hz as [-> | ->]; simpl; rewrite ?andb_false_r; apply Ha.
+    + rewrite He. simpl. rewrite ?andb_false_r. simpl. apply Ha.
+    + rewrite Hc. simpl. rewrite ?andb_false_r. by rewrite (Ha eid).
+  - rewrite <- Ha. destruct (_ && _); simpl; [by rewrite lookup_insert_ne|done].
+Qed.
+(* a list response: the type is known exactly from now on *)
+Lemma foldr_insert_comps (l : list ((N * N) * N)) (m0 : gmap (N * N) N) k :
+  NoDup (map fst l) →
+  foldr (λ (x : comp_pb) m, <[(cp_tid x, cp_eid x) := cp_data x]> m) m0 (comp_list l) !! k =
+    match (list_to_map l : gmap (N * N) N) !! k with Some d => Some d | None => m0 !! k end.
+Proof.
+  induction l as [|[[t e] d] l IH]; intros Hnd; simpl; [by rewrite lookup_empty|].
+  apply NoDup_cons in Hnd as [Hn Hnd]. destruct (decide ((t, e) = k)) as [<-|Hne].
+  - by rewrite !lookup_insert.
+  - rewrite !lookup_insert_ne by done. by apply IH.
+Qed.
+Lemma crel_own_list v p SS tid :
+  crel v p SS →
+  crel (vset_sync (v_subd v) (if bool_decide (tid ∈ v_subd v) then v_synced v ∪ {[tid]} else v_synced v) (v_dirty v ∖ {[tid]})
+         (vset_comps (λ m, foldr (λ (x : comp_pb) m0, <[(cp_tid x, cp_eid x) := cp_data x]> m0)
+                              (filter (λ kv : (N*N) * N, negb (fst (fst kv) =? tid)) m) (store_list tid (s_store SS))) v)) p SS.
+Proof.
+  intros (C1&C2&C3).
+  assert (Hl : ∀ t e, foldr (λ (x : comp_pb) m0, <[(cp_tid x, cp_eid x) := cp_data x]> m0)
+                        (filter (λ kv : (N*N) * N, negb (fst (fst kv) =? tid)) (v_comps v)) (store_list tid (s_store SS)) !! (t, e) =
+                      if decide (t = tid) then st_comps (s_store SS) !! (t, e) else v_comps v !! (t, e)).
+  { intros t e. unfold store_list. rewrite foldr_insert_comps by apply NoDup_fst_map_to_list.
+    rewrite list_to_map_to_list. case_decide as Ht.
+    - subst t. destruct (st_comps (s_store SS) !! (tid, e)) as [d|] eqn:Ed.
+      + assert (Hf : filter (λ kv : (N*N) * N, fst (fst kv) = tid) (st_comps (s_store SS)) !! (tid, e) = Some d)
+          by (by apply map_filter_lookup_Some). by rewrite Hf.
+      + assert (Hf : filter (λ kv : (N*N) * N, fst (fst kv) = tid) (st_comps (s_store SS)) !! (tid, e) = None)
+          by (apply map_filter_lookup_None; by left). rewrite Hf.
+        apply map_filter_lookup_None. right. intros d' _. simpl. rewrite N.eqb_refl. simpl. tauto.
+    - assert (Hf : filter (λ kv : (N*N) * N, fst (fst kv) = tid) (st_comps (s_store SS)) !! (t, e) = None).
+      { apply map_filter_lookup_None. right. intros d' _ Hx. simpl in Hx. congruence. }
+      rewrite Hf. destruct (v_comps v !! (t, e)) as [d|] eqn:Ed.
+      + apply map_filter_lookup_Some. split; [done|]. simpl. apply N.eqb_neq in Ht. rewrite Ht. simpl. tauto.
+      + apply map_filter_lookup_None. by left. }
+  split; [|split]; simpl.
+  - exact C1.
+  - case_bool_decide; set_solver.
+  - intros t _ Hc e. simpl. rewrite Hl. destruct (decide (t = tid)) as [->|Ht]; [done|]. apply C3; [set_solver|].
+    destruct Hc as [Hc|Hc]; [|right; set_solver]. left. case_bool_decide; set_solver.
+Qed.
+Lemma crel_own_subscribe v p SS tid :
+  crel v p SS →
+  crel (vset_sync (v_subd v ∪ {[tid]}) (if bool_decide (tid ∈ v_dirty v) then v_synced v else v_synced v ∪ {[tid]}) (v_dirty v) v) p
+       (set_store (store_set_subs (λ m, <[tid := subs_of (s_store SS) tid ∪ {[p]}]> m)) SS).
+Proof.
+  intros (C1&C2&C3). split; [|split]; simpl.
+  - intros t. unfold subs_of at 1. simpl. destruct (decide (t = tid)) as [->|Hne].
+    + rewrite lookup_insert. simpl. set_solver.
+    + rewrite lookup_insert_ne by done. rewrite elem_of_union, elem_of_singleton, (C1 t). unfold subs_of. naive_solver.
+  - case_bool_decide; set_solver.
+  - intros t _ Hc. apply C3; [set_solver|]. destruct Hc as [Hc|Hc]; [|by right].
+    case_bool_decide as Hd; [by left|]. apply elem_of_union in Hc as [Hc|Hc]; [by left|]. apply elem_of_singleton in Hc as ->. by right.
+Qed.
+Lemma crel_own_unsubscribe v p SS tid :
+  crel v p SS →
+  crel (vset_sync (v_subd v ∖ {[tid]}) (v_synced v ∖ {[tid]}) (v_dirty v) v) p
+       (set_store (store_set_subs (λ m, match m !! tid with Some s => <[tid := s ∖ {[p]}]> m | None => m end)) SS).
+Proof.
+  intros (C1&C2&C3). split; [|split]; simpl.
+  - intros t. unfold subs_of at 1. simpl. destruct (st_subs (s_store SS) !! tid) as [s|] eqn:E.
+    + destruct (decide (t = tid)) as [->|Hne].
+      * rewrite lookup_insert. simpl. set_solver.
+      * rewrite lookup_insert_ne by done. rewrite elem_of_difference, elem_of_singleton, C1. unfold subs_of. naive_solver.
+    + rewrite elem_of_difference, elem_of_singleton, C1. unfold subs_of. destruct (decide (t = tid)) as [->|Hne].
+      * rewrite E. simpl. set_solver.
+      * naive_solver.
+  - set_solver.
+  - intros t _ Hc. apply C3; [set_solver|]. destruct Hc as [Hc|Hc]; [left; set_solver|by right].
+Qed.
+
+Lemma sstep_own2 cfg k c p own SS r sid v :
+  wf cfg k SS → k + 1 < two32 → parts_injective SS → s_parts SS !! p = Some c → (∀ f, flag_on cfg f = false) →
+  session_local r = true → vrel v sid p SS → crel v p SS →
+  crel (view_own v r (msgs_to c (sstep cfg c p own SS r).2)) p (sstep cfg c p own SS r).1.1.
+Proof.
+  intros W Hk Hi Hp Hnf Hl V C.
+  destruct r; try discriminate Hl; simpl; rewrite ?Hnf; repeat case_match; simpl.
+  all: rewrite ?msgs_to_app, ?msgs_to_cons_eq.
+  all: rewrite ?(msgs_to_broadcast_self _ p _ c), ?(msgs_to_broadcast_to_self _ p _ _ c) by done.
+  all: rewrite ?msgs_to_nil, ?app_nil_r, ?app_nil_l; unfold view_own; simpl.
+  all: try (eapply crelX_same; [exact C|reflexivity|reflexivity]).
+  all: lazymatch goal with
+       | |- context [cleanup_modules _ _ (set_ents _ _)] =>
+           pose proof (cleanup_modules_fields cfg eid (set_ents (delete eid) (set_store (store_delete_entity eid) SS))) as (_&_&_&_&F5&_);
+           apply (crel_remove_entity v p SS); [exact C|intros t9 e9; rewrite F5; simpl; apply store_delete_entity_lookup|by rewrite F5]
+       | |- context [cleanup_modules] => erewrite cleanup_modules_id by eassumption; exact C
+       | |- context [vset_ents] => repeat case_match; (eapply crelX_same; [exact C|reflexivity|reflexivity])
+       | H : store_add_type ?name ?s0 = _ |- _ =>
+           pose proof (store_add_type_fields name s0) as [F1 F2]; rewrite H in F1, F2; simpl in F1, F2;
+           eapply crelX_same; [exact C|exact F1|exact F2]
+       | |- context [store_list] => by apply crel_own_list
+       | |- context [is_Some_b (v_comps _ !! _)] =>
+           first [eapply crel_own_update_accepted; [exact V|exact C|eauto..]; reflexivity
+                 |eapply crel_own_update_refused; [exact V|exact C|eauto]]
+       | |- context [vset_comps <[_ := _]>] => by eapply crel_own_insert
+       | |- context [vset_comps (delete _)] => by eapply crel_own_delete
+       | |- context [v_subd _ ∪ _] => by apply crel_own_subscribe
+       | |- context [v_subd _ ∖ _] => by apply crel_own_unsubscribe
+       | |- context [match ?a with Some _ => ?x | None => ?x end] => destruct a; exact C
+       | |- _ => idtac
+       end.
+Qed.
+
+(* ---------- departures and joins: the component part ---------- *)
+Lemma leave_member2 cfg c p own SS q pq v :
+  parts_injective SS → s_parts SS !! p = Some c → s_parts SS !! pq = Some q → q ≠ c →
+  (∀ e, removed own SS e → is_Some (v_ents v !! e)) → crel v pq SS →
+  crel (recv_all v (msgs_to q (leave_outs cfg c p own SS))) pq (left_session cfg c p own SS).
+Proof.
+  intros Hi Hp Hq Hqc Hex (C1&C2&C3).
+  assert (Hpq : pq ≠ p). { intros ->. congruence. }
+  unfold leave_outs.
+  set (dl := doomed (set_store (store_set_subs (fmap (λ s : gset N, s ∖ {[p]}))) (module_disconnect cfg own SS)) own).
+  set (L := left_session cfg c p own SS).
+  destruct (left_fields cfg c p own SS) as (_&F2&_&_&F5&F6&_). fold L in F2, F5, F6.
+  assert (Hb : ∀ e, bool_decide (e ∈ dl) = bool_decide (removed own SS e)).
+  { intros e. apply bool_decide_ext. symmetry. apply removed_doomed. }
+  rewrite msgs_to_app, (msgs_to_flat_map_member SS p (MEntityDeleteB 0) dl q pq) by done.
+  rewrite (msgs_to_broadcast_member L p _ q pq); [|by apply left_injective|by rewrite F6, lookup_delete_ne|done].
+  assert (Hnd : NoDup dl) by apply doomed_NoDup.
+  assert (Hex' : ∀ e, e ∈ dl → is_Some (v_ents v !! e)).
+  { intros e He. apply Hex. by apply (removed_doomed cfg p own SS e). }
+  clearbody L dl.
+  destruct (recv_deletes dl v Hnd Hex') as (_&_&_&_&_&_&_&I7&I8&I9&I10).
+  rewrite recv_all_app. set (v' := recv_all v (map (MEntityDeleteB 0) dl)) in *. clearbody v'.
+  unfold recv_all. cbn [fold_left view_recv fst snd].
+  assert (Hs : ∀ t, subs_of (s_store L) t = subs_of (s_store SS) t ∖ {[p]}).
+  { intros t. unfold subs_of. rewrite F5, lookup_fmap. destruct (st_subs (s_store SS) !! t); simpl; set_solver. }
+  split; [|split]; cbn [v_subd v_synced v_dirty v_comps vset_parts].
+  - intros t. rewrite I8, Hs, C1. set_solver.
+  - by rewrite I8, I9.
+  - intros t _ Hc e. rewrite I9, I10 in Hc. cbn [v_comps vset_parts]. rewrite I7, F2, Hb.
+    destruct (bool_decide _); [done|]. by apply C3.
+Qed.
+
+Lemma enter_member2 cfg c rid n ots SS q pq v :
+  parts_injective (entered SS c) → s_parts SS !! u32_succ (s_pgen SS) = None →
+  s_parts SS !! pq = Some q → q ≠ c → crel v pq SS →
+  crel (recv_all v (msgs_to q (enter_outs cfg c rid n ots SS))) pq (entered SS c).
+Proof.
+  intros Hi Hn Hq Hqc C. unfold enter_outs. cbv zeta.
+  assert (Hpq : pq ≠ u32_succ (s_pgen SS)). { intros ->. congruence. }
+  rewrite !msgs_to_app. simpl. rewrite !(msgs_to_cons_ne q c) by done. rewrite msgs_to_nil, msgs_to_module_other by done.
+  rewrite (msgs_to_broadcast_member _ _ _ q pq); [|done|unfold entered; simpl; by rewrite lookup_insert_ne|done].
+  cbn [app]. by eapply recvK2_inert; [apply inert_join|exact C|reflexivity|intros ?; reflexivity].
+Qed.
+
+Lemma list_to_map_comps (m : gmap (N * N) N) :
+  list_to_map (map (λ x : comp_pb, ((cp_tid x, cp_eid x), cp_data x)) (comp_list (map_to_list m))) = m.
+Proof.
+  rewrite <- (list_to_map_to_list m) at 2. f_equal. unfold comp_list. rewrite <- list_fmap_compose.
+  rewrite <- (list_fmap_id (map_to_list m)) at 2. apply list_fmap_ext. by intros i [[t e] d] _.
+Qed.
+Lemma enter_own2 cfg k c rid n ots SS :
+  wf cfg k SS → parts_injective (entered SS c) → s_parts SS !! u32_succ (s_pgen SS) = None →
+  crel (view_init n (u32_succ (s_pgen SS)) (msgs_to c (enter_outs cfg c rid n ots SS))) (u32_succ (s_pgen SS)) (entered SS c).
+Proof.
+  intros W Hi Hn. unfold enter_outs. cbv zeta. rewrite !msgs_to_app. simpl. rewrite !msgs_to_cons_eq, msgs_to_nil.
+  rewrite msgs_to_broadcast_self; [|done|unfold entered; simpl; by rewrite lookup_insert].
+  rewrite msgs_to_module_self. unfold session_state_msg. simpl.
+  unfold view_init. cbn [omap list_omap head default app].
+  split; [|split]; cbn [v_subd v_synced v_dirty v_comps].
+  - intros t. split; [set_solver|]. intros Hp. exfalso. unfold subs_of in Hp. simpl in Hp.
+    destruct (st_subs (s_store SS) !! t) as [S0|] eqn:E; simpl in Hp; [|by apply elem_of_empty in Hp].
+    destruct (wf_subs _ _ _ W _ _ _ E Hp) as [[c0 Hc0] _]. congruence.
+  - done.
+  - intros t _ _ e. simpl. unfold store_list_all. by rewrite list_to_map_comps.
+Qed.
+Lemma rejoin_own2 mine v p SS : crel v p SS → crel (rejoin_view mine v) p SS.
+Proof. intros C. unfold rejoin_view. by repeat case_match. Qed.
+
+(* ================= II.2 the spec's entities and components are the model's ================= *)
+Definition ents_of (st : state) (sid eid : N) : option entity := sessions st !! sid ≫= λ SS, s_ents SS !! eid.
+Definition comps_of (st : state) (sid tid eid : N) : option N :=
+  sessions st !! sid ≫= λ SS, st_comps (s_store SS) !! (tid, eid).
+Definition pbp (eid : N) (e : entity) : ent_pb * bool := (ent_to_pb eid e, e_persist e).
+Definition spec_ok2 (sp : spec) (st : state) : Prop :=
+  (∀ sid eid, sp_ents sp !! (sid, eid) = pbp eid <$> ents_of st sid eid) ∧
+  (∀ sid tid eid, sp_comps sp !! (sid, tid, eid) = comps_of st sid tid eid).
+
+Lemma spec_ok2_0 : spec_ok2 spec0 state0.
+Proof. split; intros; unfold ents_of, comps_of; simpl; by rewrite !lookup_empty. Qed.
+
+Lemma spec_ok2_ext sp st st' : sessions st' = sessions st → spec_ok2 sp st → spec_ok2 sp st'.
+Proof. intros E [H1 H2]. split; intros; unfold ents_of, comps_of; rewrite E; [apply H1|apply H2]. Qed.
+
+(* the session [sid] is replaced; the spec changes at keys of [sid] only *)
+Lemma spec_ok2_update sp sp' st c f sid S1 :
+  spec_ok2 sp st →
+  (∀ eid, sp_ents sp' !! (sid, eid) = pbp eid <$> s_ents S1 !! eid) →
+  (∀ s e, s ≠ sid → sp_ents sp' !! (s, e) = sp_ents sp !! (s, e)) →
+  (∀ tid eid, sp_comps sp' !! (sid, tid, eid) = st_comps (s_store S1) !! (tid, eid)) →
+  (∀ s t e, s ≠ sid → sp_comps sp' !! (s, t, e) = sp_comps sp !! (s, t, e)) →
+  spec_ok2 sp' (upd_conn c f (put_session st sid S1)).
+Proof.
+  intros [H1 H2] E1 E2 E3 E4. split.
+  - intros s e. unfold ents_of. simpl. destruct (decide (s = sid)) as [->|Hne].
+    + rewrite lookup_insert. simpl. apply E1.
+    + rewrite lookup_insert_ne by done. rewrite E2 by done. apply H1.
+  - intros s t e. unfold comps_of. simpl. destruct (decide (s = sid)) as [->|Hne].
+    + rewrite lookup_insert. simpl. apply E3.
+    + rewrite lookup_insert_ne by done. rewrite E4 by done. apply H2.
+Qed.
+Lemma spec_ok2_keep sp st c f sid SS S1 :
+  spec_ok2 sp st → sessions st !! sid = Some SS → s_ents S1 = s_ents SS →
+  st_comps (s_store S1) = st_comps (s_store SS) →
+  spec_ok2 sp (upd_conn c f (put_session st sid S1)).
+Proof.
+  intros [H1 H2] HS E1 E2. apply (spec_ok2_update sp sp st c f sid S1); [done| |done| |done].
+  - intros e. rewrite H1. unfold ents_of. rewrite HS. simpl. by rewrite E1.
+  - intros t e. rewrite H2. unfold comps_of. rewrite HS. simpl. by rewrite E2.
+Qed.
+
+(* the spec side of removing an entity *)
+Lemma sp_remove_entity_ents sid eid sp s e :
+  sp_ents (sp_remove_entity sid eid sp) !! (s, e) = if decide (s = sid ∧ e = eid) then None else sp_ents sp !! (s, e).
+Proof.
+  simpl. case_decide as Hd.
+  - destruct Hd as [-> ->]. by rewrite lookup_delete.
+  - rewrite lookup_delete_ne; [done|]. intros [= -> ->]. by apply Hd.
+Qed.
+Lemma sp_remove_entity_comps sid eid sp s t e :
+  sp_comps (sp_remove_entity sid eid sp) !! (s, t, e) = if decide (s = sid ∧ e = eid) then None else sp_comps sp !! (s, t, e).
+Proof.
+  simpl. case_decide as Hd.
+  - destruct Hd as [-> ->]. apply map_filter_lookup_None. right. intros d _. simpl. rewrite !N.eqb_refl. simpl. tauto.
+  - destruct (sp_comps sp !! (s, t, e)) as [d|] eqn:Ed.
+    + apply map_filter_lookup_Some. split; [done|]. simpl.
+      destruct (s =? sid) eqn:E1; simpl; [|tauto]. destruct (e =? eid) eqn:E2; simpl; [|tauto].
+      apply N.eqb_eq in E1, E2. subst. by destruct Hd.
+    + apply map_filter_lookup_None. by left.
+Qed.
+
+Section ok2.
+  Context (sp sp' : spec) (st : state) (c : N) (f : conn → conn) (sid : N) (SS S1 : session).
+  Context (Hok : spec_ok2 sp st) (HS : sessions st !! sid = Some SS).
+  Let E1 : ∀ e, sp_ents sp !! (sid, e) = pbp e <$> s_ents SS !! e.
+  Proof. intros e. rewrite (proj1 Hok). unfold ents_of. by rewrite HS. Qed.
+  Let E2 : ∀ t e, sp_comps sp !! (sid, t, e) = st_comps (s_store SS) !! (t, e).
+  Proof. intros t e. rewrite (proj2 Hok). unfold comps_of. by rewrite HS. Qed.
+
+  Lemma ok2_ents_insert eid e :
+    sp_ents sp' = <[(sid, eid) := pbp eid e]> (sp_ents sp) → sp_comps sp' = sp_comps sp →
+    s_ents S1 = <[eid := e]> (s_ents SS) → st_comps (s_store S1) = st_comps (s_store SS) →
+    spec_ok2 sp' (upd_conn c f (put_session st sid S1)).
+  Proof.
+    intros A1 A2 B1 B2. apply (spec_ok2_update sp sp' st c f sid S1 Hok).
+    - intros e'. rewrite A1, B1. destruct (decide (e' = eid)) as [->|Hne].
+      + by rewrite !lookup_insert.
+      + rewrite !lookup_insert_ne by congruence. apply E1.
+    - intros s e' Hne. rewrite A1. by rewrite lookup_insert_ne by congruence.
+    - intros t e'. rewrite A2, B2. apply E2.
+    - intros s t e' Hne. by rewrite A2.
+  Qed.
+  Lemma ok2_remove eid :
+    sp' = sp_remove_entity sid eid sp → s_ents S1 = delete eid (s_ents SS) →
+    (∀ t e, st_comps (s_store S1) !! (t, e) = if decide (e = eid) then None else st_comps (s_store SS) !! (t, e)) →
+    spec_ok2 sp' (upd_conn c f (put_session st sid S1)).
+  Proof.
+    intros -> B1 B2. apply (spec_ok2_update sp _ st c f sid S1 Hok).
+    - intros e'. rewrite sp_remove_entity_ents, B1. case_decide as Hd.
+      + destruct Hd as [_ ->]. by rewrite lookup_delete.
+      + rewrite lookup_delete_ne by (intros <-; by apply Hd). apply E1.
+    - intros s e' Hne. rewrite sp_remove_entity_ents. rewrite decide_False; [done|]. by intros [? _].
+    - intros t e'. rewrite sp_remove_entity_comps, B2. case_decide as Hd.
+      + destruct Hd as [_ ->]. by rewrite decide_True.
+      + rewrite decide_False by (intros ->; by apply Hd). apply E2.
+    - intros s t e' Hne. rewrite sp_remove_entity_comps. rewrite decide_False; [done|]. by intros [? _].
+  Qed.
+  Lemma ok2_comps_insert tid eid d :
+    sp_ents sp' = sp_ents sp → sp_comps sp' = <[(sid, tid, eid) := d]> (sp_comps sp) →
+    s_ents S1 = s_ents SS → st_comps (s_store S1) = <[(tid, eid) := d]> (st_comps (s_store SS)) →
+    spec_ok2 sp' (upd_conn c f (put_session st sid S1)).
+  Proof.
+    intros A1 A2 B1 B2. apply (spec_ok2_update sp sp' st c f sid S1 Hok).
+    - intros e'. rewrite A1, B1. apply E1.
+    - intros s e' Hne. by rewrite A1.
+    - intros t e'. rewrite A2, B2. destruct (decide ((t, e') = (tid, eid))) as [[= -> ->]|Hne].
+      + by rewrite !lookup_insert.
+      + rewrite !lookup_insert_ne by congruence. apply E2.
+    - intros s t e' Hne. rewrite A2. by rewrite lookup_insert_ne by congruence.
+  Qed.
+  Lemma ok2_comps_delete tid eid :
+    sp_ents sp' = sp_ents sp → sp_comps sp' = delete (sid, tid, eid) (sp_comps sp) →
+    s_ents S1 = s_ents SS → st_comps (s_store S1) = delete (tid, eid) (st_comps (s_store SS)) →
+    spec_ok2 sp' (upd_conn c f (put_session st sid S1)).
+  Proof.
+    intros A1 A2 B1 B2. apply (spec_ok2_update sp sp' st c f sid S1 Hok).
+    - intros e'. rewrite A1, B1. apply E1.
+    - intros s e' Hne. by rewrite A1.
+    - intros t e'. rewrite A2, B2. destruct (decide ((t, e') = (tid, eid))) as [[= -> ->]|Hne].
+      + by rewrite !lookup_delete.
+      + rewrite !lookup_delete_ne by congruence. apply E2.
+    - intros s t e' Hne. rewrite A2. by rewrite lookup_delete_ne by congruence.
+  Qed.
+End ok2.
+
+Local Arguments spec_request : simpl never.
+Local Arguments comp_change : simpl never.
+Ltac rewrite_known :=
+  repeat match goal with
+         | H : ?x = Some _ |- context [?x] => rewrite H
+         | H : ?x = None |- context [?x] => rewrite H
+         | H : ?x = true |- context [?x] => rewrite H
+         | H : ?x = false |- context [?x] => rewrite H
+         end.
+Lemma sstep_spec2 cfg k st sp c f sid p own SS r :
+  wf cfg k SS → parts_injective SS → s_parts SS !! p = Some c → (∀ f, flag_on cfg f = false) →
+  session_local r = true → sessions st !! sid = Some SS → spec_ok2 sp st →
+  spec_ok2 (spec_request sp c sid p r (sstep cfg c p own SS r).2) (upd_conn c f (put_session st sid (sstep cfg c p own SS r).1.1)) ∧
+  comp_change sp c sid p r (sstep cfg c p own SS r).2 = changed SS r.
+Proof.
+  intros W Hi Hp Hnf Hl HS Hok. pose proof Hok as [H1 H2].
+  assert (E1 : ∀ e, sp_ents sp !! (sid, e) = pbp e <$> s_ents SS !! e).
+  { intros e. rewrite H1. unfold ents_of. by rewrite HS. }
+  assert (E2 : ∀ t e, sp_comps sp !! (sid, t, e) = st_comps (s_store SS) !! (t, e)).
+  { intros t e. rewrite H2. unfold comps_of. by rewrite HS. }
+  clear H1 H2.
+  destruct r; try discriminate Hl; simpl; rewrite ?Hnf; repeat case_match; simpl.
+  all: unfold comp_change, spec_request, comp_update_accepted, pose_accepted.
+  all: rewrite ?first_to_msgs, ?has_msg_msgs.
+  all: rewrite ?msgs_to_app, ?msgs_to_cons_eq.
+  all: rewrite ?(msgs_to_broadcast_self _ p _ c), ?(msgs_to_broadcast_to_self _ p _ _ c) by done.
+  all: rewrite ?msgs_to_nil, ?app_nil_r, ?app_nil_l; simpl; rewrite ?N.eqb_refl, ?E1, ?E2; simpl.
+  all: rewrite_known; simpl; rewrite_known; simpl.
+  all: try (split; [|reflexivity]).
+  all: try (eapply spec_ok2_keep; [exact Hok|exact HS|reflexivity|reflexivity]).
+  all: repeat match goal with
+       | H : negb _ = true |- _ => apply negb_true_iff in H
+       | H : negb _ = false |- _ => apply negb_false_iff in H
+       end; rewrite_known; simpl.
+  all: try (eapply spec_ok2_keep; [exact Hok|exact HS|reflexivity|reflexivity]).
+  all: lazymatch goal with
+       | |- context [set_ents <[?eid9 := ?e9]>] =>
+           eapply (ok2_ents_insert sp _ st c f sid SS _ Hok HS eid9 e9); reflexivity
+       | |- context [cleanup_modules _ _ (set_ents _ _)] =>
+           pose proof (cleanup_modules_fields cfg eid (set_ents (delete eid) (set_store (store_delete_entity eid) SS))) as (_&_&_&_&F5&F6&_);
+           eapply (ok2_remove sp _ st c f sid SS _ Hok HS eid); [reflexivity|by rewrite F6|intros t9 e9; rewrite F5; simpl; apply store_delete_entity_lookup]
+       | |- context [cleanup_modules] =>
+           erewrite cleanup_modules_id by eassumption; eapply spec_ok2_keep; [exact Hok|exact HS|reflexivity|reflexivity]
+       | H : store_add_type ?name ?s0 = _ |- _ =>
+           pose proof (store_add_type_fields name s0) as [F1 F2]; rewrite H in F1, F2; simpl in F1, F2;
+           eapply spec_ok2_keep; [exact Hok|exact HS|reflexivity|exact F1]
+       | |- context [match ?a with Some _ => ?x | None => ?x end] =>
+           destruct a; (eapply spec_ok2_keep; [exact Hok|exact HS|reflexivity|reflexivity])
+       | |- _ => idtac
+       end.
+  all: rewrite <- ?negb_orb; rewrite_known; simpl; rewrite ?andb_false_r.
+  all: try (split; [|reflexivity]).
+  all: try (eapply spec_ok2_keep; [exact Hok|exact HS|reflexivity|reflexivity]).
+  all: lazymatch goal with
+       | |- context [set_scomps <[_ := _]>] => eapply (ok2_comps_insert sp _ st c f sid SS _ Hok HS); reflexivity
+       | |- context [set_scomps (delete _)] => eapply (ok2_comps_delete sp _ st c f sid SS _ Hok HS); reflexivity
+       end.
+Qed.
+
+(* ---------- departures: the spec removes what the model removes ---------- *)
+Lemma if_or {A} (P Q R : Prop) `{Decision P, Decision Q, Decision R} (x : option A) :
+  (R ↔ P ∨ Q) → (if decide P then None else if decide Q then None else x) = (if decide R then None else x).
+Proof. intros HR. destruct (decide P), (decide Q), (decide R); try done; exfalso; tauto. Qed.
+Lemma remove_entities_ents sid l sp s e :
+  sp_ents (fold_right (sp_remove_entity sid) sp l) !! (s, e) =
+    if decide (s = sid ∧ e ∈ l) then None else sp_ents sp !! (s, e).
+Proof.
+  induction l as [|x l IH]; cbn [fold_right].
+  - rewrite decide_False; [done|]. intros [_ H]. inversion H.
+  - rewrite sp_remove_entity_ents, IH. apply if_or. rewrite elem_of_cons. tauto.
+Qed.
+Lemma remove_entities_comps sid l sp s t e :
+  sp_comps (fold_right (sp_remove_entity sid) sp l) !! (s, t, e) =
+    if decide (s = sid ∧ e ∈ l) then None else sp_comps sp !! (s, t, e).
+Proof.
+  induction l as [|x l IH]; cbn [fold_right].
+  - rewrite decide_False; [done|]. intros [_ H]. inversion H.
+  - rewrite sp_remove_entity_comps, IH. apply if_or. rewrite elem_of_cons. tauto.
+Qed.
+Lemma sp_gone_spec sp sid p e :
+  e ∈ sp_gone sp sid p ↔ ∃ ent, sp_ents sp !! (sid, e) = Some (ent, false) ∧ ep_owner ent = p.
+Proof.
+  unfold sp_gone. rewrite elem_of_sortN, elem_of_list_omap. split.
+  - intros ([[s e'] [ent pe]]&Hin&Hx). apply elem_of_map_to_list in Hin. simpl in Hx.
+    destruct (s =? sid) eqn:E1; simpl in Hx; [|done]. destruct (ep_owner ent =? p) eqn:E2; simpl in Hx; [|done].
+    destruct pe; simpl in Hx; [done|]. injection Hx as ->. apply N.eqb_eq in E1, E2. subst. by exists ent.
+  - intros (ent&He&Ho). exists ((sid, e), (ent, false)). split; [by apply elem_of_map_to_list|].
+    simpl. apply N.eqb_eq in Ho. by rewrite N.eqb_refl, Ho.
+Qed.
+Lemma sp_members_spec sp sid pq q : (pq, q) ∈ sp_members sp sid ↔ sp_mem sp !! q = Some (sid, pq).
+Proof.
+  unfold sp_members. rewrite elem_of_sort_by, elem_of_list_omap. split.
+  - intros ([q' [s p']]&Hin&Hx). apply elem_of_map_to_list in Hin. simpl in Hx.
+    destruct (s =? sid) eqn:E; [|done]. apply N.eqb_eq in E. by simplify_eq.
+  - intros H. exists (q, (sid, pq)). split; [by apply elem_of_map_to_list|]. simpl. by rewrite N.eqb_refl.
+Qed.
+Lemma sp_live_spec sp sid : sp_live sp sid = true ↔ ∃ q pq, sp_mem sp !! q = Some (sid, pq).
+Proof.
+  unfold sp_live. destruct (sp_members sp sid) as [|[pq q] l] eqn:E.
+  - split; [done|]. intros (q&pq&H). apply sp_members_spec in H. rewrite E in H. inversion H.
+  - split; [|done]. intros _. exists q, pq. apply sp_members_spec. rewrite E. by left.
+Qed.
+Lemma sp_others_spec sp sid p pq q : (pq, q) ∈ sp_others sp sid p ↔ sp_mem sp !! q = Some (sid, pq) ∧ pq ≠ p.
+Proof.
+  unfold sp_others. rewrite elem_of_list_In, filter_In, <- elem_of_list_In, sp_members_spec. simpl.
+  rewrite negb_true_iff, N.eqb_neq. done.
+Qed.
+Lemma sp_purge_ents sid sp s e :
+  sp_ents (sp_purge sid sp) !! (s, e) = if decide (s = sid) then None else sp_ents sp !! (s, e).
+Proof.
+  simpl. case_decide as Hd.
+  - subst. apply map_filter_lookup_None. right. intros x _. simpl. rewrite N.eqb_refl. simpl. tauto.
+  - destruct (sp_ents sp !! (s, e)) as [x|] eqn:E.
+    + apply map_filter_lookup_Some. split; [done|]. simpl. apply N.eqb_neq in Hd. rewrite Hd. simpl. tauto.
+    + apply map_filter_lookup_None. by left.
+Qed.
+Lemma sp_purge_comps sid sp s t e :
+  sp_comps (sp_purge sid sp) !! (s, t, e) = if decide (s = sid) then None else sp_comps sp !! (s, t, e).
+Proof.
+  simpl. case_decide as Hd.
+  - subst. apply map_filter_lookup_None. right. intros x _. simpl. rewrite N.eqb_refl. simpl. tauto.
+  - destruct (sp_comps sp !! (s, t, e)) as [x|] eqn:E.
+    + apply map_filter_lookup_Some. split; [done|]. simpl. apply N.eqb_neq in Hd. rewrite Hd. simpl. tauto.
+    + apply map_filter_lookup_None. by left.
+Qed.
+
+Lemma depart_ok2 cfg sp st c :
+  inv st → Own.own_inv st → spec_ok sp st → spec_ok2 sp st → spec_ok2 (depart sp c) (leave cfg st c).1.
+Proof.
+  intros I HO Hsp [H1 H2].
+  destruct (leave_sessions cfg st c I) as [(cn&sid&p&SS&Hc&Hcur&HS&Hp&E)|[Hcur E]].
+  2:{ rewrite E. unfold depart. rewrite (Hsp c), Hcur. by split. }
+  assert (Hcur0 : cur_of st c = Some (sid, p)) by (unfold cur_of; by rewrite Hc).
+  unfold depart. rewrite (Hsp c), Hcur0.
+  set (L := left_session cfg c p (c_own cn) SS) in *.
+  destruct (left_fields cfg c p (c_own cn) SS) as (F1&F2&_&_&_&F6&_). fold L in F1, F2, F6. clearbody L.
+  pose proof (member_inj _ _ _ I HS) as Hi.
+  (* what the spec removes is what the model removes *)
+  assert (Hg : ∀ e, e ∈ sp_gone sp sid p ↔ removed (c_own cn) SS e).
+  { intros e. rewrite sp_gone_spec. rewrite H1. unfold ents_of. rewrite HS. simpl. unfold removed.
+    rewrite (HO c cn sid p SS Hc Hcur HS e). split.
+    - intros (ent&He&Ho). destruct (s_ents SS !! e) as [en|] eqn:Ee; [|done]. simpl in He. injection He as <- Hpe.
+      split; [by exists en|]. by exists en.
+    - intros [(en&He&Ho) (en'&He'&Hpe)]. assert (en' = en) as -> by congruence.
+      exists (ent_to_pb e en). rewrite He. simpl. unfold pbp. rewrite Hpe. done. }
+  set (sp1 := fold_right (sp_remove_entity sid) sp (sp_gone sp sid p)).
+  assert (G1 : ∀ s e, sp_ents sp1 !! (s, e) = if decide (s = sid ∧ removed (c_own cn) SS e) then None else sp_ents sp !! (s, e)).
+  { intros s e. unfold sp1. rewrite remove_entities_ents. apply decide_ext. by rewrite Hg. }
+  assert (G2 : ∀ s t e, sp_comps sp1 !! (s, t, e) = if decide (s = sid ∧ removed (c_own cn) SS e) then None else sp_comps sp !! (s, t, e)).
+  { intros s t e. unfold sp1. rewrite remove_entities_comps. apply decide_ext. by rewrite Hg. }
+  (* is the session still live? *)
+  set (sp3 := set_mem (delete c) (set_ssubs (map_imap (λ k s, Some (if fst k =? sid then s ∖ {[p]} else s))) sp1)).
+  assert (Hlive : sp_live sp3 sid = true ↔ s_parts L ≠ ∅).
+  { rewrite sp_live_spec. unfold sp3. simpl. unfold sp1. rewrite remove_entities_mem, F6. split.
+    - intros (q&pq&Hq). apply lookup_delete_Some in Hq as [Hne Hq]. rewrite (Hsp q) in Hq.
+      pose proof (member_parts _ _ _ _ _ I Hq HS) as Hpq. intros He.
+      assert (Hx : delete p (s_parts SS) !! pq = Some q).
+      { rewrite lookup_delete_ne; [done|]. intros ->. congruence. }
+      rewrite He in Hx. by rewrite lookup_empty in Hx.
+    - intros Hne. destruct (map_choose _ Hne) as (pq&q&Hq). apply lookup_delete_Some in Hq as [Hnp Hq].
+      exists q, pq. rewrite lookup_delete_ne; [|intros <-; apply Hnp; by eapply Hi].
+      rewrite (Hsp q). apply (inv_parts _ I sid (s_parts SS) pq q); [unfold parts_of; by rewrite HS|done]. }
+  destruct (sp_live sp3 sid) eqn:El.
+  - assert (Hne : s_parts L ≠ ∅) by (by apply Hlive). rewrite decide_False in E by done. split.
+    + intros s e. change (sp_ents sp3) with (sp_ents sp1). rewrite G1. unfold ents_of. rewrite E.
+      destruct (decide (s = sid)) as [->|Hs].
+      * rewrite lookup_insert. simpl. rewrite F1. rewrite H1. unfold ents_of. rewrite HS. simpl.
+        destruct (bool_decide (removed (c_own cn) SS e)) eqn:Eb.
+        -- apply bool_decide_eq_true in Eb. by rewrite decide_True.
+        -- apply bool_decide_eq_false in Eb. rewrite decide_False; [done|]. by intros [_ ?].
+      * rewrite lookup_insert_ne by done. rewrite decide_False by (by intros [? _]). apply H1.
+    + intros s t e. change (sp_comps sp3) with (sp_comps sp1). rewrite G2. unfold comps_of. rewrite E.
+      destruct (decide (s = sid)) as [->|Hs].
+      * rewrite lookup_insert. simpl. rewrite F2. rewrite H2. unfold comps_of. rewrite HS. simpl.
+        destruct (bool_decide (removed (c_own cn) SS e)) eqn:Eb.
+        -- apply bool_decide_eq_true in Eb. by rewrite decide_True.
+        -- apply bool_decide_eq_false in Eb. rewrite decide_False; [done|]. by intros [_ ?].
+      * rewrite lookup_insert_ne by done. rewrite decide_False by (by intros [? _]). apply H2.
+  - assert (He : s_parts L = ∅).
+    { destruct (decide (s_parts L = ∅)) as [He|Hne]; [done|]. apply Hlive in Hne. congruence. }
+    rewrite decide_True in E by done. split.
+    + intros s e. rewrite sp_purge_ents. change (sp_ents sp3) with (sp_ents sp1). unfold ents_of. rewrite E.
+      destruct (decide (s = sid)) as [->|Hs].
+      * by rewrite lookup_delete.
+      * rewrite lookup_delete_ne by done. rewrite G1, decide_False by (by intros [? _]). apply H1.
+    + intros s t e. rewrite sp_purge_comps. change (sp_comps sp3) with (sp_comps sp1). unfold comps_of. rewrite E.
+      destruct (decide (s = sid)) as [->|Hs].
+      * by rewrite lookup_delete.
+      * rewrite lookup_delete_ne by done. rewrite G2, decide_False by (by intros [? _]). apply H2.
+Qed.
+
+(* ---------- joins: entering changes no entity and no component ---------- *)
+Lemma enter_spec_ok2 cfg sp st c rid n ots SS uuid pid :
+  sessions st !! n = Some SS → spec_ok2 sp st → spec_ok2 (enter_spec sp c n uuid pid) (enter cfg st c rid n ots).1.1.
+Proof.
+  intros HS [H1 H2]. destruct (enter_state cfg st c rid n ots SS HS) as (ES&_). split.
+  - intros s e. change (sp_ents (enter_spec sp c n uuid pid)) with (sp_ents sp). rewrite H1. unfold ents_of. rewrite ES.
+    destruct (decide (s = n)) as [->|Hne]; [by rewrite lookup_insert, HS|by rewrite lookup_insert_ne].
+  - intros s t e. change (sp_comps (enter_spec sp c n uuid pid)) with (sp_comps sp). rewrite H2. unfold comps_of. rewrite ES.
+    destruct (decide (s = n)) as [->|Hne]; [by rewrite lookup_insert, HS|by rewrite lookup_insert_ne].
+Qed.
+Lemma create_spec_ok2 hint sp st n st2 :
+  inv st → nowrap st → create_session hint st = (n, st2) → spec_ok2 sp st → spec_ok2 sp st2.
+Proof.
+  intros I Wn Hcr [H1 H2]. destruct (create_session_proj _ _ _ _ I Wn Hcr) as (Hfresh&_).
+  destruct (create_sessions _ _ _ _ Hcr) as [E2 _].
+  assert (Hn : sessions st !! n = None). { unfold parts_of in Hfresh. by destruct (sessions st !! n). }
+  split.
+  - intros s e. rewrite H1. unfold ents_of. rewrite E2. destruct (decide (s = n)) as [->|Hne].
+    + rewrite lookup_insert, Hn. simpl. by rewrite lookup_empty.
+    + by rewrite lookup_insert_ne.
+  - intros s t e. rewrite H2. unfold comps_of. rewrite E2. destruct (decide (s = n)) as [->|Hne].
+    + rewrite lookup_insert, Hn. simpl. by rewrite lookup_empty.
+    + by rewrite lookup_insert_ne.
+Qed.
+
+Lemma join_spec2 cfg sp st c rid s ots hint h e :
+  (∀ f, flag_on cfg f = false) → inv st → nowrap st → Own.own_inv st → is_Some (conns st !! c) →
+  spec_ok sp st → spec_ok2 sp st →
+  ev_op e = OStep c h → ev_req e = Some (RJoin rid s ots) →
+  ev_outs e = (Model.join cfg st c rid s ots hint).1.2 → ev_verdict e = VOk →
+  spec_ok2 (spec_step sp e) (Model.join cfg st c rid s ots hint).1.1.
+Proof.
+  intros Hnf I Wn HO [cn Hc] Hsp Hok Ho Hr Hout Hv.
+  rewrite (spec_step_join sp e c h rid s ots Ho Hr Hv). revert Hout. unfold Model.join. rewrite Hc.
+  destruct (already_joined cn s) eqn:Ha.
+  { unfold already_joined in Ha. destruct (c_cur cn) as [[n p]|] eqn:Hcur; [|done].
+    destruct s as [|n'|j]; try done. apply bool_decide_eq_true in Ha as <-.
+    assert (Hcur0 : cur_of st c = Some (n, p)) by (unfold cur_of; by rewrite Hc).
+    destruct (live_session _ _ (inv_live _ I _ _ _ Hcur0)) as [SS HS]. rewrite HS. cbn [fst snd]. intros Hout.
+    assert (Hmine : msgs_to c (ev_outs e) = MError rid E_ALREADY_JOINED :: msgs_to c (module_join_msgs cfg c SS)).
+    { by rewrite Hout, msgs_to_cons_eq. }
+    assert (Hjr : join_resp c (ev_outs e) = None).
+    { unfold join_resp. rewrite first_to_msgs, Hmine, msgs_to_module_self. by destruct (cfg_vikja cfg), (cfg_odal cfg). }
+    assert (Hhe : has_error c E_NOT_FOUND (ev_outs e) = false).
+    { rewrite has_error_msgs, Hmine, msgs_to_module_self. by destruct (cfg_vikja cfg), (cfg_odal cfg). }
+    by rewrite Hjr, Hhe. }
+  pose proof (inv_leave cfg st c I) as I1. pose proof (leave_nowrap cfg st c I Wn) as Wn1.
+  pose proof (leave_outs_self cfg st c I) as Ho1.
+  pose proof (depart_ok2 cfg sp st c I HO Hsp Hok) as Hd.
+  destruct (leave cfg st c) as [st1 o1]. cbn [fst snd] in *.
+  assert (Herr : ev_outs e = o1 ++ [(c, MError rid E_NOT_FOUND)] →
+                 spec_ok2 (match join_resp c (ev_outs e) with
+                           | Some (_, sid, uuid, pid) => enter_spec (depart sp c) c sid uuid pid
+                           | None => if has_error c E_NOT_FOUND (ev_outs e) then depart sp c else sp end) st1).
+  { intros Hout. assert (Hmine : msgs_to c (ev_outs e) = [MError rid E_NOT_FOUND]).
+    { by rewrite Hout, msgs_to_app, Ho1, msgs_to_cons_eq. }
+    assert (Hjr : join_resp c (ev_outs e) = None) by (unfold join_resp; by rewrite first_to_msgs, Hmine).
+    assert (Hhe : has_error c E_NOT_FOUND (ev_outs e) = true) by (by rewrite has_error_msgs, Hmine).
+    by rewrite Hjr, Hhe. }
+  assert (Hent : ∀ st2 n SS, sessions st2 !! n = Some SS → spec_ok2 (depart sp c) st2 →
+            ev_outs e = o1 ++ (enter cfg st2 c rid n ots).1.2 →
+            spec_ok2 (match join_resp c (ev_outs e) with
+                      | Some (_, sid, uuid, pid) => enter_spec (depart sp c) c sid uuid pid
+                      | None => if has_error c E_NOT_FOUND (ev_outs e) then depart sp c else sp end)
+                     (enter cfg st2 c rid n ots).1.1).
+  { intros st2 n SS HS2 Hd2 Hout.
+    rewrite (enter_outputs cfg st2 c rid n ots SS HS2 (Hnf _) (Hnf _)) in Hout. cbv zeta in Hout.
+    fold (enter_outs cfg c rid n ots SS) in Hout.
+    pose proof (join_resp_entered cfg c rid n ots SS o1 Ho1) as Hjr. rewrite <- Hout in Hjr. rewrite Hjr.
+    by eapply enter_spec_ok2. }
+  destruct s as [|n|j]; [| |exact Herr].
+  - destruct (create_session hint st1) as [n st2] eqn:Hcr.
+    destruct (create_sessions _ _ _ _ Hcr) as [E2 EC2].
+    assert (HS2 : sessions st2 !! n = Some (session0 (next_uuid st1 + 1))) by (rewrite E2; by rewrite lookup_insert).
+    specialize (Hent st2 n _ HS2 (create_spec_ok2 _ _ _ _ _ I1 Wn1 Hcr Hd)).
+    destruct (enter cfg st2 c rid n ots) as [[st3 o2] v]. cbn [fst snd] in *. by apply Hent.
+  - destruct (sessions st1 !! n) as [SS|] eqn:HS; [|exact Herr].
+    specialize (Hent st1 n SS HS Hd).
+    destruct (enter cfg st1 c rid n ots) as [[st2 o2] v]. cbn [fst snd] in *. by apply Hent.
+Qed.
+
+Lemma spec_request_other sp c sid p r outs :
+  session_local r = false → is_join r = false → spec_request sp c sid p r outs = sp.
+Proof. intros Hl Hj. by destruct r. Qed.
+Lemma comp_change_other sp c sid p r outs : session_local r = false → comp_change sp c sid p r outs = None.
+Proof. intros Hl. by destruct r. Qed.
+
+Lemma handle_spec2 cfg k sp st c r hint h e :
+  (∀ f, flag_on cfg f = false) → inv st → nowrap st → swf cfg k st → Own.own_inv st → is_Some (conns st !! c) →
+  spec_ok sp st → spec_ok2 sp st →
+  ev_op e = OStep c h → ev_req e = Some r →
+  ev_outs e = (handle cfg st c r hint).1.2 → ev_verdict e = (handle cfg st c r hint).2 →
+  (handle cfg st c r hint).2 ≠ VErr →
+  spec_ok2 (spec_step sp e) (handle cfg st c r hint).1.1.
+Proof.
+  intros Hnf I Wn W HO [cn Hc] Hsp Hok Ho Hr. unfold handle. rewrite Hc.
+  assert (Hjoin : ∀ rid s ots, r = RJoin rid s ots →
+            ev_outs e = (Model.join cfg st c rid s ots hint).1.2 → ev_verdict e = (Model.join cfg st c rid s ots hint).2 →
+            spec_ok2 (spec_step sp e) (Model.join cfg st c rid s ots hint).1.1).
+  { intros rid s ots -> Hout Hv. rewrite join_verdict in Hv by eauto. eapply join_spec2; eauto. }
+  assert (Hsame : ∀ vd, ev_verdict e = vd → vd = VOk → is_join r = false →
+            spec_step sp e = match sp_mem sp !! c with Some (sid, p) => spec_request sp c sid p r (ev_outs e) | None => sp end).
+  { intros vd Hv -> Hj. unfold spec_step. rewrite Ho, Hr, Hv. by destruct r. }
+  destruct (c_cur cn) as [[sid p]|] eqn:Hcur.
+  - assert (Hcur0 : cur_of st c = Some (sid, p)) by (unfold cur_of; by rewrite Hc).
+    destruct (live_session _ _ (inv_live _ I _ _ _ Hcur0)) as [SS HS]. rewrite HS.
+    destruct (is_join r) eqn:Hj.
+    { destruct r; try discriminate Hj. simpl. intros Hout Hv _. by eapply Hjoin. }
+    destruct (inv_member st c cn sid p SS I Hc Hcur HS) as [Hp Hi].
+    destruct (session_local r) eqn:Hl.
+    + rewrite (handle_joined_sstep cfg st c cn sid p SS r hint Hl Hc HS). unfold apply_sstep. cbn [fst snd].
+      intros Hout Hv _. rewrite (Hsame VOk Hv eq_refl eq_refl), (Hsp c), Hcur0, Hout.
+      by eapply sstep_spec2; [by eapply W|..].
+    + pose proof (handle_joined_other cfg st c cn sid p SS r hint Hl Hj) as ES.
+      pose proof (handle_joined_other_verdict cfg st c cn sid p SS r hint Hl Hj) as Hvd.
+      destruct (handle_joined cfg st c cn sid p SS r hint) as [[st' o] vd] eqn:E. cbn [fst snd] in *.
+      intros Hout Hv Hne. destruct Hvd as [->| ->]; [|done].
+      rewrite (Hsame VOk Hv eq_refl eq_refl), (Hsp c), Hcur0, spec_request_other by done. by eapply spec_ok2_ext.
+  - assert (Hcur0 : cur_of st c = None) by (unfold cur_of; by rewrite Hc).
+    destruct (is_join r) eqn:Hj.
+    { destruct r; try discriminate Hj. simpl. intros Hout Hv _. by eapply Hjoin. }
+    pose proof (handle_unjoined_other cfg st c cn r hint Hj) as ES.
+    pose proof (handle_unjoined_verdict cfg st c cn r hint Hj) as Hvd.
+    destruct (handle_unjoined cfg st c cn r hint) as [[st' o] vd] eqn:E. cbn [fst snd] in *.
+    intros Hout Hv Hne. destruct Hvd as [->| ->]; [|done].
+    rewrite (Hsame VOk Hv eq_refl eq_refl), (Hsp c), Hcur0. by eapply spec_ok2_ext.
+Qed.
+
+(* ================= II.3 the bookkeeping phase, exactly ================= *)
+Lemma dirty_fold_untouched i outs tid eid l (vs : gmap N view) acc q :
+  q ∉ map snd l ∨ has_msg q outs (notif_about tid eid) = true →
+  (fold_left (dirty_one i outs tid eid) l (vs, acc)).1 !! q = vs !! q.
+Proof.
+  revert vs acc. induction l as [|pc l IH]; intros vs acc Hq; [done|]. cbn [fold_left]. unfold dirty_one at 2.
+  assert (Hq' : q ∉ map snd l ∨ has_msg q outs (notif_about tid eid) = true).
+  { destruct Hq as [Hq|Hq]; [left|by right]. intros H. apply Hq. simpl. by right. }
+  destruct (has_msg pc.2 outs (notif_about tid eid)) eqn:En; [by apply IH|].
+  destruct (vs !! pc.2) as [v|] eqn:Ev; [|by apply IH].
+  destruct (bool_decide (tid ∈ v_synced v)); [by apply IH|].
+  rewrite IH by done. rewrite lookup_insert_ne; [done|]. intros <-. destruct Hq as [Hq|Hq]; [|congruence].
+  apply Hq. simpl. by left.
+Qed.
+Lemma dirty_fold_grow i outs tid eid l (vs : gmap N view) acc q v :
+  vs !! q = Some v →
+  ∃ v', (fold_left (dirty_one i outs tid eid) l (vs, acc)).1 !! q = Some v' ∧ dirty_only v v' ∧ v_dirty v ⊆ v_dirty v'.
+Proof.
+  revert vs acc v. induction l as [|pc l IH]; intros vs acc v Hv.
+  { exists v. split; [done|]. split; [apply dirty_only_refl|done]. }
+  cbn [fold_left]. unfold dirty_one at 2.
+  destruct (has_msg pc.2 outs (notif_about tid eid)) eqn:En; [by apply IH|].
+  destruct (vs !! pc.2) as [w|] eqn:Ew; [|by apply IH].
+  destruct (bool_decide (tid ∈ v_synced w)); [by apply IH|].
+  destruct (decide (pc.2 = q)) as [Hq|Hne].
+  - rewrite Hq in *. assert (w = v) as -> by congruence.
+    destruct (IH (<[q := vset_sync (v_subd v) (v_synced v) (v_dirty v ∪ {[tid]}) v]> vs) acc _ (lookup_insert _ _ _)) as (v'&H1&H2&H3).
+    exists v'. split; [done|]. split.
+    + eapply dirty_only_trans; [|exact H2]. unfold dirty_only. by destruct v.
+    + simpl in H3. set_solver.
+  - apply IH. by rewrite lookup_insert_ne.
+Qed.
+Lemma dirty_fold_marked i outs tid eid l (vs : gmap N view) acc q v :
+  q ∈ map snd l → has_msg q outs (notif_about tid eid) = false → vs !! q = Some v → tid ∉ v_synced v →
+  ∃ v', (fold_left (dirty_one i outs tid eid) l (vs, acc)).1 !! q = Some v' ∧ dirty_only v v' ∧
+        v_dirty v ⊆ v_dirty v' ∧ tid ∈ v_dirty v'.
+Proof.
+  revert vs acc v. induction l as [|pc l IH]; intros vs acc v Hin Hn Hv Hs; [by inversion Hin|].
+  cbn [fold_left]. unfold dirty_one at 2. simpl in Hin. apply elem_of_cons in Hin as [Hq|Hin].
+  - rewrite <- Hq, Hn, Hv. rewrite bool_decide_eq_false_2 by done.
+    destruct (dirty_fold_grow i outs tid eid l (<[q := vset_sync (v_subd v) (v_synced v) (v_dirty v ∪ {[tid]}) v]> vs) acc q _
+                (lookup_insert _ _ _)) as (v'&H1&H2&H3).
+    exists v'. split; [done|]. split; [|simpl in H3; set_solver].
+    eapply dirty_only_trans; [|exact H2]. unfold dirty_only. by destruct v.
+  - destruct (has_msg pc.2 outs (notif_about tid eid)) eqn:En; [by apply IH|].
+    destruct (vs !! pc.2) as [w|] eqn:Ew; [|by apply IH].
+    destruct (bool_decide (tid ∈ v_synced w)) eqn:Eb; [by apply IH|].
+    destruct (decide (pc.2 = q)) as [Hq|Hne].
+    + rewrite Hq in *. assert (w = v) as -> by congruence.
+      destruct (IH (<[q := vset_sync (v_subd v) (v_synced v) (v_dirty v ∪ {[tid]}) v]> vs) acc _ Hin Hn (lookup_insert _ _ _) Hs)
+        as (v'&H1&H2&H3&H4).
+      exists v'. split; [done|]. split; [|simpl in H3; set_solver].
+      eapply dirty_only_trans; [|exact H2]. unfold dirty_only. by destruct v.
+    + apply IH; try done. by rewrite lookup_insert_ne.
+Qed.
+Lemma dirty_fold_viols i outs tid eid l (vs : gmap N view) acc :
+  (∀ pc v, pc ∈ l → has_msg pc.2 outs (notif_about tid eid) = false → vs !! pc.2 = Some v → tid ∉ v_synced v) →
+  (fold_left (dirty_one i outs tid eid) l (vs, acc)).2 = acc.
+Proof.
+  revert vs acc. induction l as [|pc l IH]; intros vs acc H; [done|]. cbn [fold_left]. unfold dirty_one at 2.
+  assert (H' : ∀ pc' v, pc' ∈ l → has_msg pc'.2 outs (notif_about tid eid) = false → vs !! pc'.2 = Some v → tid ∉ v_synced v).
+  { intros pc' v Hin. apply H. by right. }
+  destruct (has_msg pc.2 outs (notif_about tid eid)) eqn:En; [by apply IH|].
+  destruct (vs !! pc.2) as [w|] eqn:Ew; [|by apply IH].
+  assert (Hw : tid ∉ v_synced w) by (eapply (H pc); [by left|done|done]).
+  rewrite bool_decide_eq_false_2 by done. apply IH.
+  intros pc' v Hin Hn'. destruct (decide (pc.2 = pc'.2)) as [Heq|Hne].
+  - rewrite <- Heq, lookup_insert. intros [= <-]. done.
+  - rewrite lookup_insert_ne by done. by apply H'.
+Qed.
+
+(* once marked, nothing is claimed about the type: the exemption is discharged *)
+Lemma crel_marked v v' p SS tid :
+  crelX {[tid]} v p SS → tid ∉ v_synced v → dirty_only v v' → v_dirty v ⊆ v_dirty v' → tid ∈ v_dirty v' → crel v' p SS.
+Proof.
+  intros (C1&C2&C3) Hs Hd Hsub Hin. unfold dirty_only in Hd. rewrite Hd. split; [|split]; simpl; [done|done|].
+  intros t _ [Ht|Ht].
+  - assert (t ≠ tid) by (intros ->; done). intros e. simpl. apply C3; [set_solver|by left].
+  - assert (t ≠ tid) by (intros ->; done). intros e. simpl. apply C3; [set_solver|]. right. set_solver.
+Qed.
+
+(* ================= II.4 one event, with components ================= *)
+Definition ev_change (sp : spec) (e : event) : option (N * N * N * N) :=
+  match stepped e with
+  | Some (c, r) =>
+      match sp_mem sp !! c with
+      | Some (sid, p) => match comp_change sp c sid p r (ev_outs e) with
+                         | Some (tid, eid) => Some (sid, p, tid, eid) | None => None end
+      | None => None
+      end
+  | None => None
+  end.
+Lemma dirty_step_change i sp e (vs2 : gmap N view) :
+  dirty_step i sp e vs2 =
+    match ev_change sp e with
+    | Some (sid, p, tid, eid) => fold_left (dirty_one i (ev_outs e) tid eid) (sp_others sp sid p) (vs2, [])
+    | None => (vs2, [])
+    end.
+Proof. unfold dirty_step, ev_change. by repeat case_match; simplify_eq. Qed.
+Lemma ev_change_actor sp e sid p tid eid :
+  ev_change sp e = Some (sid, p, tid, eid) → ∃ c, actor e = Some c ∧ sp_mem sp !! c = Some (sid, p).
+Proof.
+  unfold ev_change, stepped, actor. intros H. repeat case_match; simplify_eq; (eexists; split; [reflexivity|done]).
+Qed.
+
+(* the change a member other than the actor has to be told about, if any *)
+Definition chg_for (sp : spec) (e : event) (q : N) : option (N * N) :=
+  match ev_change sp e with
+  | Some (sid, p, tid, eid) =>
+      match sp_mem sp !! q with
+      | Some (sid', pq) => if decide (sid' = sid ∧ pq ≠ p) then Some (tid, eid) else None
+      | None => None
+      end
+  | None => None
+  end.
+
+Definition views_ok2 (vs : gmap N view) (st : state) : Prop :=
+  ∀ c, match cur_of st c with
+       | Some (sid, p) => ∃ v SS, vs !! c = Some v ∧ sessions st !! sid = Some SS ∧ vrel v sid p SS ∧ crel v p SS
+       | None => vs !! c = None
+       end.
+Lemma views_ok2_ok vs st : views_ok2 vs st → views_ok vs st.
+Proof.
+  intros H c. specialize (H c). destruct (cur_of st c) as [[sid p]|]; [|done].
+  destruct H as (v&SS&?&?&?&?). by exists v, SS.
+Qed.
+
+Definition others_goal2 (sp : spec) (e : event) (st st1 : state) : Prop :=
+  ∀ q, Some q ≠ actor e → cur_of st1 q = cur_of st q ∧
+     match cur_of st q with
+     | Some (sid, pq) => ∀ SS v, sessions st !! sid = Some SS → vrel v sid pq SS → crel v pq SS →
+         ∃ SS', sessions st1 !! sid = Some SS' ∧ recv_oksK comp_msg v (msgs_to q (ev_outs e)) = true ∧
+                vrel (recv_all v (msgs_to q (ev_outs e))) sid pq SS' ∧
+                crel_mid (chg_for sp e q) (ev_outs e) q (recv_all v (msgs_to q (ev_outs e))) pq SS'
+     | None => True
+     end.
+Definition own_goal2 (sp sp' : spec) (e : event) (c : N) (vs : gmap N view) (st1 : state) : Prop :=
+  sp_mem sp' !! c = cur_of st1 c ∧
+  match cur_of st1 c with
+  | Some (sid, p) => ∃ v SS, own_view sp sp' e c (vs !! c) = Some v ∧ sessions st1 !! sid = Some SS ∧
+                            vrel v sid p SS ∧ crel v p SS
+  | None => True
+  end.
+
+Lemma P_C01_event_fst cfg i sp sp' (vs : gmap N view) e :
+  (P_C01_event cfg i sp sp' vs e).1 =
+    (dirty_step i sp e (own_step sp sp' e (recv_fold (actor e) i (ev_outs e) (vs, [])).1)).1.
+Proof.
+  rewrite P_C01_event_eq. unfold P_C01_event'. destruct (recv_fold (actor e) i (ev_outs e) (vs, [])) as [a b]. cbn [fst].
+  by destruct (dirty_step i sp e (own_step sp sp' e a)).
+Qed.
+
+Lemma event_views2 cfg i sp vs e st st1 :
+  let sp' := spec_step sp e in
+  spec_ok sp st → views_ok2 vs st → others_goal2 sp e st st1 →
+  (∀ c, actor e = Some c → own_goal2 sp sp' e c vs st1) →
+  views_ok2 (P_C01_event cfg i sp sp' vs e).1 st1 ∧
+  Forall (outside comp_msg i) (recv_fold (actor e) i (ev_outs e) (vs, [])).2 ∧
+  (dirty_step i sp e (own_step sp sp' e (recv_fold (actor e) i (ev_outs e) (vs, [])).1)).2 = [].
+Proof.
+  intros sp' Hsp Hvs Hoth Hown.
+  (* the views after the first two phases *)
+  set (vs1 := (recv_fold (actor e) i (ev_outs e) (vs, [])).1).
+  set (vs2 := own_step sp sp' e vs1).
+  assert (H1 : ∀ c, vs1 !! c = if bool_decide (Some c = actor e) then vs !! c
+                              else (λ v, recv_all v (msgs_to c (ev_outs e))) <$> vs !! c).
+  { intros c. apply recv_fold_lookup. }
+  assert (H2 : ∀ c, vs2 !! c = match actor e with
+                               | Some a => if decide (c = a) then own_view sp sp' e a (vs1 !! a) else vs1 !! c
+                               | None => vs1 !! c end) by (intros c; apply own_step_lookup).
+  assert (H2o : ∀ q, Some q ≠ actor e → vs2 !! q = (λ v, recv_all v (msgs_to q (ev_outs e))) <$> vs !! q).
+  { intros q Hq. rewrite H2.
+    assert (Hq1 : vs1 !! q = (λ v, recv_all v (msgs_to q (ev_outs e))) <$> vs !! q).
+    { rewrite H1. by rewrite bool_decide_eq_false_2. }
+    destruct (actor e) as [a|]; [|done]. rewrite decide_False; [done|]. intros ->. done. }
+  (* who the bookkeeping phase may mark *)
+  assert (Hlist : ∀ chg sid p tid eid pq q, chg = ev_change sp e → chg = Some (sid, p, tid, eid) →
+            (pq, q) ∈ sp_others sp sid p →
+            Some q ≠ actor e ∧ cur_of st q = Some (sid, pq) ∧ chg_for sp e q = Some (tid, eid)).
+  { intros chg sid p tid eid pq q -> Hc Hin. apply sp_others_spec in Hin as [Hm Hne].
+    destruct (ev_change_actor _ _ _ _ _ _ Hc) as (a&Ha&Hma). split; [|split].
+    - rewrite Ha. intros [= ->]. congruence.
+    - by rewrite <- (Hsp q).
+    - unfold chg_for. rewrite Hc, Hm. by rewrite decide_True. }
+  assert (Hmid : ∀ q sid pq v SS, Some q ≠ actor e → cur_of st q = Some (sid, pq) → vs !! q = Some v →
+            sessions st !! sid = Some SS → vrel v sid pq SS → crel v pq SS →
+            ∃ SS', sessions st1 !! sid = Some SS' ∧ vrel (recv_all v (msgs_to q (ev_outs e))) sid pq SS' ∧
+                   crel_mid (chg_for sp e q) (ev_outs e) q (recv_all v (msgs_to q (ev_outs e))) pq SS' ∧
+                   recv_oksK comp_msg v (msgs_to q (ev_outs e)) = true).
+  { intros q sid pq v SS Hq Hc Hv HS V C. destruct (Hoth q Hq) as [_ Ho]. rewrite Hc in Ho.
+    destruct (Ho SS v HS V C) as (SS'&HS'&O&V'&C'). by exists SS'. }
+  remember (ev_change sp e) as chg eqn:Echg.
+  split; [|split].
+  - (* the views *)
+    intros c. rewrite P_C01_event_fst. fold vs1 vs2.
+    pose proof (dirty_step_lookup i sp e vs2 c) as Hd.
+    rewrite dirty_step_change in *. rewrite <- Echg in *.
+    destruct (decide (Some c = actor e)) as [Ha|Ha].
+    + (* the actor: never in the list *)
+      destruct (Hown c (eq_sym Ha)) as [Hm Ho].
+      assert (Hv2 : vs2 !! c = own_view sp sp' e c (vs !! c)).
+      { rewrite H2, <- Ha, decide_True by done. by rewrite H1, bool_decide_eq_true_2. }
+      assert (Hun : (match chg with
+                     | Some (sid, p, tid, eid) => fold_left (dirty_one i (ev_outs e) tid eid) (sp_others sp sid p) (vs2, [])
+                     | None => (vs2, []) end).1 !! c = vs2 !! c).
+      { destruct chg as [[[[sid p] tid] eid]|]; [|done].
+        apply dirty_fold_untouched. left. intros Hin. apply elem_of_list_fmap in Hin as ([pq q]&Hq&Hin). simpl in Hq. subst q.
+        by destruct (Hlist _ _ _ _ _ _ _ eq_refl eq_refl Hin) as [? _]. }
+      rewrite Hun, Hv2. destruct (cur_of st1 c) as [[sid p]|].
+      * destruct Ho as (v&SS&Hv&HS&V&C). rewrite Hv. by exists v, SS.
+      * unfold own_view. by rewrite Hm.
+    + (* everybody else *)
+      destruct (Hoth c Ha) as [Ec _]. rewrite Ec. specialize (Hvs c). rewrite (H2o c Ha) in Hd.
+      destruct (cur_of st c) as [[sid pq]|] eqn:Hcc.
+      * destruct Hvs as (v&SS&Hv&HS&V&C).
+        destruct (Hmid c sid pq v SS Ha Hcc Hv HS V C) as (SS'&HS'&V'&C'&_).
+        set (v1 := recv_all v (msgs_to c (ev_outs e))) in *.
+        assert (Hv2 : vs2 !! c = Some v1) by (rewrite (H2o c Ha), Hv; done).
+        unfold crel_mid, chg_for in C'. rewrite <- Echg in C'.
+        destruct chg as [[[[sid0 p0] tid] eid]|].
+        -- rewrite (Hsp c), Hcc in C'. case_decide as Hdd.
+           ++ destruct Hdd as [-> Hne].
+              assert (Hin : c ∈ map snd (sp_others sp sid0 p0)).
+              { apply elem_of_list_fmap. exists (pq, c). split; [done|]. apply sp_others_spec. by rewrite (Hsp c). }
+              destruct (has_msg c (ev_outs e) (notif_about tid eid)) eqn:En.
+              ** rewrite (dirty_fold_untouched i (ev_outs e) tid eid _ vs2 [] c) by (by right). exists v1, SS'. by rewrite Hv2.
+              ** destruct C' as [C' Hs'].
+                 destruct (dirty_fold_marked i (ev_outs e) tid eid _ vs2 [] c v1 Hin En Hv2 Hs') as (v'&Hl&Hdo&Hsub&Hm).
+                 exists v', SS'. split; [done|]. split; [done|]. split; [by eapply vrel_dirty_only|by eapply crel_marked].
+           ++ rewrite (dirty_fold_untouched i (ev_outs e) tid eid _ vs2 [] c).
+              { exists v1, SS'. by rewrite Hv2. }
+              left. intros Hin. apply elem_of_list_fmap in Hin as ([pq' q]&Hq&Hin). simpl in Hq. subst q.
+              destruct (Hlist _ _ _ _ _ _ _ eq_refl eq_refl Hin) as (_&Hc2&_). apply Hdd. rewrite Hcc in Hc2. injection Hc2 as -> ->.
+              apply sp_others_spec in Hin as [_ ?]. done.
+        -- cbn [fst]. exists v1, SS'. by rewrite Hv2.
+      * rewrite Hvs in Hd. simpl in Hd. unfold opt_rel in Hd. match goal with |- ?X = None => by destruct X end.
+  - (* component notifications are applicable *)
+    destruct (recv_fold_violsK comp_msg (actor e) i (ev_outs e) vs []) as (extra&E&F).
+    + intros q v Hq Hv. specialize (Hvs q). destruct (cur_of st q) as [[sid pq]|] eqn:Hc; [|congruence].
+      destruct Hvs as (v'&SS&Hv'&HS&V&C). assert (v' = v) as -> by congruence.
+      by destruct (Hmid q sid pq v SS Hq Hc Hv HS V C) as (_&_&_&_&O).
+    + by rewrite E.
+  - (* nobody synced is left untold *)
+    rewrite dirty_step_change. rewrite <- Echg. destruct chg as [[[[sid p] tid] eid]|]; [|done].
+    apply dirty_fold_viols. intros [pq q] w Hin Hn Hw. simpl in *.
+    destruct (Hlist _ _ _ _ _ _ _ eq_refl eq_refl Hin) as (Hq&Hc&Hchg).
+    pose proof (Hvs q) as Hvq. rewrite Hc in Hvq. destruct Hvq as (v&SS&Hv&HS&V&C).
+    destruct (Hmid q sid pq v SS Hq Hc Hv HS V C) as (SS'&HS'&V'&C'&_).
+    fold vs1 vs2 in Hw. rewrite (H2o q Hq), Hv in Hw. simpl in Hw. injection Hw as <-.
+    unfold crel_mid in C'. rewrite Hchg, Hn in C'. by destruct C'.
+Qed.
+
+(* ================= II.5 the global state, with components ================= *)
+Definition R2 (v : view) (sid pq : N) (SS : session) : Prop := vrel v sid pq SS ∧ crel v pq SS.
+Definition ostep2 (c : N) (outs : list delivery) (st st' : state) : Prop :=
+  ∀ q, q ≠ c → cur_of st' q = cur_of st q ∧
+    match cur_of st q with
+    | Some (sid, pq) => ∀ SS v, sessions st !! sid = Some SS → R2 v sid pq SS →
+        ∃ SS', sessions st' !! sid = Some SS' ∧ recv_oksK comp_msg v (msgs_to q outs) = true ∧
+               R2 (recv_all v (msgs_to q outs)) sid pq SS'
+    | None => True
+    end.
+
+Lemma ostep2_trans c o1 o2 st st1 st2 : ostep2 c o1 st st1 → ostep2 c o2 st1 st2 → ostep2 c (o1 ++ o2) st st2.
+Proof.
+  intros H1 H2 q Hq. destruct (H1 q Hq) as [E1 G1]. destruct (H2 q Hq) as [E2 G2].
+  split; [congruence|]. rewrite E1 in G2. destruct (cur_of st q) as [[sid pq]|]; [|done].
+  intros SS v HS V. destruct (G1 SS v HS V) as (S1&HS1&O1&V1). destruct (G2 S1 _ HS1 V1) as (S2&HS2&O2&V2).
+  exists S2. split; [done|]. rewrite msgs_to_app, recv_oksK_app, recv_all_app, O1, O2. done.
+Qed.
+Lemma ostep2_quiet c outs st st' :
+  sessions st' = sessions st → (∀ q, q ≠ c → cur_of st' q = cur_of st q) → (∀ d, d ∈ outs → fst d = c) →
+  ostep2 c outs st st'.
+Proof.
+  intros ES EC Ho q Hq. split; [by apply EC|]. destruct (cur_of st q) as [[sid pq]|]; [|done].
+  intros SS v HS V. exists SS. rewrite ES. split; [done|].
+  rewrite msgs_to_none; [done|]. intros Hin. apply elem_of_list_fmap in Hin as (d&->&Hd). apply Hq. by apply Ho.
+Qed.
+Lemma ostep2_upd_conn c f st : ostep2 c [] st (upd_conn c f st).
+Proof.
+  apply ostep2_quiet; [done| |by inversion 1]. intros q Hq. unfold cur_of, upd_conn. simpl.
+  destruct (conns st !! c); [|done]. by rewrite lookup_insert_ne.
+Qed.
+Lemma ostep2_refl c st : ostep2 c [] st st.
+Proof. apply ostep2_quiet; [done|done|by inversion 1]. Qed.
+
+Lemma leave_ostep2 cfg k st c :
+  inv st → swf cfg k st → (∀ f, flag_on cfg f = false) → ostep2 c (leave cfg st c).2 st (leave cfg st c).1.
+Proof.
+  intros I W Hnf.
+  destruct (leave_sessions cfg st c I) as [(cn&sid&p&SS&Hc&Hcur&HS&Hp&E)|[Hcur E]].
+  2:{ rewrite E, (proj2 (leave_not_joined _ _ _ Hcur)). apply ostep2_refl. }
+  assert (Hcur0 : cur_of st c = Some (sid, p)) by (unfold cur_of; by rewrite Hc).
+  rewrite (leave_outputs cfg st c cn sid p SS Hc Hcur HS (Hnf _) (Hnf _)). cbv zeta.
+  fold (leave_outs cfg c p (c_own cn) SS).
+  pose proof (leave_projections cfg st c sid p I Hcur0) as [L1 _ _ _ _].
+  pose proof (member_inj _ _ _ I HS) as Hi.
+  intros q Hq. split; [rewrite L1; by rewrite decide_False|].
+  destruct (cur_of st q) as [[sidq pq]|] eqn:Hcq; [|done]. intros SSq v HSq [V C]. rewrite E.
+  destruct (decide (sidq = sid)) as [->|Hne].
+  - assert (SSq = SS) as -> by congruence.
+    pose proof (member_parts _ _ _ _ _ I Hcq HS) as Hpq.
+    destruct (leave_member cfg k c p (c_own cn) SS sid q pq v (W _ _ HS) Hi Hp Hpq Hq V) as [O1 V1].
+    assert (C1 : crel (recv_all v (msgs_to q (leave_outs cfg c p (c_own cn) SS))) pq (left_session cfg c p (c_own cn) SS)).
+    { apply leave_member2; try done. intros e (_&ent&He&_). destruct V as (_&_&[_ M2]&_). rewrite M2, imap_lookup, He. by eexists. }
+    exists (left_session cfg c p (c_own cn) SS). split; [|split; [by apply recv_oks_K|done]].
+    rewrite decide_False; [by rewrite lookup_insert|].
+    destruct (left_session_parts cfg c p (c_own cn) SS) as [EL _]. rewrite EL. intros He.
+    assert (Hx : delete p (s_parts SS) !! pq = Some q).
+    { rewrite lookup_delete_ne; [done|]. intros ->. congruence. }
+    rewrite He in Hx. by rewrite lookup_empty in Hx.
+  - exists SSq. split.
+    { case_decide; [by rewrite lookup_delete_ne|by rewrite lookup_insert_ne]. }
+    rewrite leave_nonmember; [done|done|done|].
+    intros pq' Hpq'. exfalso. apply Hne.
+    assert (cur_of st q = Some (sid, pq')).
+    { apply (inv_parts _ I sid (s_parts SS) pq' q); [unfold parts_of; by rewrite HS|done]. }
+    congruence.
+Qed.
+
+Lemma enter_ostep2 cfg st c rid n ots SS :
+  inv st → (∀ f, flag_on cfg f = false) → cur_of st c = None → sessions st !! n = Some SS →
+  s_parts SS !! u32_succ (s_pgen SS) = None →
+  ostep2 c (enter cfg st c rid n ots).1.2 st (enter cfg st c rid n ots).1.1.
+Proof.
+  intros I Hnf Hcur HS Hfresh.
+  rewrite (enter_outputs cfg st c rid n ots SS HS (Hnf _) (Hnf _)). cbv zeta. fold (enter_outs cfg c rid n ots SS).
+  destruct (enter_state cfg st c rid n ots SS HS) as (ES&EC&_&_).
+  assert (Hi : parts_injective (entered SS c)).
+  { apply entered_injective; [by eapply member_inj|done|]. intros q. eapply nonmember_parts; [done|done|]. intros p. congruence. }
+  intros q Hq. split; [by apply EC|].
+  destruct (cur_of st q) as [[sidq pq]|] eqn:Hcq; [|done]. intros SSq v HSq [V C]. rewrite ES.
+  destruct (decide (sidq = n)) as [->|Hne].
+  - assert (SSq = SS) as -> by congruence.
+    pose proof (member_parts _ _ _ _ _ I Hcq HS) as Hpq.
+    destruct (enter_member cfg c rid n ots SS n q pq v Hi Hfresh Hpq Hq V) as [O1 V1].
+    exists (entered SS c). rewrite lookup_insert. split; [done|]. split; [by apply recv_oks_K|]. split; [done|].
+    by apply enter_member2.
+  - exists SSq. rewrite lookup_insert_ne by done. split; [done|].
+    rewrite enter_nonmember; [done|done|]. intros pq'. eapply nonmember_parts; [done|done|]. intros p. congruence.
+Qed.
+
+Lemma enter_new_ostep2 cfg st c rid ots hint n st2 :
+  inv st → nowrap st → (∀ f, flag_on cfg f = false) → create_session hint st = (n, st2) →
+  ostep2 c (enter cfg st2 c rid n ots).1.2 st (enter cfg st2 c rid n ots).1.1.
+Proof.
+  intros I Wn Hnf Hcr.
+  destruct (create_session_proj _ _ _ _ I Wn Hcr) as (Hfresh&C1&_).
+  destruct (create_sessions _ _ _ _ Hcr) as [E2 _].
+  set (S0 := session0 (next_uuid st + 1)) in *.
+  assert (HS2 : sessions st2 !! n = Some S0) by (rewrite E2; by rewrite lookup_insert).
+  rewrite (enter_outputs cfg st2 c rid n ots S0 HS2 (Hnf _) (Hnf _)). cbv zeta. fold (enter_outs cfg c rid n ots S0).
+  destruct (enter_state cfg st2 c rid n ots S0 HS2) as (ES&EC&_&_).
+  intros q Hq. split; [rewrite EC by done; apply C1|].
+  destruct (cur_of st q) as [[sidq pq]|] eqn:Hcq; [|done]. intros SSq v HSq V. rewrite ES, E2.
+  assert (Hne : sidq ≠ n).
+  { intros ->. unfold parts_of in Hfresh. by rewrite HSq in Hfresh. }
+  exists SSq. rewrite !lookup_insert_ne by done. split; [done|].
+  rewrite enter_nonmember; [done|done|]. intros pq'. unfold S0. simpl. by rewrite lookup_empty.
+Qed.
+
+Lemma join_ostep2 cfg k st c rid s ots hint :
+  inv st → nowrap st → swf cfg k st → (∀ f, flag_on cfg f = false) →
+  ostep2 c (Model.join cfg st c rid s ots hint).1.2 st (Model.join cfg st c rid s ots hint).1.1.
+Proof.
+  intros I Wn W Hnf. unfold Model.join. destruct (conns st !! c) as [cn|] eqn:Hc; [|apply ostep2_refl].
+  destruct (already_joined cn s) eqn:Ha.
+  { simpl. apply ostep2_quiet; [done|done|]. intros d [->|Hd]%elem_of_cons; [done|].
+    destruct (c_cur cn) as [[cur pc]|]; [|by inversion Hd]. destruct (sessions st !! cur); [|by inversion Hd].
+    by eapply module_msgs_self. }
+  pose proof (leave_ostep2 cfg k st c I W Hnf) as HL.
+  pose proof (inv_leave cfg st c I) as I1. pose proof (leave_cur cfg st c I) as Hcur1.
+  pose proof (leave_nowrap cfg st c I Wn) as Wn1.
+  destruct (leave cfg st c) as [st1 o1]. cbn [fst snd] in *.
+  assert (Herr : ∀ code, ostep2 c (o1 ++ [(c, MError rid code)]) st st1).
+  { intros code. eapply ostep2_trans; [exact HL|]. apply ostep2_quiet; [done|done|].
+    intros d Hd. by apply elem_of_list_singleton in Hd as ->. }
+  destruct s as [|n|j]; [| |apply Herr].
+  - destruct (create_session hint st1) as [n st2] eqn:Hcr.
+    pose proof (enter_new_ostep2 cfg st1 c rid ots hint n st2 I1 Wn1 Hnf Hcr) as HE.
+    destruct (enter cfg st2 c rid n ots) as [[st3 o2] v]. cbn [fst snd] in *.
+    by eapply ostep2_trans.
+  - destruct (sessions st1 !! n) as [SS|] eqn:HS; [|apply Herr].
+    pose proof (enter_ostep2 cfg st1 c rid n ots SS I1 Hnf Hcur1 HS (fresh_pid _ _ _ I1 Wn1 HS)) as HE.
+    destruct (enter cfg st1 c rid n ots) as [[st2 o2] v]. cbn [fst snd] in *.
+    by eapply ostep2_trans.
+Qed.
+
+Lemma disconnect_ostep2 cfg k st c :
+  inv st → swf cfg k st → (∀ f, flag_on cfg f = false) → ostep2 c (disconnect cfg st c).2 st (disconnect cfg st c).1.
+Proof.
+  intros I W Hnf. unfold disconnect. pose proof (leave_ostep2 cfg k st c I W Hnf) as HL.
+  destruct (leave cfg st c) as [st1 o]. cbn [fst snd] in *.
+  rewrite <- (app_nil_r o). eapply ostep2_trans; [exact HL|]. apply ostep2_upd_conn.
+Qed.
+
+(* ---------- the actor's own view, with components ---------- *)
+Lemma join_own2 cfg k sp vs st c rid s ots hint h e :
+  (∀ f, flag_on cfg f = false) → inv st → nowrap st → swf cfg k st → is_Some (conns st !! c) →
+  spec_ok sp st → views_ok2 vs st →
+  ev_op e = OStep c h → ev_req e = Some (RJoin rid s ots) →
+  ev_outs e = (Model.join cfg st c rid s ots hint).1.2 → ev_verdict e = VOk →
+  own_goal2 sp (spec_step sp e) e c vs (Model.join cfg st c rid s ots hint).1.1.
+Proof.
+  intros Hnf I Wn W [cn Hc] Hsp Hvs Ho Hr Hout Hv.
+  rewrite (spec_step_join sp e c h rid s ots Ho Hr Hv). revert Hout. unfold Model.join. rewrite Hc.
+  destruct (already_joined cn s) eqn:Ha.
+  { (* refused: still in the session *)
+    unfold already_joined in Ha. destruct (c_cur cn) as [[n p]|] eqn:Hcur; [|done].
+    destruct s as [|n'|j]; try done. apply bool_decide_eq_true in Ha as <-.
+    assert (Hcur0 : cur_of st c = Some (n, p)) by (unfold cur_of; by rewrite Hc).
+    destruct (live_session _ _ (inv_live _ I _ _ _ Hcur0)) as [SS HS]. rewrite HS. cbn [fst snd]. intros Hout.
+    assert (Hmine : msgs_to c (ev_outs e) = MError rid E_ALREADY_JOINED :: msgs_to c (module_join_msgs cfg c SS)).
+    { by rewrite Hout, msgs_to_cons_eq. }
+    assert (Hjr : join_resp c (ev_outs e) = None).
+    { unfold join_resp. rewrite first_to_msgs, Hmine, msgs_to_module_self.
+      by destruct (cfg_vikja cfg), (cfg_odal cfg). }
+    assert (Hhe : has_error c E_NOT_FOUND (ev_outs e) = false).
+    { rewrite has_error_msgs, Hmine, msgs_to_module_self. by destruct (cfg_vikja cfg), (cfg_odal cfg). }
+    rewrite Hjr, Hhe. split; [apply Hsp|]. rewrite Hcur0.
+    specialize (Hvs c). rewrite Hcur0 in Hvs. destruct Hvs as (v&SS'&Hv'&HS'&V&C). assert (SS' = SS) as -> by congruence.
+    exists (rejoin_view (msgs_to c (ev_outs e)) v), SS. split; [|split; [done|split]].
+    - unfold own_view. rewrite (Hsp c), Hcur0.
+      assert (Hm : mem_changed sp sp e c = false).
+      { unfold mem_changed, rejoined. rewrite Ho, Hr, Hjr. rewrite bool_decide_eq_true_2 by done. simpl. apply andb_false_r. }
+      by rewrite Hm, Hr, Hv'.
+    - rewrite Hmine. eapply rejoin_own; [by eapply W|done].
+    - by apply rejoin_own2. }
+  pose proof (inv_leave cfg st c I) as I1. pose proof (leave_cur cfg st c I) as Hcur1.
+  pose proof (leave_nowrap cfg st c I Wn) as Wn1. pose proof (swf_leave cfg k st c I W) as W1.
+  pose proof (leave_outs_self cfg st c I) as Ho1.
+  pose proof (leave_open cfg st c c) as Hop1.
+  destruct (leave cfg st c) as [st1 o1]. cbn [fst snd] in *.
+  assert (Hc1 : is_Some (conns st1 !! c)).
+  { unfold open_of in Hop1. rewrite Hc in Hop1. simpl in Hop1. destruct (conns st1 !! c); [eauto|done]. }
+  assert (Herr : ev_outs e = o1 ++ [(c, MError rid E_NOT_FOUND)] →
+                 own_goal2 sp (match join_resp c (ev_outs e) with
+                              | Some (_, sid, uuid, pid) => enter_spec (depart sp c) c sid uuid pid
+                              | None => if has_error c E_NOT_FOUND (ev_outs e) then depart sp c else sp end) e c vs st1).
+  { intros Hout. assert (Hmine : msgs_to c (ev_outs e) = [MError rid E_NOT_FOUND]).
+    { by rewrite Hout, msgs_to_app, Ho1, msgs_to_cons_eq. }
+    assert (Hjr : join_resp c (ev_outs e) = None) by (unfold join_resp; by rewrite first_to_msgs, Hmine).
+    assert (Hhe : has_error c E_NOT_FOUND (ev_outs e) = true) by (by rewrite has_error_msgs, Hmine).
+    rewrite Hjr, Hhe. split; [|by rewrite Hcur1]. by rewrite depart_mem, decide_True, Hcur1. }
+  assert (Hent : ∀ st2 n SS, sessions st2 !! n = Some SS → is_Some (conns st2 !! c) → wf cfg k SS →
+            parts_injective (entered SS c) → s_parts SS !! u32_succ (s_pgen SS) = None →
+            ev_outs e = o1 ++ (enter cfg st2 c rid n ots).1.2 →
+            own_goal2 sp (match join_resp c (ev_outs e) with
+                         | Some (_, sid, uuid, pid) => enter_spec (depart sp c) c sid uuid pid
+                         | None => if has_error c E_NOT_FOUND (ev_outs e) then depart sp c else sp end) e c vs
+                     (enter cfg st2 c rid n ots).1.1).
+  { intros st2 n SS HS2 Hc2 WS Hi Hfr Hout.
+    rewrite (enter_outputs cfg st2 c rid n ots SS HS2 (Hnf _) (Hnf _)) in Hout. cbv zeta in Hout.
+    fold (enter_outs cfg c rid n ots SS) in Hout.
+    destruct (enter_state cfg st2 c rid n ots SS HS2) as (ES&_&EC&_). specialize (EC Hc2).
+    pose proof (join_resp_entered cfg c rid n ots SS o1 Ho1) as Hjr. rewrite <- Hout in Hjr. rewrite Hjr.
+    split; [by rewrite enter_spec_mem, decide_True, EC|]. rewrite EC.
+    exists (view_init n (u32_succ (s_pgen SS)) (msgs_to c (ev_outs e))), (entered SS c).
+    split; [|split; [|split]].
+    - eapply own_view_entered; [by rewrite enter_spec_mem, decide_True|done|done|by rewrite Hjr].
+    - by rewrite ES, lookup_insert.
+    - rewrite Hout, msgs_to_app, Ho1. simpl. by eapply enter_own.
+    - rewrite Hout, msgs_to_app, Ho1. simpl. by eapply enter_own2. }
+  destruct s as [|n|j]; [| |exact Herr].
+  - destruct (create_session hint st1) as [n st2] eqn:Hcr.
+    destruct (create_sessions _ _ _ _ Hcr) as [E2 EC2].
+    assert (HS2 : sessions st2 !! n = Some (session0 (next_uuid st1 + 1))) by (rewrite E2; by rewrite lookup_insert).
+    specialize (Hent st2 n _ HS2).
+    destruct (enter cfg st2 c rid n ots) as [[st3 o2] v]. cbn [fst snd] in *. apply Hent.
+    + by rewrite EC2.
+    + eapply wf_mono; [|apply wf_session0]. lia.
+    + apply entered_injective; [intros q1 q2 c0 Hx; simpl in Hx; by rewrite lookup_empty in Hx|simpl; apply lookup_empty|intros q; simpl; by rewrite lookup_empty].
+    + simpl. apply lookup_empty.
+  - destruct (sessions st1 !! n) as [SS|] eqn:HS; [|exact Herr].
+    specialize (Hent st1 n SS HS Hc1 (W1 _ _ HS)).
+    destruct (enter cfg st1 c rid n ots) as [[st2 o2] v]. cbn [fst snd] in *. apply Hent.
+    { apply entered_injective; [by eapply member_inj|by eapply fresh_pid|].
+      intros q. eapply nonmember_parts; [done|done|]. intros p. congruence. }
+    by eapply fresh_pid.
+Qed.
+
+Lemma handle_own2 cfg k sp vs st c r hint h e :
+  (∀ f, flag_on cfg f = false) → inv st → nowrap st → swf cfg k st → k + 1 < two32 → is_Some (conns st !! c) →
+  spec_ok sp st → views_ok2 vs st →
+  ev_op e = OStep c h → ev_req e = Some r →
+  ev_outs e = (handle cfg st c r hint).1.2 → ev_verdict e = (handle cfg st c r hint).2 →
+  (handle cfg st c r hint).2 ≠ VErr →
+  own_goal2 sp (spec_step sp e) e c vs (handle cfg st c r hint).1.1.
+Proof.
+  intros Hnf I Wn W Hk [cn Hc] Hsp Hvs Ho Hr. unfold handle. rewrite Hc.
+  assert (Hjoin : ∀ rid s ots, r = RJoin rid s ots →
+            ev_outs e = (Model.join cfg st c rid s ots hint).1.2 → ev_verdict e = (Model.join cfg st c rid s ots hint).2 →
+            own_goal2 sp (spec_step sp e) e c vs (Model.join cfg st c rid s ots hint).1.1).
+  { intros rid s ots -> Hout Hv. rewrite join_verdict in Hv by eauto. eapply join_own2; eauto. }
+  destruct (c_cur cn) as [[sid p]|] eqn:Hcur.
+  - assert (Hcur0 : cur_of st c = Some (sid, p)) by (unfold cur_of; by rewrite Hc).
+    destruct (live_session _ _ (inv_live _ I _ _ _ Hcur0)) as [SS HS]. rewrite HS.
+    destruct (is_join r) eqn:Hj.
+    { destruct r; try discriminate Hj. simpl. intros Hout Hv _. by eapply Hjoin. }
+    pose proof (Hvs c) as Hvc. rewrite Hcur0 in Hvc. destruct Hvc as (v&SS'&Hv'&HS'&V&C). assert (SS' = SS) as -> by congruence.
+    destruct (inv_member st c cn sid p SS I Hc Hcur HS) as [Hp Hi].
+    destruct (session_local r) eqn:Hl.
+    + rewrite (handle_joined_sstep cfg st c cn sid p SS r hint Hl Hc HS). unfold apply_sstep. cbn [fst snd].
+      intros Hout Hv _.
+      assert (Hm : sp_mem (spec_step sp e) = sp_mem sp) by (eapply spec_step_nonjoin; eauto; by rewrite Hv).
+      assert (Hc1 : cur_of (upd_conn c (set_own (λ _, (sstep cfg c p (c_own cn) SS r).1.2))
+                              (put_session st sid (sstep cfg c p (c_own cn) SS r).1.1)) c = Some (sid, p)).
+      { rewrite cur_of_upd_conn by (by intros []). unfold cur_of. simpl. by rewrite Hc. }
+      split; [by rewrite Hm, Hc1, (Hsp c)|]. rewrite Hc1.
+      eexists _, _. split; [|split; [|split]].
+      * rewrite Hv'. eapply own_view_keep; [by rewrite Hm, (Hsp c)|by rewrite (Hsp c)|done|done|done].
+      * simpl. by rewrite lookup_insert.
+      * rewrite Hout. by eapply sstep_own; [by eapply W|..].
+      * rewrite Hout. by eapply sstep_own2; [by eapply W|..].
+    + pose proof (handle_joined_other cfg st c cn sid p SS r hint Hl Hj) as ES.
+      pose proof (handle_joined_other_verdict cfg st c cn sid p SS r hint Hl Hj) as Hvd.
+      destruct (handle_joined cfg st c cn sid p SS r hint) as [[st' o] vd] eqn:E. cbn [fst snd] in *.
+      pose proof (handle_joined_same cfg st c cn sid p SS r hint st' o vd Hj HS E) as (EC&_).
+      intros Hout Hv Hne. destruct Hvd as [->| ->]; [|done].
+      assert (Hm : sp_mem (spec_step sp e) = sp_mem sp) by (eapply spec_step_nonjoin; eauto; by rewrite Hv).
+      split; [by rewrite Hm, EC, (Hsp c)|]. rewrite EC, Hcur0.
+      exists v, SS. split; [|split; [by rewrite ES|split; done]].
+      rewrite Hv'. erewrite own_view_keep; [|by rewrite Hm, (Hsp c)|by rewrite (Hsp c)|done|done|done].
+      by rewrite view_own_other.
+  - assert (Hcur0 : cur_of st c = None) by (unfold cur_of; by rewrite Hc).
+    destruct (is_join r) eqn:Hj.
+    { destruct r; try discriminate Hj. simpl. intros Hout Hv _. by eapply Hjoin. }
+    pose proof (handle_unjoined_verdict cfg st c cn r hint Hj) as Hvd.
+    destruct (handle_unjoined cfg st c cn r hint) as [[st' o] vd] eqn:E. cbn [fst snd] in *.
+    pose proof (handle_unjoined_same cfg st c cn r hint st' o vd Hj E) as (EC&_).
+    intros Hout Hv Hne. destruct Hvd as [->| ->]; [|done].
+    assert (Hm : sp_mem (spec_step sp e) = sp_mem sp) by (eapply spec_step_nonjoin; eauto; by rewrite Hv).
+    split; [by rewrite Hm, EC, (Hsp c)|]. by rewrite EC, Hcur0.
+Qed.
+
+(* ---------- the hypotheses of [event_views2], case by case ---------- *)
+Lemma handle_ostep2 cfg k st c r hint :
+  inv st → nowrap st → swf cfg k st → (∀ f, flag_on cfg f = false) →
+  session_local r = false ∨ cur_of st c = None →
+  ostep2 c (handle cfg st c r hint).1.2 st (handle cfg st c r hint).1.1.
+Proof.
+  intros I Wn W Hnf Hnl. unfold handle. destruct (conns st !! c) as [cn|] eqn:Hc; [|apply ostep2_refl].
+  destruct (c_cur cn) as [[sid p]|] eqn:Hcur.
+  - destruct (sessions st !! sid) as [SS|] eqn:HS; [|apply ostep2_refl].
+    destruct (is_join r) eqn:Hj.
+    { destruct r; try discriminate Hj. simpl. by eapply join_ostep2. }
+    assert (Hl : session_local r = false).
+    { destruct Hnl as [?|Hn]; [done|]. unfold cur_of in Hn. rewrite Hc in Hn. simpl in Hn. congruence. }
+    pose proof (handle_joined_other cfg st c cn sid p SS r hint Hl Hj) as ES.
+    destruct (handle_joined cfg st c cn sid p SS r hint) as [[st' o] v] eqn:E.
+    pose proof (handle_joined_same cfg st c cn sid p SS r hint st' o v Hj HS E) as (EC&_).
+    apply ostep2_quiet; [done|by intros q _|]. intros d Hd.
+    apply (handle_joined_other_outs cfg st c cn sid p SS r hint d Hl Hj). by rewrite E.
+  - destruct (is_join r) eqn:Hj.
+    { destruct r; try discriminate Hj. simpl. by eapply join_ostep2. }
+    pose proof (handle_unjoined_other cfg st c cn r hint Hj) as ES.
+    destruct (handle_unjoined cfg st c cn r hint) as [[st' o] v] eqn:E.
+    pose proof (handle_unjoined_same cfg st c cn r hint st' o v Hj E) as (EC&_).
+    apply ostep2_quiet; [done|by intros q _|]. intros d Hd.
+    apply (handle_unjoined_outs cfg st c cn r hint d Hj). by rewrite E.
+Qed.
+
+Lemma chg_for_none sp e q : ev_change sp e = None → chg_for sp e q = None.
+Proof. unfold chg_for. by intros ->. Qed.
+Lemma others_goal2_actor sp e c st st1 :
+  actor e = Some c → ev_change sp e = None → ostep2 c (ev_outs e) st st1 → others_goal2 sp e st st1.
+Proof.
+  intros Ha Hn H q Hq. rewrite Ha in Hq. destruct (H q) as [E G]; [by intros ->|]. split; [done|].
+  destruct (cur_of st q) as [[sid pq]|]; [|done]. intros SS v HS V C.
+  destruct (G SS v HS (conj V C)) as (SS'&HS'&O&V'&C'). exists SS'. rewrite chg_for_none by done. done.
+Qed.
+Lemma others_goal2_quiet sp e st st1 :
+  ev_change sp e = None → sessions st1 = sessions st → (∀ q, cur_of st1 q = cur_of st q) →
+  (∀ d, d ∈ ev_outs e → neutral (snd d)) → others_goal2 sp e st st1.
+Proof.
+  intros Hn ES EC Hneu q _. split; [apply EC|]. destruct (cur_of st q) as [[sid pq]|]; [|done].
+  intros SS v HS V C. exists SS. rewrite ES. split; [done|].
+  destruct (recvK_neutral comp_msg v (msgs_to q (ev_outs e))) as [R1 R2].
+  { intros m Hm. apply msgs_to_elem in Hm. by apply (Hneu (q, m)). }
+  rewrite R1, R2, chg_for_none by done. done.
+Qed.
+
+(* a session-local request of a member: the one kind of event with a bookkeeping phase *)
+Lemma local_goal2 cfg k sp st st0 c cn sid p SS r h e :
+  inv st0 → swf cfg k st0 → k + 1 < two32 → (∀ f, flag_on cfg f = false) →
+  (∀ q, cur_of st0 q = cur_of st q) → sessions st0 = sessions st →
+  conns st0 !! c = Some cn → c_cur cn = Some (sid, p) → sessions st0 !! sid = Some SS → session_local r = true →
+  spec_ok sp st → spec_ok2 sp st →
+  ev_op e = OStep c h → ev_req e = Some r → ev_verdict e = VOk → ev_outs e = (sstep cfg c p (c_own cn) SS r).2 →
+  others_goal2 sp e st (apply_sstep st0 c sid (sstep cfg c p (c_own cn) SS r)).1.1.
+Proof.
+  intros I W Hk Hnf EC ES Hc Hcur HS Hl Hsp Hok Ho Hr Hv Hout.
+  destruct (inv_member st0 c cn sid p SS I Hc Hcur HS) as [Hp Hi].
+  assert (Hcur0 : cur_of st c = Some (sid, p)) by (rewrite <- EC; unfold cur_of; by rewrite Hc).
+  assert (HSs : sessions st !! sid = Some SS) by (by rewrite <- ES).
+  destruct (sstep_spec2 cfg k st sp c (set_own (λ _, (sstep cfg c p (c_own cn) SS r).1.2)) sid p (c_own cn) SS r
+              (W _ _ HS) Hi Hp Hnf Hl HSs Hok) as [_ Hcc].
+  assert (Hchg : ev_change sp e = match changed SS r with Some (tid, eid) => Some (sid, p, tid, eid) | None => None end).
+  { unfold ev_change, stepped. rewrite Ho, Hr, Hv, (Hsp c), Hcur0, Hout, Hcc. done. }
+  unfold apply_sstep. cbn [fst snd].
+  intros q Hq. unfold actor in Hq. rewrite Ho in Hq. assert (Hqc : q ≠ c) by (intros ->; done).
+  split.
+  { rewrite <- EC. unfold cur_of, upd_conn. simpl. rewrite Hc. by rewrite lookup_insert_ne. }
+  destruct (cur_of st q) as [[sidq pq]|] eqn:Hcq; [|done]. intros SSq v HSq V C. simpl. rewrite Hout.
+  assert (Hcq0 : cur_of st0 q = Some (sidq, pq)) by (by rewrite EC).
+  destruct (decide (sidq = sid)) as [->|Hne].
+  - assert (SSq = SS) as -> by congruence.
+    pose proof (member_parts _ _ _ _ _ I Hcq0 HS) as Hpq.
+    assert (Hpqp : pq ≠ p). { intros ->. congruence. }
+    destruct (sstep_member cfg k c p (c_own cn) SS r sid q pq v (W _ _ HS) Hk Hi Hp Hnf Hl Hpq Hqc V) as [_ V1].
+    destruct (sstep_member2 cfg k c p (c_own cn) SS r q pq v (W _ _ HS) Hk Hi Hp Hnf Hl Hpq Hqc C) as [O1 C1].
+    eexists. rewrite lookup_insert. split; [done|]. split; [done|]. split; [done|].
+    assert (Hcf : chg_for sp e q = changed SS r).
+    { unfold chg_for. rewrite Hchg, (Hsp q), Hcq. destruct (changed SS r) as [[tid eid]|]; [|done]. by rewrite decide_True. }
+    by rewrite Hcf.
+  - exists SSq. rewrite lookup_insert_ne by done. rewrite <- ES in HSq. split; [done|].
+    rewrite sstep_nonmember; [|done|intros pq'; eapply nonmember_parts; [done|done|]; intros p'; congruence].
+    assert (Hcf : chg_for sp e q = None).
+    { unfold chg_for. rewrite Hchg, (Hsp q), Hcq. destruct (changed SS r) as [[tid eid]|]; [|done].
+      rewrite decide_False; [done|]. by intros [? _]. }
+    rewrite Hcf. done.
+Qed.
+
+(* ================= II.6 every step of the model, with components ================= *)
+Lemma idle_own2 sp vs e c st st1 :
+  ev_req e = None → spec_step sp e = sp → cur_of st1 c = cur_of st c → sessions st1 = sessions st →
+  spec_ok sp st → views_ok2 vs st → own_goal2 sp (spec_step sp e) e c vs st1.
+Proof.
+  intros Hr Hs EC ES Hsp Hvs. rewrite Hs. split; [by rewrite EC|]. rewrite EC. specialize (Hvs c).
+  destruct (cur_of st c) as [[sid p]|] eqn:Hc; [|done]. destruct Hvs as (v&SS&Hv&HS&V&C).
+  exists v, SS. split; [|by rewrite ES]. rewrite own_view_idle by auto. by rewrite (Hsp c), Hc.
+Qed.
+Lemma gone_own2 sp vs e c st1 :
+  sp_mem (spec_step sp e) !! c = None → cur_of st1 c = None → own_goal2 sp (spec_step sp e) e c vs st1.
+Proof. intros H1 H2. split; [congruence|]. by rewrite H2. Qed.
+
+Lemma handle_verr cfg st c r hint :
+  inv st → is_Some (conns st !! c) → (handle cfg st c r hint).2 = VErr →
+  sessions (handle cfg st c r hint).1.1 = sessions st ∧ same_mem st (handle cfg st c r hint).1.1.
+Proof.
+  intros I [cn Hc]. unfold handle. rewrite Hc.
+  assert (Hjoin : ∀ rid s ots, (Model.join cfg st c rid s ots hint).2 ≠ VErr).
+  { intros rid s ots. rewrite join_verdict; [done|eauto]. }
+  destruct (c_cur cn) as [[sid p]|] eqn:Hcur.
+  - assert (Hcur0 : cur_of st c = Some (sid, p)) by (unfold cur_of; by rewrite Hc).
+    destruct (live_session _ _ (inv_live _ I _ _ _ Hcur0)) as [SS HS]. rewrite HS.
+    destruct (is_join r) eqn:Hj.
+    { destruct r; try discriminate Hj. simpl. intros Hv. by destruct (Hjoin _ _ _ Hv). }
+    destruct (session_local r) eqn:Hl.
+    { rewrite (handle_joined_sstep cfg st c cn sid p SS r hint Hl Hc HS). by unfold apply_sstep. }
+    pose proof (handle_joined_other cfg st c cn sid p SS r hint Hl Hj) as ES.
+    destruct (handle_joined cfg st c cn sid p SS r hint) as [[st' o] vd] eqn:E. cbn [fst snd] in *.
+    pose proof (handle_joined_same cfg st c cn sid p SS r hint st' o vd Hj HS E) as HM. done.
+  - destruct (is_join r) eqn:Hj.
+    { destruct r; try discriminate Hj. simpl. intros Hv. by destruct (Hjoin _ _ _ Hv). }
+    pose proof (handle_unjoined_other cfg st c cn r hint Hj) as ES.
+    destruct (handle_unjoined cfg st c cn r hint) as [[st' o] vd] eqn:E. cbn [fst snd] in *.
+    pose proof (handle_unjoined_same cfg st c cn r hint st' o vd Hj E) as HM. done.
+Qed.
+
+Lemma disconnect_ok2 cfg sp st c :
+  inv st → Own.own_inv st → spec_ok sp st → spec_ok2 sp st → spec_ok2 (depart sp c) (disconnect cfg st c).1.
+Proof.
+  intros I HO Hsp Hok. eapply spec_ok2_ext; [apply (proj2 (disconnect_is_leave cfg st c))|]. by apply depart_ok2.
+Qed.
+
+Lemma step_goals2 cfg k sp vs st o :
+  (∀ f, flag_on cfg f = false) → ginv cfg k st → Own.own_inv st → 4 * (k + 1) < two32 →
+  spec_ok sp st → spec_ok2 sp st → views_ok2 vs st →
+  let e := event_of cfg st o in
+  others_goal2 sp e st (step cfg st o).1.1 ∧
+  (∀ c, actor e = Some c → own_goal2 sp (spec_step sp e) e c vs (step cfg st o).1.1) ∧
+  spec_ok2 (spec_step sp e) (step cfg st o).1.1.
+Proof.
+  intros Hnf (I&B&W) HO Hk Hsp Hok Hvs e.
+  assert (Wn : nowrap st) by (eapply bounded_nowrap; [exact B|lia]).
+  assert (Hk4 : 4 * k + 1 < two32) by lia.
+  assert (Hidle : ∀ e st1, ev_req e = None → spec_step sp e = sp → sessions st1 = sessions st →
+            (∀ q, cur_of st1 q = cur_of st q) → (∀ d, d ∈ ev_outs e → neutral (snd d)) →
+            others_goal2 sp e st st1 ∧ (∀ c, actor e = Some c → own_goal2 sp (spec_step sp e) e c vs st1) ∧
+            spec_ok2 (spec_step sp e) st1).
+  { intros e0 st1 Hr Hs ES EC Hn.
+    assert (Hc : ev_change sp e0 = None) by (unfold ev_change, stepped; rewrite Hr; by destruct (ev_op e0)).
+    split; [by apply others_goal2_quiet|]. split.
+    - intros c _. by apply (idle_own2 sp vs e0 c st st1).
+    - rewrite Hs. by eapply spec_ok2_ext. }
+  assert (Hgone : ∀ e c st1, actor e = Some c → ev_change sp e = None → ostep2 c (ev_outs e) st st1 →
+            spec_step sp e = depart sp c → cur_of st1 c = None → spec_ok2 (depart sp c) st1 →
+            others_goal2 sp e st st1 ∧ (∀ c', actor e = Some c' → own_goal2 sp (spec_step sp e) e c' vs st1) ∧
+            spec_ok2 (spec_step sp e) st1).
+  { intros e0 c st1 Ha Hc Ho Hs Hcur Hd. split; [by eapply others_goal2_actor|]. split.
+    - intros c' Ha'. assert (c' = c) as -> by congruence. apply gone_own2; [|done]. by rewrite Hs, depart_mem, decide_True.
+    - by rewrite Hs. }
+  subst e. unfold event_of. destruct o as [c|c r|c hint|sid|c|].
+  - (* connect *)
+    simpl. destruct (conns st !! c) as [cn|] eqn:Hc; simpl.
+    + apply Hidle; try done. by inversion 1.
+    + apply Hidle; try done; [|by inversion 1]. intros q. unfold cur_of. simpl.
+      destruct (decide (c = q)) as [->|Hne]; [by rewrite lookup_insert, Hc|by rewrite lookup_insert_ne].
+  - (* send *)
+    cbn [step consumed]. unfold dispatch. destruct (conns st !! c) as [cn|] eqn:Hc.
+    2:{ simpl. apply Hidle; try done. by inversion 1. }
+    destruct (c_open cn) eqn:Hop; simpl.
+    2:{ apply Hidle; try done. by inversion 1. }
+    assert (Hq : ∀ f, (∀ cn, c_cur (f cn) = c_cur cn) →
+              let e0 := {| ev_op := OSend c r; ev_req := None; ev_outs := []; ev_verdict := VOk |} in
+              others_goal2 sp e0 st (upd_conn c f st) ∧
+              (∀ c', actor e0 = Some c' → own_goal2 sp (spec_step sp e0) e0 c' vs (upd_conn c f st)) ∧
+              spec_ok2 (spec_step sp e0) (upd_conn c f st)).
+    { intros f Hf e0. apply Hidle; try done; [|by inversion 1]. intros q. by apply cur_of_upd_conn. }
+    destruct r; try (apply Hq; by intros []).
+    destruct (ty =? 14) eqn:Ety; [|apply Hq; by intros []].
+    pose proof (disconnect_ostep2 cfg _ st c I W Hnf) as HD. pose proof (disconnect_cur cfg st c I) as HC.
+    pose proof (disconnect_ok2 cfg sp st c I HO Hsp Hok) as HK.
+    destruct (disconnect cfg st c) as [st1 o1]. cbn [fst snd] in *.
+    by eapply (Hgone _ c).
+  - (* step *)
+    cbn [step consumed]. destruct (conns st !! c) as [cn|] eqn:Hc.
+    2:{ simpl. apply Hidle; try done. by inversion 1. }
+    destruct (c_open cn) eqn:Hop; simpl.
+    2:{ apply Hidle; try done. by inversion 1. }
+    destruct (c_queue cn) as [|r q] eqn:Hq; simpl.
+    { apply Hidle; try done. by inversion 1. }
+    set (st0 := upd_conn c (set_queue q) st).
+    assert (Hs0 : same_mem st st0) by (apply same_mem_upd_conn; by intros []).
+    assert (I0 : inv st0) by by eapply inv_same_mem.
+    assert (B0 : bounded k st0) by by eapply bounded_same_mem.
+    assert (Wn0 : nowrap st0) by (eapply bounded_nowrap; [exact B0|lia]).
+    assert (W0 : swf cfg (4 * k) st0) by exact W.
+    assert (EC0 : ∀ q, cur_of st0 q = cur_of st q) by apply Hs0.
+    assert (HO0 : Own.own_inv st0).
+    { eapply Own.own_inv_ext; [|intros c'; apply Own.mem_of_upd_conn; by intros []|exact HO]. done. }
+    assert (Hc0 : is_Some (conns st0 !! c)).
+    { unfold st0, upd_conn. simpl. rewrite Hc. rewrite lookup_insert. eauto. }
+    assert (Ho0 : open_of st0 c = Some true).
+    { destruct Hs0 as (_&H2&_). rewrite H2. unfold open_of. by rewrite Hc; simpl; rewrite Hop. }
+    assert (Hsp0 : spec_ok sp st0) by (by eapply spec_ok_ext).
+    assert (Hok0 : spec_ok2 sp st0) by (by eapply spec_ok2_ext).
+    assert (Hvs0 : views_ok2 vs st0).
+    { intros c'. rewrite EC0. apply Hvs. }
+    pose proof (ostep2_upd_conn c (set_queue q) st) as HU. fold st0 in HU.
+    pose proof (λ h e, handle_own2 cfg _ sp vs st0 c r hint h e Hnf I0 Wn0 W0 Hk4 Hc0 Hsp0 Hvs0) as HOwn.
+    pose proof (λ h e, handle_spec2 cfg _ sp st0 c r hint h e Hnf I0 Wn0 W0 HO0 Hc0 Hsp0 Hok0) as HSpec.
+    pose proof (handle_verr cfg st0 c r hint I0 Hc0) as HVerr.
+    pose proof (Own.own_handle cfg st0 c r hint _ I0 Wn0 W0 Hk4 HO0) as HO1.
+    destruct (handle_inv cfg st0 c r hint k I0 B0 ltac:(lia) Ho0) as [I1 _].
+    assert (W1 : swf cfg (4 * k + N.of_nat 3) (handle cfg st0 c r hint).1.1).
+    { intros s SS HS. eapply (chain_wf cfg 3 (sessions st0 !! s)); [by apply handle_chain| |lia|exact HS].
+      intros S0 H0. by eapply W0. }
+    (* is it a session-local request of a member? *)
+    destruct (cur_of st0 c) as [[sid p]|] eqn:Hcur0; [destruct (session_local r) eqn:Hl|].
+    + (* yes *)
+      assert (Hcn : ∃ cn0, conns st0 !! c = Some cn0 ∧ c_cur cn0 = Some (sid, p)).
+      { unfold cur_of in Hcur0. destruct (conns st0 !! c) as [cn0|]; [|done]. by exists cn0. }
+      destruct Hcn as (cn0&Hcn0&Hcc0).
+      destruct (live_session _ _ (inv_live _ I0 _ _ _ Hcur0)) as [SS HS].
+      pose proof (handle_local cfg st0 c cn0 sid p SS r hint Hcn0 Hcc0 HS Hl) as Hh.
+      pose proof (local_goal2 cfg (4 * k) sp st st0 c cn0 sid p SS r hint) as HL.
+      rewrite Hh in *. unfold apply_sstep in HOwn, HSpec. cbn [fst snd] in HOwn, HSpec.
+      split; [|split].
+      * unfold apply_sstep. eapply HL; try done.
+      * intros c' [= <-]. by eapply (HOwn hint).
+      * by eapply (HSpec hint).
+    + (* no: not session-local *)
+      pose proof (handle_ostep2 cfg _ st0 c r hint I0 Wn0 W0 Hnf (or_introl Hl)) as HH.
+      destruct (handle cfg st0 c r hint) as [[st1 o1] v] eqn:Hh. cbn [fst snd] in *.
+      assert (Hnv : v ≠ VErr →
+         let e0 := {| ev_op := OStep c hint; ev_req := Some r; ev_outs := o1; ev_verdict := v |} in
+         others_goal2 sp e0 st st1 ∧ (∀ c', actor e0 = Some c' → own_goal2 sp (spec_step sp e0) e0 c' vs st1) ∧
+         spec_ok2 (spec_step sp e0) st1).
+      { intros Hv e0. split; [|split].
+        - eapply others_goal2_actor; [done| |].
+          + unfold ev_change, stepped. simpl. destruct v; try done; rewrite (Hsp c), <- EC0, Hcur0; by rewrite comp_change_other.
+          + simpl. change o1 with ([] ++ o1). by eapply ostep2_trans.
+        - intros c' [= <-]. by eapply (HOwn hint).
+        - by eapply (HSpec hint). }
+      destruct v; try (apply Hnv; done).
+      destruct (HVerr eq_refl) as [ES1 HM1].
+      pose proof (disconnect_ostep2 cfg _ st1 c I1 W1 Hnf) as HD. pose proof (disconnect_cur cfg st1 c I1) as HC.
+      assert (HK : spec_ok2 (depart sp c) (disconnect cfg st1 c).1).
+      { apply disconnect_ok2; [done|done| |].
+        - intros q0. rewrite (proj1 HM1). apply Hsp0.
+        - by eapply spec_ok2_ext. }
+      destruct (disconnect cfg st1 c) as [st2 o2]. cbn [fst snd] in *.
+      eapply (Hgone _ c); try done. simpl. change (o1 ++ o2) with (([] ++ o1) ++ o2).
+      eapply ostep2_trans; [by eapply ostep2_trans|done].
+    + (* no: in no session *)
+      pose proof (handle_ostep2 cfg _ st0 c r hint I0 Wn0 W0 Hnf (or_intror Hcur0)) as HH.
+      destruct (handle cfg st0 c r hint) as [[st1 o1] v] eqn:Hh. cbn [fst snd] in *.
+      assert (Hnv : v ≠ VErr →
+         let e0 := {| ev_op := OStep c hint; ev_req := Some r; ev_outs := o1; ev_verdict := v |} in
+         others_goal2 sp e0 st st1 ∧ (∀ c', actor e0 = Some c' → own_goal2 sp (spec_step sp e0) e0 c' vs st1) ∧
+         spec_ok2 (spec_step sp e0) st1).
+      { intros Hv e0. split; [|split].
+        - eapply others_goal2_actor; [done| |].
+          + unfold ev_change, stepped. simpl. destruct v; try done; by rewrite (Hsp c), <- EC0, Hcur0.
+          + simpl. change o1 with ([] ++ o1). by eapply ostep2_trans.
+        - intros c' [= <-]. by eapply (HOwn hint).
+        - by eapply (HSpec hint). }
+      destruct v; try (apply Hnv; done).
+      destruct (HVerr eq_refl) as [ES1 HM1].
+      pose proof (disconnect_ostep2 cfg _ st1 c I1 W1 Hnf) as HD. pose proof (disconnect_cur cfg st1 c I1) as HC.
+      assert (HK : spec_ok2 (depart sp c) (disconnect cfg st1 c).1).
+      { apply disconnect_ok2; [done|done| |].
+        - intros q0. rewrite (proj1 HM1). apply Hsp0.
+        - by eapply spec_ok2_ext. }
+      destruct (disconnect cfg st1 c) as [st2 o2]. cbn [fst snd] in *.
+      eapply (Hgone _ c); try done. simpl. change (o1 ++ o2) with (([] ++ o1) ++ o2).
+      eapply ostep2_trans; [by eapply ostep2_trans|done].
+  - (* tick *)
+    simpl. apply Hidle; try done; [apply tick_sessions|apply tick_same|by inversion 1].
+  - (* disconnect *)
+    cbn [step consumed]. destruct (conns st !! c) as [cn|] eqn:Hc.
+    2:{ simpl. assert (Hcu : cur_of st c = None) by (unfold cur_of; by rewrite Hc).
+        eapply (Hgone _ c); try done; [apply ostep2_refl|]. unfold depart. rewrite (Hsp c), Hcu. done. }
+    destruct (c_open cn) eqn:Hop; simpl.
+    2:{ assert (Hcu : cur_of st c = None).
+        { apply (inv_open _ I). unfold open_of. by rewrite Hc; simpl; rewrite Hop. }
+        eapply (Hgone _ c); try done; [apply ostep2_refl|]. unfold depart. rewrite (Hsp c), Hcu. done. }
+    pose proof (disconnect_ostep2 cfg _ st c I W Hnf) as HD. pose proof (disconnect_cur cfg st c I) as HC.
+    pose proof (disconnect_ok2 cfg sp st c I HO Hsp Hok) as HK.
+    destruct (disconnect cfg st c) as [st1 o1]. cbn [fst snd] in *.
+    by eapply (Hgone _ c).
+  - (* snapshot *)
+    simpl. apply Hidle; try done. intros d Hd. apply elem_of_list_singleton in Hd as ->. apply neutral_snap.
+Qed.
+
+(* ================= II.7 whole histories, with components ================= *)
+Definition nocodeC (c : Z) (l : list violation) : Prop := ∀ x, x ∈ l → v_code x ≠ c.
+Lemma nocodeC_nil c : nocodeC c [].
+Proof. by inversion 1. Qed.
+Lemma nocodeC_app c a b : nocodeC c a → nocodeC c b → nocodeC c (a ++ b).
+Proof. intros Ha Hb x [H|H]%elem_of_app; [by apply Ha|by apply Hb]. Qed.
+Lemma nocodeC_viol c i code info : code ≠ c → nocodeC c [viol i code info].
+Proof. intros Hc x Hx. by apply elem_of_list_singleton in Hx as ->. Qed.
+Lemma nocodeC_okv c i b code info : code ≠ c → nocodeC c (okv i b code info).
+Proof. intros Hc. unfold okv. destruct b; [apply nocodeC_nil|by apply nocodeC_viol]. Qed.
+Lemma nocodeC_flat_map c {A} (f : A → list violation) l : (∀ a, nocodeC c (f a)) → nocodeC c (flat_map f l).
+Proof.
+  intros Hf x Hx. apply elem_of_list_In, in_flat_map in Hx as (a&_&Hx). apply elem_of_list_In in Hx. by apply (Hf a).
+Qed.
+Ltac nocodeC_tac :=
+  repeat first
+    [ apply nocodeC_nil
+    | apply nocodeC_app
+    | apply nocodeC_okv; [done]
+    | apply nocodeC_viol; [done]
+    | apply nocodeC_flat_map; intros ?
+    | progress case_match ].
+Lemma nocode105_dump_check cfg k i sp d : nocodeC 105 (dump_check cfg k 100 i sp d).
+Proof. unfold dump_check. nocodeC_tac. Qed.
+Lemma nocode105_snap_check cfg k i sp e : nocodeC 105 (snap_check cfg k 100 i sp e).
+Proof. unfold snap_check. nocodeC_tac. all: try apply nocode105_dump_check. Qed.
+Lemma nocode105_join_check cfg k i sp' c sid outs : nocodeC 105 (join_snapshot_check cfg k 100 i sp' c sid outs).
+Proof. unfold join_snapshot_check. nocodeC_tac. Qed.
+Lemma nocode105_bad_msgs i e : nocodeC 105 (bad_msgs i 100 e).
+Proof. unfold bad_msgs. nocodeC_tac. Qed.
+Lemma nocode105_rest cfg i sp sp' e vs3 : nocodeC 105 (rest_viols cfg i sp sp' e vs3).
+Proof.
+  unfold rest_viols. cbv zeta. nocodeC_tac.
+  all: try apply nocode105_join_check; try apply nocode105_snap_check; try apply nocode105_bad_msgs.
+Qed.
+
+Lemma event_viols cfg i sp sp' (vs : gmap N view) e x :
+  (recv_fold (actor e) i (ev_outs e) (vs, [])).2 = [] →
+  (dirty_step i sp e (own_step sp sp' e (recv_fold (actor e) i (ev_outs e) (vs, [])).1)).2 = [] →
+  x ∈ (P_C01_event cfg i sp sp' vs e).2 → v_code x ≠ 106%Z ∧ v_code x ≠ 105%Z.
+Proof.
+  rewrite P_C01_event_eq. unfold P_C01_event'.
+  destruct (recv_fold (actor e) i (ev_outs e) (vs, [])) as [vs1 viol1]. cbn [fst snd]. intros ->.
+  destruct (dirty_step i sp e (own_step sp sp' e vs1)) as [vs3 viol3]. cbn [fst snd]. intros ->. simpl.
+  intros Hx. split; [by apply (nocode_rest cfg i sp sp' e vs3 x)|by apply (nocode105_rest cfg i sp sp' e vs3 x)].
+Qed.
+
+Lemma recv_no_viols i sp vs e st st1 :
+  views_ok2 vs st → others_goal core_msg e st st1 → others_goal2 sp e st st1 →
+  (recv_fold (actor e) i (ev_outs e) (vs, [])).2 = [].
+Proof.
+  intros Hvs H1 H2. apply recv_fold_viols. intros q v Hq Hv. specialize (Hvs q).
+  destruct (H1 q Hq) as [_ G1]. destruct (H2 q Hq) as [_ G2].
+  destruct (cur_of st q) as [[sid pq]|]; [|congruence].
+  destruct Hvs as (v'&SS&Hv'&HS&V&C). assert (v' = v) as -> by congruence.
+  destruct (G1 SS v HS V) as (_&_&O1&_). destruct (G2 SS v HS V C) as (_&_&O2&_).
+  eapply (recv_oksK_split core_msg comp_msg); [|done|done]. intros m. unfold core_msg. by destruct (comp_msg m).
+Qed.
+
+Theorem views_run2 cfg h : ∀ st k i sp (vs : gmap N view),
+  (∀ f, flag_on cfg f = false) → ginv cfg k st → Own.own_inv st → 4 * (k + N.of_nat (length h)) < two32 →
+  spec_ok sp st → spec_ok2 sp st → views_ok2 vs st →
+  spec_ok (vscan cfg i sp vs (run_from cfg st h).1).2 (run_from cfg st h).2 ∧
+  spec_ok2 (vscan cfg i sp vs (run_from cfg st h).1).2 (run_from cfg st h).2 ∧
+  views_ok2 (vscan cfg i sp vs (run_from cfg st h).1).1 (run_from cfg st h).2 ∧
+  ∀ x, x ∈ xscan (P_C01_event cfg) i sp vs (run_from cfg st h).1 → v_code x ≠ 106%Z ∧ v_code x ≠ 105%Z.
+Proof.
+  induction h as [|o h IH]; intros st k i sp vs Hnf G HO Hk Hsp Hok Hvs.
+  - simpl. split; [done|]. split; [done|]. split; [done|]. intros x Hx. by inversion Hx.
+  - cbn [length] in Hk. rewrite Nat2N.inj_succ in Hk. rewrite run_from_cons. cbn [fst snd vscan].
+    pose proof (views_ok2_ok _ _ Hvs) as Hvs1.
+    destruct (step_goals cfg k sp vs st o Hnf G ltac:(lia) Hsp Hvs1) as [Ho1 Hw1].
+    destruct (event_views cfg core_msg i sp vs (event_of cfg st o) st (step cfg st o).1.1 Hsp Hvs1 Ho1 Hw1) as (Hsp1&_&_).
+    destruct (step_goals2 cfg k sp vs st o Hnf G HO ltac:(lia) Hsp Hok Hvs) as (Ho2&Hw2&Hok1).
+    destruct (event_views2 cfg i sp vs (event_of cfg st o) st (step cfg st o).1.1 Hsp Hvs Ho2 Hw2) as (Hvs2&_&Hd).
+    pose proof (recv_no_viols i sp vs (event_of cfg st o) st _ Hvs Ho1 Ho2) as Hr.
+    pose proof (ginv_step cfg k st o G ltac:(lia)) as G1.
+    assert (HO1 : Own.own_inv (step cfg st o).1.1).
+    { destruct G as (I&B&W). eapply (Own.own_step cfg st o k (4 * k)); try done; lia. }
+    destruct (IH (step cfg st o).1.1 (k + 1) (S i) _ _ Hnf G1 HO1 ltac:(lia) Hsp1 Hok1 Hvs2) as (R1&R2&R3&R4).
+    split; [exact R1|]. split; [exact R2|]. split; [exact R3|].
+    intros x. rewrite xscan_cons. intros [Hx|Hx]%elem_of_app.
+    + by eapply event_viols.
+    + by apply R4.
+Qed.
+
+Lemma views_ok2_0 : views_ok2 ∅ state0.
+Proof. intros c. unfold cur_of. simpl. by rewrite !lookup_empty. Qed.
+
+(* every member's view matches its session after every history: participants, entities, entity actions, asset
+   instances, the subscriptions, and the components of every type the view is synced on (or that no un-notified
+   change has touched since the view last covered it) *)
+Theorem views_simulation_full cfg h :
+  cfg_flags cfg = [] → short h →
+  ∀ c, match cur_of (final cfg h) c with
+       | Some (sid, p) => ∃ v SS, views_after cfg (run cfg h) !! c = Some v ∧ sessions (final cfg h) !! sid = Some SS ∧
+                                  vrel v sid p SS ∧ crel v p SS
+       | None => views_after cfg (run cfg h) !! c = None
+       end.
+Proof.
+  intros Hf Hs c. unfold short in Hs.
+  destruct (views_run2 cfg h state0 0 0%nat spec0 ∅ (noflags cfg Hf) (ginv_state0 cfg) Own.own_inv_state0 ltac:(lia)
+              spec_ok_0 spec_ok2_0 views_ok2_0) as (_&_&H&_).
+  exact (H c).
+Qed.
+
+(* on a model history the predicate never reports a broadcast that cannot be applied (106), nor a synced participant
+   left untold about a component change (105) *)
+Theorem deliveries_applicable cfg h x :
+  cfg_flags cfg = [] → short h → x ∈ P_C01 cfg (run cfg h) → v_code x ≠ 106%Z ∧ v_code x ≠ 105%Z.
+Proof.
+  intros Hf Hs Hx. unfold short in Hs.
+  destruct (views_run2 cfg h state0 0 0%nat spec0 ∅ (noflags cfg Hf) (ginv_state0 cfg) Own.own_inv_state0 ltac:(lia)
+              spec_ok_0 spec_ok2_0 views_ok2_0) as (_&_&_&H).
+  by apply H.
+Qed.
+
+(* the same, spelled out *)
+Theorem views_simulation_expanded cfg h :
+  cfg_flags cfg = [] → short h →
+  ∀ c, match cur_of (final cfg h) c with
+       | Some (sid, p) =>
+           ∃ v SS, views_after cfg (run cfg h) !! c = Some v ∧ sessions (final cfg h) !! sid = Some SS ∧
+             v_sid v = sid ∧ v_pid v = p ∧ view_matches v SS ∧ v_acts v = s_actions SS ∧ v_assets v = s_assets SS ∧
+             (∀ tid, tid ∈ v_subd v ↔ p ∈ subs_of (s_store SS) tid) ∧ v_synced v ⊆ v_subd v ∧
+             (∀ tid, tid ∈ v_synced v ∨ tid ∉ v_dirty v →
+                ∀ eid, v_comps v !! (tid, eid) = st_comps (s_store SS) !! (tid, eid))
+       | None => views_after cfg (run cfg h) !! c = None
+       end.
+Proof.
+  intros Hf Hs c. pose proof (views_simulation_full cfg h Hf Hs c) as H.
+  destruct (cur_of (final cfg h) c) as [[sid p]|]; [|done].
+  destruct H as (v&SS&Hv&HS&(V1&V2&M&V3&V4)&(C1&C2&C3)). exists v, SS. repeat split; try done; try apply M; try apply C1.
+  intros tid Ht eid. apply C3; [set_solver|done].
+Qed.
+
+Theorem views_member_full cfg h c cn sid p SS :
+  cfg_flags cfg = [] → short h → member_of cfg h c cn sid p SS →
+  ∃ v, views_after cfg (run cfg h) !! c = Some v ∧
+       v_sid v = sid ∧ v_pid v = p ∧ view_matches v SS ∧ v_acts v = s_actions SS ∧ v_assets v = s_assets SS ∧
+       (∀ tid, tid ∈ v_subd v ↔ p ∈ subs_of (s_store SS) tid) ∧ v_synced v ⊆ v_subd v ∧
+       (∀ tid, tid ∈ v_synced v ∨ tid ∉ v_dirty v →
+          ∀ eid, v_comps v !! (tid, eid) = st_comps (s_store SS) !! (tid, eid)).
+Proof.
+  intros Hf Hs [Hc Hcur HS]. pose proof (views_simulation_expanded cfg h Hf Hs c) as H.
+  unfold cur_of in H. rewrite Hc in H. simpl in H. rewrite Hcur in H.
+  destruct H as (v&SS'&Hv&HS'&H). assert (SS' = SS) as -> by congruence. by exists v.
+Qed.
+
+(* the spec the predicate consults agrees with the model on entities and components, too *)
+Theorem spec_entities_components cfg h :
+  cfg_flags cfg = [] → short h →
+  (∀ sid eid, sp_ents (spec_after (run cfg h)) !! (sid, eid) =
+              (λ e, (ent_to_pb eid e, e_persist e)) <$> (sessions (final cfg h) !! sid ≫= λ SS, s_ents SS !! eid)) ∧
+  (∀ sid tid eid, sp_comps (spec_after (run cfg h)) !! (sid, tid, eid) =
+                  sessions (final cfg h) !! sid ≫= λ SS, st_comps (s_store SS) !! (tid, eid)).
+Proof.
+  intros Hf Hs. unfold short in Hs.
+  destruct (views_run2 cfg h state0 0 0%nat spec0 ∅ (noflags cfg Hf) (ginv_state0 cfg) Own.own_inv_state0 ltac:(lia)
+              spec_ok_0 spec_ok2_0 views_ok2_0) as (_&H&_&_).
+  assert (E : (vscan cfg 0 spec0 ∅ (run_from cfg state0 h).1).2 = spec_after (run cfg h)).
+  { unfold spec_after, run. generalize (run_from cfg state0 h).1. generalize spec0. generalize (∅ : gmap N view). generalize 0%nat.
+    intros i vs sp t. revert i vs sp. induction t as [|e t IH]; intros i vs sp; [done|]. simpl. apply IH. }
+  rewrite E in H. exact H.
 Qed.
